@@ -7,35 +7,54 @@
    proved for every program of the fragment, every pair of related states, without any bound on the
    length of sequences or the nesting depth.  Builds on proofs/ExprCorrect.v (pure expressions).
 
-   The fragment ([sfrag rw IM V s V'], V / V' = the declared locals before / after, IM = the immediate
-   letters the behaviour uses, rw = the width the machine gives every operand handle):
+   The fragment ([sfrag rw IM D V s D' V'], D / D' = the DECLARED locals before / after, V / V' = those of them that
+   have a value (ExprCorrect.vext V D), IM = the immediate letters the behaviour uses, rw = the width the machine
+   gives every operand handle):
      RdV = e;  RxxV = e;  PdV = e; ...   assignment of a pfrag expression to a destination register operand
-     RxV += e;  RxV -= e;  RxV *= e;     compound assignment to a register operand (accumulate)
-     x = e;   x += e;  x -= e;  x *= e;  assignment / compound assignment to a declared integer local
+     HEX_REG_ALIAS_<n> = e;              assignment to one of the 17 aliased control registers (ExprCorrect.alias_names)
+     P0 = e;  ... P3, R29, R30, R31      assignment to an explicitly named register (fWRITE_P0(e); ExprCorrect.expl_names;
+                                         premise ExprCorrect.xi_ok: the C semantics is given the table of these registers)
+     riV = e;                            assignment to an immediate (fPCALIGN: riV = riV & ~3)
+     RxV += e;  -= *= &= |= ^= <<= >>=   compound assignment to a register operand
+     x = e;   x += e;  -= *= &= |= ^= <<= >>=   assignment / compound assignment to a declared integer local that has a value
      T x = e;                            declaration with initialiser of a FRESH name
+     T x;   ...   x = e;                 declaration without initialiser; the FIRST assignment gives the value
+                                         (also in both arms of an if / else)
+     EA = e;  i = e;  j = e;  k = e;     first assignment of an implicitly declared name (uint32_t)
      mem_store_<s|u><w>(a, v);           memory store
      JUMP(e);                            jump (the RzIL locals jump_flag / jump_target mirror C's jump state)
+     cancel_slot;  STORE_SLOT_CANCELLED(a, b);     (CSem gives these no meaning: the simulation is vacuous on the
+                                         paths that execute them; the lowering itself and all other paths are proved)
      ;   NOP   {}   { s1 ... sn }        empty statements, blocks and sequences of any length
      if (e) s1   if (e) s1 else s2       with pfrag condition and declaration-free branches of the fragment
+     for (i = e0; c; i++) body           (also i--): i a 32 bit local with a value after the initialisation, c a pfrag
+                                         condition, body a loop-free statement of the fragment that declares nothing.
+                                         The compiler turns i++ into a pending "hybrid" effect (temporary h_tmp<n> :=
+                                         i; i := INC(i)) that chk_hybrid_dep sequences after the body; the theorem
+                                         covers every number of iterations (induction on CSem's loop, RzIL REPEAT).
    where the expressions e (ExprCorrect.pfrag) read declared locals, literals, SOURCE REGISTER operands
    (RsV RtV RuV RvV RwV, read-write RxV RyV RzV, pairs RssV .. RxxV, classes R P C M), DESTINATION
-   operands read back (RdV ReV RddV: the value written so far, else 0), .new operands (PuN NsN ...) and
-   IMMEDIATES (siV uiV ...).
+   operands read back (RdV ReV RddV: the value written so far, else 0), .new operands (PuN NsN ...),
+   IMMEDIATES (siV uiV ...), aliased control registers and the PC alias, explicitly named registers (P0 .. P3, R29 .. R31), memory loads under a cast, the pure
+   macros (extract / sextract / deposit / bswap) and sizeof.
    Main results: [stmt_correct] (lower_stmt), [stmts_correct] (lower_stmts), [tlower_correct] and
    [tlower_correct_fuel] (tlower_info / tlower, including the final wrapping: the immediate prologue and
-   the finalisation of register operands against the final register table), [Example.prog_simulated],
+   the finalisation of register operands against the final register table; the final hybrid counter h' is
+   cfg_hstart plus the number of loops), [Example.prog_simulated],
    [Example.prog2_simulated] (registers and an immediate), [Example.prog3_simulated] (predicates, pairs, .new),
    [Example.prog4_simulated] (a local named like an unused immediate letter), [Example.prog5_simulated] (accumulate).
 
    Outside the fragment, and why (see also Example.redeclaration_counterexample,
    Example.imm_local_clash_refuted, Example.nreg_not_new_refuted):
-   - `T x;` without initialiser, and declarations inside the branches of an `if`: the model's variable
-     table is flat and keeps such a variable, while at run time it holds no value (or is not declared at
-     all when the other branch ran); ExprCorrect.rel demands a value for every declared variable;
+   - declarations inside the branches of an `if` or inside a loop body: the model's variable table is flat and keeps
+     such a variable, while at run time it is not declared when the branch / body did not run;
    - re-declaration of a name: the model mistranslates it (counterexample below);
-   - a local named like an immediate the behaviour uses (the fragment is parametrised by that set of
-     letters, IM): the model keeps immediates and locals in one table and confuses them (counterexample below);
-   - loads, calls, ++/--: not in ExprCorrect.pfrag. *)
+   - a local named like an immediate the behaviour uses, or like a compiler temporary h_tmp<n> (the fragment is
+     parametrised by the set of letters IM; im_ok IM excludes the names jump_flag, jump_target, h_tmp...): the model
+     keeps immediates, temporaries and locals in one table and confuses them (counterexample below);
+   - loops inside a loop body, loop variables that are not 32 bits wide, while / do loops (the model rejects those),
+     ++ / -- anywhere but as the step of a for loop, /= %= (the repaired and the real translation differ: D19),
+     compound assignment to aliases / explicit registers, statement expressions, calls of sub-routines as values. *)
 From Coq Require Import ZArith NArith List Bool String Ascii Lia.
 From RZ.lib Require Import BV PyHeap.
 From RZ.sem Require Import RzIL CSem.
@@ -214,24 +233,25 @@ Proof.
                  | AUnknown => if String.eqb (first_char name) "P" then APW else AW
                  | a => a end).
     assert (Hpc : r_pc ri = false).
-    { destruct (Hr _ _ El) as [[c [l [a [nw [_ [_ [_ [_ [_ [H6 _]]]]]]]]]] | [[nm [nw [_ [_ [_ [_ [H5 _]]]]]]] | [Hn _]]]; [exact H6 | exact H5 | contradiction]. }
+    { destruct (Hr _ _ El) as [[c [l [a [nw [_ [_ [_ [_ [_ [H6 _]]]]]]]]]] | [[nm [nw [_ [_ [_ [_ [H5 _]]]]]]] | [[Hn _] | [nm [nw [_ [_ [_ [_ [H5 _]]]]]]]]]]; [exact H6 | exact H5 | contradiction | exact H5]. }
     assert (Hle : acc_le (r_pc ri) (r_acc ri) acc').
     { unfold acc_le, acc'. rewrite Hpc. destruct (r_acc ri); try (right; split; [reflexivity | intros _; discriminate]). left. auto. }
     eexists. split; [reflexivity|]. cbn [st_vars st_regs st_imms].
     split; [reflexivity|]. split; [reflexivity|].
     split.
-    + unfold st_ext; cbn [st_pending st_hcount st_imms st_removed st_nonempty st_regs]. repeat split; auto using incl_refl.
+    + unfold st_ext; cbn [st_pending st_hcount st_imms st_removed st_nonempty st_regs]. repeat split; auto using incl_refl, N.le_refl.
       intros n r H. rewrite lookup_reg_info_update, H.
       destruct (String.eqb_spec name n) as [<-|_]; [|exists r; auto using acc_le_refl].
       rewrite El in H. injection H as <-. eexists. split; [reflexivity|]. cbn [r_op r_pc r_new r_acc]. fold acc'. auto.
     + intros n r. rewrite lookup_reg_info_update. destruct (lookup_reg_info n (st_regs st)) as [r0|] eqn:Eln; [|discriminate].
       destruct (String.eqb_spec name n) as [<-|_].
       * intros H; injection H as <-. rewrite El in Eln. injection Eln as <-.
-        destruct (Hr _ _ El) as [[c [l [a [nw [H1 [H2 [H3 [H4 [H5 [H6 [H7 [H8 H9]]]]]]]]]]]] | [[nm [nw [H1 [H2 [H3 [H4 [H5 H6]]]]]]] | [Hn _]]].
+        destruct (Hr _ _ El) as [[c [l [a [nw [H1 [H2 [H3 [H4 [H5 [H6 [H7 [H8 H9]]]]]]]]]]]] | [[nm [nw [H1 [H2 [H3 [H4 [H5 H6]]]]]]] | [[Hn _] | [nm [nw [H1 [H2 [H3 [H4 [H5 H6]]]]]]]]]].
         -- left. exists c, l, a, nw. cbn [r_op r_ty r_pc r_new r_acc]. fold acc'.
            destruct Hle as [[_ Hu] | [Hw Hn]]; [contradiction|]. rewrite Hw. auto 12.
         -- right. left. exists nm, nw. cbn [r_op r_ty r_pc r_new r_acc]. auto 10.
         -- contradiction.
+        -- right. right. right. exists nm, nw. cbn [r_op r_ty r_pc r_new r_acc]. auto 10.
       * intros H; injection H as <-. exact (Hr _ _ Eln).
   - exists st. split; [reflexivity|]. split; [reflexivity|]. split; [reflexivity|]. split; [apply st_ext_refl | exact Hr].
 Qed.
@@ -265,6 +285,22 @@ Proof.
   rewrite P', Hp, O', Ho. reflexivity.
 Qed.
 
+Lemma expl_op_not_pc name new : In name expl_names -> regop_eqb pc_op (expl_op name new) = false.
+Proof.
+  intros H. destruct (expl_facts name new H) as [_ [Hx _]]. destruct (expl_op name new); try discriminate Hx. reflexivity.
+Qed.
+(* ... of an assignment to an explicit register *)
+Lemma fin_op_expl R rem regs name new ri : In name expl_names -> regs_ok regs ->
+  lookup_reg_info (expl_tname name new) regs = Some ri -> regs_le regs R -> norem rem ->
+  fin_op R rem (RParam ("$reg:" +++ expl_tname name new)) = expl_op name new.
+Proof.
+  intros Hin Hr Hl Hle Hrem. unfold fin_op. rewrite reg_name_of_reg. unfold reg_handle.
+  destruct (Hle _ _ Hl) as [ri' [L' [O' [P' _]]]]. rewrite L', Hrem.
+  destruct (entry_expl _ _ name new (Hr _ _ Hl) Hin eq_refl) as [nm [nw [Hin' [Hn [Ho [_ [Hp _]]]]]]].
+  destruct (expl_tname_inj _ _ _ _ Hin Hin' Hn) as [<- <-].
+  rewrite P', Hp, O', Ho. reflexivity.
+Qed.
+
 (* ================================================================== Layer 3: the state relation for statements *)
 (* [rel] of ExprCorrect (every declared integer local holds the same in-range value on both sides; the
    registers written so far are the same list; same operand environment), and: the IL state has no local
@@ -273,11 +309,34 @@ Qed.
    none of these is the name of a declared variable; the bytes stored so far are the same list on both
    sides; the C routine has not returned *)
 Definition reserved (IM : string -> bool) (x : string) : Prop :=
-  x = "jump_flag" \/ x = "jump_target" \/ IM x = true \/ imm_cname x = true.
+  x = "jump_flag" \/ x = "jump_target" \/ IM x = true \/ imm_cname x = true \/ is_htmp x = true.
 (* the two locals of JUMP are not immediate letters *)
-Definition im_ok (IM : string -> bool) : Prop := IM "jump_flag" = false /\ IM "jump_target" = false.
+Definition im_ok (IM : string -> bool) : Prop :=
+  IM "jump_flag" = false /\ IM "jump_target" = false /\ (forall x, is_htmp x = true -> IM x = false).
+(* decided for an explicit list of letters *)
+Definition im_ok_l (ls : list string) : bool :=
+  forallb (fun l => negb (String.eqb l "jump_flag") && negb (String.eqb l "jump_target") && negb (is_htmp l)) ls.
+Lemma im_ok_l_iff ls : im_ok_l ls = true <-> im_ok (fun l => existsb (String.eqb l) ls).
+Proof.
+  unfold im_ok_l, im_ok. rewrite forallb_forall. split.
+  - intros H.
+    assert (Hn : forall x, existsb (String.eqb x) ls = true ->
+                   String.eqb x "jump_flag" = false /\ String.eqb x "jump_target" = false /\ is_htmp x = false).
+    { intros x Hx. apply existsb_exists in Hx. destruct Hx as [y [Hy Exy]]. apply String.eqb_eq in Exy. subst y.
+      specialize (H x Hy). apply andb_prop in H. destruct H as [H H3]. apply andb_prop in H. destruct H as [H1 H2].
+      rewrite negb_true_iff in H1, H2, H3. auto. }
+    split; [|split].
+    + destruct (existsb (String.eqb "jump_flag") ls) eqn:Ee; [|reflexivity]. destruct (Hn _ Ee) as [H1 _]. discriminate H1.
+    + destruct (existsb (String.eqb "jump_target") ls) eqn:Ee; [|reflexivity]. destruct (Hn _ Ee) as [_ [H1 _]]. discriminate H1.
+    + intros x Hx. destruct (existsb (String.eqb x) ls) eqn:Ee; [|reflexivity]. destruct (Hn _ Ee) as [_ [_ H1]]. congruence.
+  - intros [H1 [H2 H3]] x Hx.
+    assert (Ex : existsb (String.eqb x) ls = true) by (apply existsb_exists; exists x; split; [exact Hx | apply String.eqb_refl]).
+    destruct (String.eqb_spec x "jump_flag") as [->|_]; [congruence|].
+    destruct (String.eqb_spec x "jump_target") as [->|_]; [congruence|].
+    destruct (is_htmp x) eqn:Eh; [rewrite (H3 x Eh) in Ex; discriminate Ex | reflexivity].
+Qed.
 Lemma im_ok_letters : im_ok imm_letter.
-Proof. split; reflexivity. Qed.
+Proof. exact (proj1 (im_ok_l_iff ["r"; "R"; "s"; "S"; "u"; "U"; "m"; "n"]) eq_refl). Qed.
 Definition jrel (cs : cstate) (ms : mstate) : Prop :=
   match cs_jump cs with
   | None => lookup "jump_flag" (locals ms) = None /\ lookup "jump_target" (locals ms) = None
@@ -294,13 +353,22 @@ Definition drel (IM : string -> bool) (D V : list (string * option vtype)) (cs :
     | Some (Some t) => lookup x (cs_vars cs) = Some ((vt_sg t, vt_w t), None)
     | _ => lookup x (cs_vars cs) = None
     end.
+(* the temporaries h_tmp<n> of the loops' i++ are IL locals that C does not have: each is unset or holds a 32 bit value *)
+Definition htmp_ok (ms : mstate) : Prop :=
+  forall x, is_htmp x = true -> lookup x (locals ms) = None \/ exists v, lookup x (locals ms) = Some (VBv 32 v).
+Lemma htmp_ok_set_local ms x v : is_htmp x = false -> htmp_ok ms -> htmp_ok (set_local ms x v).
+Proof.
+  intros Hx H y Hy. cbn [locals set_local lookup]. destruct (String.eqb_spec y x) as [->|_]; [congruence | exact (H y Hy)].
+Qed.
+Lemma htmp_ok_set_htmp ms x v : htmp_ok ms -> htmp_ok (set_local ms x (VBv 32 v)).
+Proof. intros H y Hy. cbn [locals set_local lookup]. destruct (String.eqb_spec y x) as [->|_]; [right; eauto | exact (H y Hy)]. Qed.
 Definition srel (IM : string -> bool) (E : cenv) (D V : list (string * option vtype)) (cs : cstate) (ms : mstate) : Prop :=
   rel IM E V cs ms /\ (forall x, lookup x V = None -> ~ reserved IM x -> lookup x (locals ms) = None) /\
   cs_mem cs = mem ms /\ cs_ret cs = None /\
   (forall x, reserved IM x -> lookup x D = None) /\ jrel cs ms /\
   (forall l, IM l = true ->
      lookup l (locals ms) = None \/ lookup l (locals ms) = Some (VBv 32 (cimm E cs l))) /\
-  drel IM D V cs /\ vext V D.
+  drel IM D V cs /\ vext V D /\ htmp_ok ms.
 
 Lemma srel_ret IM E D V cs ms : srel IM E D V cs ms -> cs_ret cs = None.
 Proof. intros H. apply H. Qed.
@@ -309,20 +377,22 @@ Proof. intros H. apply H. Qed.
 
 Lemma srel_nr IM E D V cs ms x t : srel IM E D V cs ms -> lookup x V = Some t -> ~ reserved IM x.
 Proof.
-  intros [_ [_ [_ [_ [H5 [_ [_ [_ H9]]]]]]]] Hx Hr. pose proof (H5 x Hr) as Q. rewrite (H9 _ _ Hx) in Q. discriminate Q.
+  intros [_ [_ [_ [_ [H5 [_ [_ [_ [H9 _]]]]]]]]] Hx Hr. pose proof (H5 x Hr) as Q. rewrite (H9 _ _ Hx) in Q. discriminate Q.
 Qed.
 
 Lemma not_reserved_imm IM x : ~ reserved IM x -> IM x = false /\ imm_cname x = false.
 Proof.
   intros H. split.
   - destruct (IM x) eqn:Ei; [|reflexivity]. exfalso. apply H. right. right. left. exact Ei.
-  - destruct (imm_cname x) eqn:Ei; [|reflexivity]. exfalso. apply H. right. right. right. exact Ei.
+  - destruct (imm_cname x) eqn:Ei; [|reflexivity]. exfalso. apply H. right. right. right. left. exact Ei.
 Qed.
+Lemma not_reserved_htmp IM x : ~ reserved IM x -> is_htmp x = false.
+Proof. intros H. destruct (is_htmp x) eqn:Ei; [|reflexivity]. exfalso. apply H. right. right. right. right. exact Ei. Qed.
 
 Lemma srel_set_reg IM E D V cs ms r z : srel IM E D V cs ms -> regop_eqb pc_op r = false ->
   srel IM E D V (set_regw cs r z) (set_reg ms r z).
 Proof.
-  intros [[R1 [R2 [R3 [R4 [R5 [R6 [R7 [R8 [R9 R10]]]]]]]]] [H2 [H3 [H4 [H5 [H6 [H7 [H8 H9]]]]]]]] Hpc. split; [|split; [exact H2|]].
+  intros [[R1 [R2 [R3 [R4 [R5 [R6 [R7 [R8 [R9 R10]]]]]]]]] [H2 [H3 [H4 [H5 [H6 [H7 [H8 [H9 H10]]]]]]]]] Hpc. split; [|split; [exact H2|]].
   - unfold rel. cbn [cs_vars cs_regw cs_mem set_regw locals rnew rold rnew0 imms mem mem0 pktaddr set_reg lookup_reg]. rewrite R2, Hpc, <- R2.
     auto 12.
   - cbn [cs_mem set_regw mem set_reg cs_ret]. auto 10.
@@ -398,7 +468,7 @@ Qed.
 Lemma srel_set_var IM E D V cs ms x sg w z : srel IM E D V cs ms -> lookup x V = Some (Some (ty_int sg w)) -> 0 <= z < pow2 w ->
   srel IM E D V (CSem.set_var cs x ((sg, w), z)) (set_local ms x (VBv w z)).
 Proof.
-  intros [R [H2 [H3 [H4 [H5 [H6 [H7 [H8 H9]]]]]]]] Hx Hz.
+  intros [R [H2 [H3 [H4 [H5 [H6 [H7 [H8 [H9 H10]]]]]]]]] Hx Hz.
   assert (Hnr : ~ reserved IM x) by (intros Hr; pose proof (H5 x Hr) as Q; rewrite (H9 _ _ Hx) in Q; discriminate Q).
   destruct (not_reserved_imm IM x Hnr) as [Hil Hic].
   split; [|split].
@@ -408,7 +478,7 @@ Proof.
   - intros y Hy Hyr. cbn [locals set_local lookup].
     destruct (String.eqb_spec y x) as [->|Hne]; [congruence | exact (H2 y Hy Hyr)].
   - cbn [CSem.set_var cs_mem mem set_local cs_ret]. repeat (split; [assumption|]).
-    split; [apply (jrel_set IM); assumption|]. split; [|split; [|exact H9]].
+    split; [apply (jrel_set IM); assumption|]. split; [|split; [|split; [exact H9 | apply htmp_ok_set_local; [exact (not_reserved_htmp IM x Hnr) | exact H10]]]].
     + intros l Hl. cbn [locals set_local lookup imms]. rewrite (imm_letter_neq IM x l Hil Hl), (cimm_set_var E cs x _ l Hic). exact (H7 l Hl).
     + apply (drel_set_var IM D V V cs x _ H8). intros y Hy. split; [intros ->; congruence | exact Hy].
 Qed.
@@ -418,7 +488,7 @@ Lemma srel_decl IM E D V cs ms x sg w z : srel IM E D V cs ms -> lookup x D = No
   srel IM E (D ++ [(x, Some (ty_int sg w))]) (V ++ [(x, Some (ty_int sg w))])
        (CSem.set_var cs x ((sg, w), z)) (set_local ms x (VBv w z)).
 Proof.
-  intros [R [H2 [H3 [H4 [H5 [H6 [H7 [H8 H9]]]]]]]] HxD Hnr Hz.
+  intros [R [H2 [H3 [H4 [H5 [H6 [H7 [H8 [H9 H10]]]]]]]]] HxD Hnr Hz.
   pose proof (vext_none V D x H9 HxD) as Hx.
   destruct (not_reserved_imm IM x Hnr) as [Hil Hic].
   split; [|split].
@@ -434,7 +504,7 @@ Proof.
     split; [|split; [apply (jrel_set IM); assumption|]].
     + intros y Hyr. rewrite lookup_app, (H5 y Hyr). cbn [lookup].
       destruct (String.eqb_spec y x) as [->|_]; [contradiction | reflexivity].
-    + split; [|split; [|apply vext_app; assumption]].
+    + split; [|split; [|split; [apply vext_app; assumption | apply htmp_ok_set_local; [exact (not_reserved_htmp IM x Hnr) | exact H10]]]].
       * intros l Hl. cbn [locals set_local lookup imms]. rewrite (imm_letter_neq IM x l Hil Hl), (cimm_set_var E cs x _ l Hic). exact (H7 l Hl).
       * intros y Hy Hyr. rewrite lookup_app in Hy. unfold CSem.set_var. cbn [cs_vars lookup] in *.
         destruct (lookup y V) eqn:Ely; [discriminate|].
@@ -448,7 +518,7 @@ Lemma srel_decl0 IM E D V cs ms x sg w : srel IM E D V cs ms -> lookup x D = Non
   srel IM E (D ++ [(x, Some (ty_int sg w))]) V
        (mkcs ((x, ((sg, w), None)) :: cs_vars cs) (cs_regw cs) (cs_mem cs) (cs_jump cs) (cs_ret cs) (cs_events cs)) ms.
 Proof.
-  intros [[R1 [R2 [R3 [R4 [R5 [R6 R7]]]]]] [H2 [H3 [H4 [H5 [H6 [H7 [H8 H9]]]]]]]] HxD Hnr.
+  intros [[R1 [R2 [R3 [R4 [R5 [R6 R7]]]]]] [H2 [H3 [H4 [H5 [H6 [H7 [H8 [H9 H10]]]]]]]]] HxD Hnr.
   pose proof (vext_none V D x H9 HxD) as Hx.
   destruct (not_reserved_imm IM x Hnr) as [Hil Hic].
   split; [|split; [exact H2|]].
@@ -456,7 +526,7 @@ Proof.
     + intros y sg' w' Hy Hw'. destruct (String.eqb_spec y x) as [->|_]; [congruence|]. exact (R1 y sg' w' Hy Hw').
     + intros l Hl. unfold cimm. cbn [cs_vars lookup]. rewrite (imm_cname_neq x l Hic). exact (R6 l Hl).
   - cbn [cs_mem cs_ret]. repeat (split; [assumption|]).
-    split; [|split; [exact H6|split; [|split; [|apply vext_app_r; exact H9]]]].
+    split; [|split; [exact H6|split; [|split; [|split; [apply vext_app_r; exact H9 | exact H10]]]]].
     2:{ intros l Hl. unfold cimm. cbn [cs_vars lookup]. rewrite (imm_cname_neq x l Hic). exact (H7 l Hl). }
     + intros y Hyr. rewrite lookup_app, (H5 y Hyr). cbn [lookup].
       destruct (String.eqb_spec y x) as [->|_]; [contradiction | reflexivity].
@@ -472,7 +542,7 @@ Lemma srel_first IM E D V cs ms x sg w z : srel IM E D V cs ms ->
   lookup x D = Some (Some (ty_int sg w)) -> lookup x V = None -> 0 <= z < pow2 w ->
   srel IM E D (V ++ [(x, Some (ty_int sg w))]) (CSem.set_var cs x ((sg, w), z)) (set_local ms x (VBv w z)).
 Proof.
-  intros [R [H2 [H3 [H4 [H5 [H6 [H7 [H8 H9]]]]]]]] HxD Hx Hz.
+  intros [R [H2 [H3 [H4 [H5 [H6 [H7 [H8 [H9 H10]]]]]]]]] HxD Hx Hz.
   assert (Hnr : ~ reserved IM x) by (intros Hr; rewrite (H5 x Hr) in HxD; discriminate HxD).
   destruct (not_reserved_imm IM x Hnr) as [Hil Hic].
   split; [|split].
@@ -485,11 +555,29 @@ Proof.
     destruct (lookup y V) eqn:Ely; [discriminate|].
     destruct (String.eqb_spec y x) as [->|Hne]; [discriminate | exact (H2 y Ely Hyr)].
   - cbn [CSem.set_var cs_mem mem set_local cs_ret]. repeat (split; [assumption|]).
-    split; [apply (jrel_set IM); assumption|]. split; [|split; [|apply vext_app_l; assumption]].
+    split; [apply (jrel_set IM); assumption|]. split; [|split; [|split; [apply vext_app_l; assumption | apply htmp_ok_set_local; [exact (not_reserved_htmp IM x Hnr) | exact H10]]]].
     + intros l Hl. cbn [locals set_local lookup imms]. rewrite (imm_letter_neq IM x l Hil Hl), (cimm_set_var E cs x _ l Hic). exact (H7 l Hl).
     + apply (drel_set_var IM D V _ cs x _ H8). intros y Hy. rewrite lookup_app in Hy.
       destruct (lookup y V) eqn:Ely; [discriminate|]. cbn [lookup] in Hy.
       destruct (String.eqb_spec y x) as [->|Hne]; [discriminate | auto].
+Qed.
+
+(* the temporary of a loop's i++ is set (an IL local only: the C state does not change) *)
+Lemma srel_set_htmp IM E D V cs ms x v : im_ok IM -> srel IM E D V cs ms -> is_htmp x = true ->
+  srel IM E D V cs (set_local ms x (VBv 32 v)).
+Proof.
+  intros [_ [_ HI3]] [[R1 R2] [H2 [H3 [H4 [H5 [H6 [H7 [H8 [H9 H10]]]]]]]]] Hx.
+  assert (Hr : reserved IM x) by (right; right; right; right; exact Hx).
+  assert (HxV : lookup x V = None) by exact (vext_none V D x H9 (H5 x Hr)).
+  split; [|split; [|split; [exact H3|split; [exact H4|split; [exact H5|split; [|split; [|split; [exact H8|split; [exact H9|]]]]]]]]].
+  - split; [|exact R2]. intros y sg w Hy Hw. cbn [locals set_local lookup].
+    destruct (String.eqb_spec y x) as [->|_]; [congruence | exact (R1 y sg w Hy Hw)].
+  - intros y Hy Hyr. cbn [locals set_local lookup]. destruct (String.eqb_spec y x) as [->|_]; [contradiction | exact (H2 y Hy Hyr)].
+  - unfold jrel in *. cbn [locals set_local lookup].
+    destruct (String.eqb_spec "jump_flag" x) as [<-|_]; [discriminate Hx|].
+    destruct (String.eqb_spec "jump_target" x) as [<-|_]; [discriminate Hx|]. exact H6.
+  - intros l Hl. cbn [locals set_local lookup]. destruct (String.eqb_spec l x) as [->|_]; [rewrite (HI3 x Hx) in Hl; discriminate Hl | exact (H7 l Hl)].
+  - apply htmp_ok_set_htmp. exact H10.
 Qed.
 
 (* an immediate is assigned:  riV = e;  (CSem keeps the value in the C local "imm:r", the IL in the local r of the prologue) *)
@@ -502,9 +590,9 @@ Proof. unfold cimm. cbn [CSem.set_var cs_vars lookup fst snd]. rewrite imm_name_
 Lemma srel_asg_imm IM E D V cs ms l sg z : im_ok IM -> srel IM E D V cs ms -> IM l = true -> 0 <= z < pow2 32 ->
   srel IM E D V (CSem.set_var cs ("imm:" +++ l) ((sg, 32%N), z)) (set_local ms l (VBv 32 z)).
 Proof.
-  intros [HI1 HI2] Hrel Hl Hz. pose proof Hrel as [[R1 [R2 [R3 [R4 [R5 [R6 R7]]]]]] [H2 [H3 [H4 [H5 [H6 [H7 [H8 H9]]]]]]]].
+  intros [HI1 [HI2 _]] Hrel Hl Hz. pose proof Hrel as [[R1 [R2 [R3 [R4 [R5 [R6 R7]]]]]] [H2 [H3 [H4 [H5 [H6 [H7 [H8 [H9 H10]]]]]]]]].
   assert (Hr : reserved IM l) by (right; right; left; exact Hl).
-  assert (Hrc : reserved IM ("imm:" +++ l)) by (right; right; right; apply imm_cname_imm).
+  assert (Hrc : reserved IM ("imm:" +++ l)) by (right; right; right; left; apply imm_cname_imm).
   split; [|split].
   - unfold rel. cbn [cs_vars cs_regw cs_mem CSem.set_var locals rnew rold rnew0 imms mem mem0 pktaddr set_local fst snd].
     split; [|split; [exact R2|split; [exact R3|split; [exact R4|split; [exact R5|split; [|exact R7]]]]]].
@@ -518,7 +606,7 @@ Proof.
     + unfold jrel in *. cbn [cs_jump locals set_local lookup].
       destruct (String.eqb_spec "jump_flag" l) as [<-|_]; [congruence|].
       destruct (String.eqb_spec "jump_target" l) as [<-|_]; [congruence|]. exact H6.
-    + split; [|split; [|exact H9]].
+    + split; [|split; [|split; [exact H9 | apply htmp_ok_set_htmp; exact H10]]].
       * intros l' Hl'. cbn [locals set_local lookup]. rewrite (cimm_asg E cs l sg z l').
         destruct (String.eqb l' l); [right; reflexivity | exact (H7 l' Hl')].
       * intros y Hy Hyr. specialize (H8 y Hy Hyr). unfold CSem.set_var. cbn [cs_vars lookup].
@@ -571,7 +659,7 @@ Definition implicit_name (x : string) : Prop := x = "EA" \/ x = "i" \/ x = "j" \
 (* a plain name that is neither a declared local, an immediate letter nor an implicitly declared local: the compiler
    passes it on as text (pkt, slot, ...) *)
 Definition raw_name (IM : string -> bool) (D : list (string * option vtype)) (x : string) : Prop :=
-  lookup x D = None /\ IM x = false /\ ~ implicit_name x.
+  lookup x D = None /\ IM x = false /\ ~ implicit_name x /\ is_htmp x = false.
 (* an argument of the call statement STORE_SLOT_CANCELLED: such a name, or an expression of the fragment *)
 Inductive carg (rw : regwidth) (IM : string -> bool) (D V : list (string * option vtype)) : cexpr -> Prop :=
 | ca_raw x : raw_name IM D x -> carg rw IM D V (EOp (OIdent x))
@@ -580,6 +668,18 @@ Inductive carg (rw : regwidth) (IM : string -> bool) (D V : list (string * optio
 Definition ssc_name : string := "STORE_SLOT_CANCELLED".
 Lemma ssc_ext : In ssc_name ext_calls.
 Proof. left. reflexivity. Qed.
+
+(* statements without a loop inside *)
+Fixpoint noloop (s : cstmt) : bool :=
+  match s with
+  | SFor _ _ _ _ | SWhile _ _ | SDo _ _ => false
+  | SIf _ t f => noloop t && match f with Some f => noloop f | None => true end
+  | SBlock l => (fix go (l : cstmts) : bool := match l with SNil => true | SCons s t => noloop s && go t end) l
+  | _ => true
+  end.
+Fixpoint noloops (l : cstmts) : bool := match l with SNil => true | SCons s t => noloop s && noloops t end.
+Lemma noloop_block l : noloop (SBlock l) = noloops l.
+Proof. induction l as [|s t IH]; [reflexivity|]. cbn [noloops]. rewrite <- IH. reflexivity. Qed.
 
 (* [sfrag rw IM D V s D' V']: statement s of the fragment, lowered with DECLARED locals D of which V have a value
    (expressions may read the locals of V only), leaves D' / V'.
@@ -595,6 +695,9 @@ Inductive sfrag (rw : regwidth) (IM : string -> bool) :
 | sf_asg_alias D V name new e :                       (* HEX_REG_ALIAS_LC0 = e;  HEX_REG_ALIAS_USR = e; ... *)
     In name alias_names -> rw (alias_op name new) = alias_w name ->
     pfrag rw IM V e -> sfrag rw IM D V (SExpr (EAssign AAssign (EOp (OAlias name new)) e)) D V
+| sf_asg_expl D V name new e :                        (* P0 = e;  (fWRITE_P0(e)) ... an explicitly named register *)
+    In name expl_names -> rw (expl_op name new) = expl_w name ->
+    pfrag rw IM V e -> sfrag rw IM D V (SExpr (EAssign AAssign (EOp (OExplicit name new)) e)) D V
 | sf_asg_imm D V l e :                                (* riV = e;  an immediate is assigned (fPCALIGN: riV = riV & ~3) *)
     IM l = true -> pfrag rw IM V e -> sfrag rw IM D V (SExpr (EAssign AAssign (EOp (OImm l)) e)) D V
 | sf_asg_var D V x sg w e :                           (* x = e;  for a declared local that has a value *)
@@ -625,6 +728,15 @@ Inductive sfrag (rw : regwidth) (IM : string -> bool) :
     dest_cls cls -> access_of_letters letters = Some acc ->
     rw (RIsa cls (substring 0 1 letters) false) = dest_w cls acc ->
     pfrag rw IM V e -> sfrag rw IM D V (SExpr (EAssign a (EOp (OReg cls letters)) e)) D V
+| sf_sasg_var D V a x sg w e :                        (* x <<= e;  x >>= e;  for a declared local that has a value *)
+    (a = AShl \/ a = AShr) ->
+    lookup x V = Some (Some (ty_int sg w)) -> okw w ->
+    pfrag rw IM V e -> sfrag rw IM D V (SExpr (EAssign a (EOp (OIdent x)) e)) D V
+| sf_sasg_reg D V a cls letters acc e :               (* RxV <<= e;  RxV >>= e; *)
+    (a = AShl \/ a = AShr) ->
+    dest_cls cls -> access_of_letters letters = Some acc ->
+    rw (RIsa cls (substring 0 1 letters) false) = dest_w cls acc ->
+    pfrag rw IM V e -> sfrag rw IM D V (SExpr (EAssign a (EOp (OReg cls letters)) e)) D V
 | sf_decl D V ts sg w x e :                           (* T x = e;  for a fresh name *)
     decl_ty ts sg w -> lookup x D = None -> ~ reserved IM x ->
     pfrag rw IM V e ->
@@ -645,6 +757,11 @@ Inductive sfrag (rw : regwidth) (IM : string -> bool) :
 | sf_if D V c t : pfrag rw IM V c -> sfrag rw IM D V t D V -> sfrag rw IM D V (SIf c t None) D V
 | sf_ifelse D V c t f V1 :                            (* both branches may give the same declared locals their first value *)
     pfrag rw IM V c -> sfrag rw IM D V t D V1 -> sfrag rw IM D V f D V1 -> sfrag rw IM D V (SIf c t (Some f)) D V1
+| sf_for D V e0 D1 V1 c inc i sg b :                  (* for (i = e; c; i++) body   (also i--): i a 32 bit local, body without loop *)
+    sfrag rw IM D V (SExpr e0) D1 V1 -> pfrag rw IM V1 c ->
+    lookup i V1 = Some (Some (ty_int sg 32)) ->
+    sfrag rw IM D1 V1 b D1 V1 -> noloop b = true ->
+    sfrag rw IM D V (SFor (SExpr e0) (SExpr c) (Some (EPost inc (EOp (OIdent i)))) b) D1 V1
 with sfrags (rw : regwidth) (IM : string -> bool) :
   list (string * option vtype) -> list (string * option vtype) -> cstmts ->
   list (string * option vtype) -> list (string * option vtype) -> Prop :=
@@ -687,6 +804,7 @@ Section StmtCorrect.
   (* ... and CSem's sub-routine table gives it no body (only sinv_ssc uses this) *)
   Hypothesis Hcssc : csub_ext csub.
   Variable xi : string -> bool -> option (regop * N).
+  Hypothesis Hxiok : xi_ok xi.
 
   (* ------------------------------------------------------------------ model-side helpers *)
   Lemma goodpv_numeric p : goodpv p -> is_numeric (pv_ty p) = true /\ vt_const (pv_ty p) = false.
@@ -696,27 +814,28 @@ Section StmtCorrect.
   Proof. unfold vtype_eqb. rewrite !eqb_reflx, N.eqb_refl. reflexivity. Qed.
 
   (* the conversion of an assignment's source to the (integer) type of its destination *)
-  Lemma cast_imm_ok dest src st sg w : okw w -> pv_ty dest = ty_int sg w -> goodpv src ->
-    exists src', cast_operands cfg true dest src st = OK ((dest, src'), st) /\ pv_ty src' = ty_int sg w /\
+  Lemma cast_imm_ok dest src st sg w : okw w -> ity (pv_ty dest) sg w -> goodpv src ->
+    exists src', cast_operands cfg true dest src st = OK ((dest, src'), st) /\ (ity (pv_ty src') sg w /\ pv_tmps src' = []) /\
       forall ms v, sem rw R rem ms src v ->
         exists z, 0 <= z < pow2 w /\ eval rw ms [] (fin_pure R rem (pv_term src')) = Some (VBv w z) /\
                   conv (sg, w) (cval_of (pv_ty src) v) = ((sg, w), z).
   Proof.
-    intros Hw Hd Hg. unfold cast_operands, bind, ty_eq. rewrite Hd.
-    rewrite (proj1 (goodpv_numeric src Hg)). cbn [is_numeric ty_int vt_void vt_ext negb andb ret].
-    destruct (vtype_eqb (ty_int sg w) (pv_ty src)) eqn:Eeq.
+    intros Hw Hd Hg. destruct (ity_inv _ _ _ Hd) as [hd Ed]. unfold cast_operands, bind, ty_eq. rewrite Ed.
+    rewrite (proj1 (goodpv_numeric src Hg)). cbn [is_numeric ty_h vt_void vt_ext negb andb ret].
+    destruct (vtype_eqb (ty_h hd sg w) (pv_ty src)) eqn:Eeq.
     - exists src. split; [reflexivity|].
-      destruct Hg as [[Ht _] | [s0 [w0 [Hw0 [Ht _]]]]]; rewrite Ht in Eeq.
-      + exfalso. unfold vtype_eqb in Eeq. cbn in Eeq. okw_cases Hw; discriminate.
-      + apply vtype_eqb_int in Eeq. destruct Eeq as [<- <-]. split; [exact Ht|].
+      pose proof Hg as [[Ht _] | [s0 [w0 [Hw0 [Ht _]]]]].
+      + rewrite Ht in Eeq. exfalso. unfold vtype_eqb in Eeq. cbn in Eeq. okw_cases Hw; discriminate.
+      + destruct (ity_inv _ _ _ Ht) as [h0 Et]. rewrite Et in Eeq.
+        apply (vtype_eqb_h hd sg w h0 s0 w0) in Eeq. destruct Eeq as [<- <-]. split; [split; [exact Ht | exact (goodpv_tmps src Hg)]|].
         intros ms v Hs. destruct (sem_int rw R rem ms src v sg w Ht Hs) as [z [-> [Hz He]]].
-        exists z. split; [exact Hz|]. split; [exact He|]. rewrite Ht. cbn [cval_of vt_sg ty_int].
+        exists z. split; [exact Hz|]. split; [exact He|]. rewrite (cval_of_ity _ sg w z Ht).
         apply (conv_same ((sg, w), z)). split; auto.
-    - destruct (init_a_cast_ok subsigs macs cret hstart rw R rem sg w src st Hw Hg) as [p' [H1 [_ [H3 [_ H5]]]]].
-      rewrite H1. exists p'. split; [reflexivity|]. split; [exact H3|].
+    - destruct (init_a_cast_gen subsigs macs cret hstart rw R rem (ty_h hd sg w) sg w src st Hw (ity_h _ _ _) Hg) as [p' [H1 [H2 [H3 [_ H5]]]]].
+      rewrite H1. exists p'. split; [reflexivity|]. split; [split; [exact H3 | exact (goodpv_tmps p' H2)]|].
       intros ms v Hs. destruct (H5 ms v Hs) as [v' [Hs' Hc]].
       destruct (sem_int rw R rem ms p' v' sg w H3 Hs') as [z [-> [Hz He]]].
-      exists z. split; [exact Hz|]. split; [exact He|]. rewrite <- Hc, H3. reflexivity.
+      exists z. split; [exact Hz|]. split; [exact He|]. rewrite <- Hc, (cval_of_ity _ sg w z H3). reflexivity.
   Qed.
 
   Lemma cast_self_ok dest src st : goodpv src -> pv_ty dest = pv_ty src ->
@@ -730,11 +849,19 @@ Section StmtCorrect.
     bind m f st = OK (b, st') -> bind m (fun a => bind (f a) g) st = g b st'.
   Proof. unfold bind. destruct (m st) as [[a s1]|]; [|discriminate]. intros ->. reflexivity. Qed.
 
-  Lemma chk_nil e b t st : st_pending st = [] -> chk_hybrid_dep e b t st = OK (e, st).
-  Proof. intros H. unfold chk_hybrid_dep, bind, get. rewrite H. reflexivity. Qed.
+  (* chk_hybrid_dep leaves an effect alone when no hybrid is pending, and also when the effect mentions no temporary
+     (inside the body of a for loop the hybrid of the loop's i++ is pending: it belongs to the loop, not to the body) *)
+  Lemma chk_nil e b st : st_pending st = [] \/ le_tmps e = [] -> chk_hybrid_dep e b false st = OK (e, st).
+  Proof.
+    intros [H | H]; unfold chk_hybrid_dep, bind, get; [rewrite H; reflexivity|].
+    destruct (st_pending st) as [|p0 l]; [reflexivity|]. rewrite H. reflexivity.
+  Qed.
 
-  Lemma hyb_nil e st : st_pending st = [] -> hyb_wrapped e st = OK (false, st).
-  Proof. intros H. unfold hyb_wrapped, bind, get, ret. rewrite H. reflexivity. Qed.
+  Lemma hyb_nil e st : st_pending st = [] \/ le_tmps e = [] -> hyb_wrapped e st = OK (false, st).
+  Proof.
+    intros [H | H]; unfold hyb_wrapped, bind, get, ret; [rewrite H; reflexivity|].
+    destruct (st_pending st) as [|p0 l]; [reflexivity|]. rewrite H. reflexivity.
+  Qed.
 
   Lemma decl_ty_ok ts sg w st : decl_ty ts sg w ->
     decl_type ts st = OK (ty_int sg w, st) /\ resolve_ty_c ts = Some (sg, w) /\ okw w.
@@ -907,6 +1034,14 @@ Section StmtCorrect.
 
   (* ------------------------------------------------------------------ the invariant *)
   Definition plain_item (i : item) : Prop := match i with IEff _ | IAsg _ _ | IVoid _ => True | _ => False end.
+  (* the items of a loop-free statement mention no temporary *)
+  Definition pitem (nl : bool) (i : item) : Prop := plain_item i /\ (nl = true -> item_tmps i = []).
+  Lemma pitem_plain nl items : Forall (pitem nl) items -> Forall plain_item items.
+  Proof. intros H. eapply Forall_impl; [|exact H]. intros i [Hi _]. exact Hi. Qed.
+  Lemma pitem_weaken nl nl' items : (nl' = true -> nl = true) -> Forall (pitem nl) items -> Forall (pitem nl') items.
+  Proof. intros Hn H. eapply Forall_impl; [|exact H]. intros i [Hi Ht]. split; [exact Hi | intros E'; exact (Ht (Hn E'))]. Qed.
+  Lemma pitem_tmps items : Forall (pitem true) items -> flat_map item_tmps items = [].
+  Proof. induction 1 as [|i l [_ Hi] _ IH]; [reflexivity|]. cbn [flat_map]. rewrite (Hi eq_refl), IH. reflexivity. Qed.
 
   (* the simulation diagram, for the C executor cex (cexec on a statement / cexecs on a list); J is the
      immediate prologue that has been executed (any list containing the entries the model has created) *)
@@ -914,23 +1049,23 @@ Section StmtCorrect.
     forall cs ms fuel cs', srel IM E D V cs ms -> imms_done IM E J cs ms -> cex fuel cs = Some cs' ->
       exists ms', runs rw ilsubs eff ms ms' /\ srel IM E D' V' cs' ms' /\ imms_done IM E J cs' ms'.
 
-  Definition post (D V D' V' : list (string * option vtype)) (st st' : lstate) (items : list item)
+  Definition post (D V D' V' : list (string * option vtype)) (nl : bool) (st st' : lstate) (items : list item)
                   (cex : nat -> cstate -> option cstate) : Prop :=
-    lst_ok IM D' st' /\ st_ext st st' /\ Forall plain_item items /\
+    lst_ok IM D' st' /\ st_ext st st' /\ Forall (pitem nl) items /\
     (regs_le (st_regs st') R -> norem rem -> incl (st_imms st') J ->
       sim D V D' V' (fin_eff R rem (seqn (flat_map item_effects items))) cex).
 
   (* (D is the model's variable table, V the locals the run-time states are related on; vext V D) *)
   Definition SInv (D V : list (string * option vtype)) (s : cstmt) (D' V' : list (string * option vtype)) : Prop :=
-    forall st, vext V D -> lst_ok IM D st -> st_pending st = [] ->
+    forall st, vext V D -> lst_ok IM D st -> st_pending st = [] \/ noloop s = true ->
       exists items st', lower_stmt cfg s st = OK (items, st') /\
-        post D V D' V' st st' items (fun fuel cs => cexec E csub xi fuel cs s) /\
+        post D V D' V' (noloop s) st st' items (fun fuel cs => cexec E csub xi fuel cs s) /\
         (started st -> st_nonempty st' = true).
 
   Definition SsInv (D V : list (string * option vtype)) (l : cstmts) (D' V' : list (string * option vtype)) : Prop :=
-    forall st, vext V D -> lst_ok IM D st -> st_pending st = [] ->
+    forall st, vext V D -> lst_ok IM D st -> st_pending st = [] \/ noloops l = true ->
       exists items st', lower_stmts cfg l st = OK (items, st') /\
-        post D V D' V' st st' items (fun fuel cs => cexecs E csub xi fuel cs l) /\
+        post D V D' V' (noloops l) st st' items (fun fuel cs => cexecs E csub xi fuel cs l) /\
         (started st -> l <> SNil -> st_nonempty st' = true).
 
   Lemma mk_assign_reg dest src st st' name : vt_const (pv_ty dest) = false -> pv_kind dest = KReg name ->
@@ -944,6 +1079,16 @@ Section StmtCorrect.
   Proof. intros H1 [H2 | [b H2]]; unfold mk_assign; rewrite H1, H2; reflexivity. Qed.
 
   Ltac step H := rewrite H; cbv beta iota.
+  (* "this effect / item mentions no temporary" *)
+  Ltac tm0 :=
+    repeat match goal with x := _ : pval |- _ => subst x end;
+    cbn [le_tmps item_tmps pv_tmps app empty_eff];
+    repeat match goal with
+    | H : pv_tmps ?p = [] |- context [pv_tmps ?p] => rewrite H
+    | H : _ /\ pv_tmps ?p = [] |- context [pv_tmps ?p] => rewrite (proj2 H)
+    | H : goodpv ?p |- context [pv_tmps ?p] => rewrite (goodpv_tmps p H)
+    end; cbn [app]; reflexivity.
+  Ltac pl0 := repeat (apply Forall_cons || apply Forall_nil); try (split; [exact I | intros _; tm0]).
 
   (* the expression of a statement: ExprCorrect.expr_inv, with the premises of its semantic half discharged
      from those of the statement's simulation *)
@@ -956,7 +1101,7 @@ Section StmtCorrect.
           forall fuel cs' cv, ceval E csub xi fuel cs e = Some (cs', cv) -> cs' = cs /\ cv = cval_of (pv_ty pv) ilv.
   Proof.
     intros Hfrag Hext Hok.
-    destruct (expr_inv subsigs macs cret hstart Hmacs Hssc rw R rem IM E csub Hcssc xi V e Hfrag Vl st Hext Hok) as [pv [st2 [L2 [X2 [K2 [G2 [_ [_ Hsem]]]]]]]].
+    destruct (expr_inv subsigs macs cret hstart Hmacs Hssc rw R rem IM E csub Hcssc xi Hxiok V e Hfrag Vl st Hext Hok) as [pv [st2 [L2 [X2 [K2 [G2 [_ [_ Hsem]]]]]]]].
     exists pv, st2. repeat (split; [assumption|]).
     intros st3 X3 HR Hrem HJ cs ms Hrel Himm.
     destruct (Hsem (regs_le_trans _ _ _ (st_ext_regs _ _ X3) HR) Hrem cs ms Hrel
@@ -976,21 +1121,20 @@ Section StmtCorrect.
     destruct (expr_sim_ext V D e st1 Hfrag Hext Hok1) as [pv [st2 [L2 [X2 [Hok2 [G2 Hsem]]]]]].
     set (n := rname cls letters false) in *.
     pose (dest := mkpv (PRaw ("$reg:" +++ n)) (ty_int true (dest_w cls acc)) (KReg n) []).
-    destruct (cast_imm_ok dest pv st2 true (dest_w cls acc) (dest_w_okw cls acc Hc) eq_refl G2) as [src' [C1 [T1 Hc1]]].
+    destruct (cast_imm_ok dest pv st2 true (dest_w cls acc) (dest_w_okw cls acc Hc) (ity_int _ _) G2) as [src' [C1 [T1 Hc1]]].
     destruct (add_write_property_ok n st2 (lst_ok_regs_ok _ _ _ Hok2) (isa_not_pcname cls letters false (reg_cls_any false _ (or_introl Hc)) (access_in_table _ _ Ha))) as [st3 [W1 [V3 [I3 [X3 R3]]]]].
     assert (Hok3 : lst_ok IM D st3) by (eapply lst_ok_regs; eassumption).
     assert (X13 : st_ext st st3) by (eapply st_ext_trans; [exact X1|]; eapply st_ext_trans; eassumption).
-    assert (P3 : st_pending st3 = []) by (eapply st_ext_pending; eassumption).
     exists [IAsg (mkle (EWriteReg (RParam ("$reg:" +++ n)) (rd src')) (pv_tmps dest ++ pv_tmps src') false) src'], st3.
     split.
     { rewrite lower_stmt_expr, lower_expr_asg, lower_expr_op. cbn [lower_operand]. unfold asg_tail, bind, ret.
       step L1. step L2. fold dest. step C1. cbn [compound_src]. unfold ret.
       rewrite (mk_assign_reg dest src' st2 st3 n eq_refl eq_refl W1).
-      rewrite ?hyb_nil by exact P3; rewrite chk_nil by exact P3. reflexivity. }
+      rewrite ?hyb_nil by (right; tm0); rewrite chk_nil by (right; tm0). reflexivity. }
     split.
-    { split; [exact Hok3|]. split; [exact X13|]. split; [repeat constructor|].
+    { split; [exact Hok3|]. split; [exact X13|]. split; [pl0|].
       intros HR Hrem HJ cs ms fuel cs' Hrel Himm Hce.
-      pose proof Hrel as [Hrel0 [Hloc [Hmem [Hret [Hres [Hj [Himl [Hcloc Hvx]]]]]]]].
+      pose proof Hrel as [Hrel0 [Hloc [Hmem [Hret [Hres [Hj [Himl [Hcloc [Hvx Hht]]]]]]]]].
       destruct (Hsem st3 X3 HR Hrem HJ cs ms Hrel0 Himm) as [ilv [Sv Hcv]].
       destruct (Hc1 ms ilv Sv) as [z [Hz [Ez Cz]]].
       destruct (cexec_asg_inv fuel cs _ e cs' Hret Hce) as [k [s1 [vr [lv [Ee [Eo ->]]]]]].
@@ -1019,21 +1163,20 @@ Section StmtCorrect.
     destruct (expr_sim_ext V D e st1 Hfrag Hext Hok1) as [pv [st2 [L2 [X2 [Hok2 [G2 Hsem]]]]]].
     set (n := alias_tname name new) in *.
     pose (dest := mkpv (PRaw ("$reg:" +++ n)) (ty_int false (alias_w name)) (KReg n) []).
-    destruct (cast_imm_ok dest pv st2 false (alias_w name) Hw eq_refl G2) as [src' [C1 [T1 Hc1]]].
+    destruct (cast_imm_ok dest pv st2 false (alias_w name) Hw (ity_int _ _) G2) as [src' [C1 [T1 Hc1]]].
     destruct (add_write_property_ok n st2 (lst_ok_regs_ok _ _ _ Hok2) (alias_not_pcname name new Hin)) as [st3 [W1 [V3 [I3 [X3 R3]]]]].
     assert (Hok3 : lst_ok IM D st3) by (eapply lst_ok_regs; eassumption).
     assert (X13 : st_ext st st3) by (eapply st_ext_trans; [exact X1|]; eapply st_ext_trans; eassumption).
-    assert (P3 : st_pending st3 = []) by (eapply st_ext_pending; eassumption).
     exists [IAsg (mkle (EWriteReg (RParam ("$reg:" +++ n)) (rd src')) (pv_tmps dest ++ pv_tmps src') false) src'], st3.
     split.
     { rewrite lower_stmt_expr, lower_expr_asg, lower_expr_op. unfold asg_tail, bind, ret.
       step L1. step L2. fold dest. step C1. cbn [compound_src]. unfold ret.
       rewrite (mk_assign_reg dest src' st2 st3 n eq_refl eq_refl W1).
-      rewrite ?hyb_nil by exact P3; rewrite chk_nil by exact P3. reflexivity. }
+      rewrite ?hyb_nil by (right; tm0); rewrite chk_nil by (right; tm0). reflexivity. }
     split.
-    { split; [exact Hok3|]. split; [exact X13|]. split; [repeat constructor|].
+    { split; [exact Hok3|]. split; [exact X13|]. split; [pl0|].
       intros HR Hrem HJ cs ms fuel cs' Hrel Himm Hce.
-      pose proof Hrel as [Hrel0 [Hloc [Hmem [Hret [Hres [Hj [Himl [Hcloc Hvx]]]]]]]].
+      pose proof Hrel as [Hrel0 [Hloc [Hmem [Hret [Hres [Hj [Himl [Hcloc [Hvx Hht]]]]]]]]].
       destruct (Hsem st3 X3 HR Hrem HJ cs ms Hrel0 Himm) as [ilv [Sv Hcv]].
       destruct (Hc1 ms ilv Sv) as [z [Hz [Ez Cz]]].
       destruct (cexec_asg_inv fuel cs _ e cs' Hret Hce) as [k [s1 [vr [lv [Ee [Eo ->]]]]]].
@@ -1052,23 +1195,63 @@ Section StmtCorrect.
   Qed.
 
 
+  (* ------------------------------------------------------------------ P0 = e;  (an explicit register: fWRITE_P0(e)) *)
+  Lemma sinv_asg_expl D V name new e :
+    In name expl_names -> rw (expl_op name new) = expl_w name ->
+    pfrag rw IM V e -> SInv D V (SExpr (EAssign AAssign (EOp (OExplicit name new)) e)) D V.
+  Proof.
+    intros Hin Hrw Hfrag st Hext Hok Hp. destruct (expl_facts name new Hin) as [Hinfo [_ Hw]].
+    destruct (lower_expl_ok cfg name new st Hin (lst_ok_regs_ok _ _ _ Hok)) as [st1 [L1 [V1 [I1 [X1 [R1 [N1 [ri1 Lk1]]]]]]]].
+    assert (Hok1 : lst_ok IM D st1) by (eapply lst_ok_regs; eassumption).
+    destruct (expr_sim_ext V D e st1 Hfrag Hext Hok1) as [pv [st2 [L2 [X2 [Hok2 [G2 Hsem]]]]]].
+    set (n := expl_tname name new) in *.
+    pose (dest := mkpv (PRaw ("$reg:" +++ n)) (ty_int true (expl_w name)) (KReg n) []).
+    destruct (cast_imm_ok dest pv st2 true (expl_w name) Hw (ity_int _ _) G2) as [src' [C1 [T1 Hc1]]].
+    destruct (add_write_property_ok n st2 (lst_ok_regs_ok _ _ _ Hok2) (expl_not_pcname name new Hin)) as [st3 [W1 [V3 [I3 [X3 R3]]]]].
+    assert (Hok3 : lst_ok IM D st3) by (eapply lst_ok_regs; eassumption).
+    assert (X13 : st_ext st st3) by (eapply st_ext_trans; [exact X1|]; eapply st_ext_trans; eassumption).
+    exists [IAsg (mkle (EWriteReg (RParam ("$reg:" +++ n)) (rd src')) (pv_tmps dest ++ pv_tmps src') false) src'], st3.
+    split.
+    { rewrite lower_stmt_expr, lower_expr_asg, lower_expr_op. unfold asg_tail, bind, ret.
+      step L1. step L2. fold dest. step C1. cbn [compound_src]. unfold ret.
+      rewrite (mk_assign_reg dest src' st2 st3 n eq_refl eq_refl W1).
+      rewrite ?hyb_nil by (right; tm0); rewrite chk_nil by (right; tm0). reflexivity. }
+    split.
+    { split; [exact Hok3|]. split; [exact X13|]. split; [pl0|].
+      intros HR Hrem HJ cs ms fuel cs' Hrel Himm Hce.
+      pose proof Hrel as [Hrel0 [Hloc [Hmem [Hret [Hres [Hj [Himl [Hcloc [Hvx Hht]]]]]]]]].
+      destruct (Hsem st3 X3 HR Hrem HJ cs ms Hrel0 Himm) as [ilv [Sv Hcv]].
+      destruct (Hc1 ms ilv Sv) as [z [Hz [Ez Cz]]].
+      destruct (cexec_asg_inv fuel cs _ e cs' Hret Hce) as [k [s1 [vr [lv [Ee [Eo ->]]]]]].
+      destruct (Hcv k s1 vr Ee) as [-> ->].
+      cbn [operand_lval] in Eo. rewrite (Hxiok name new Hin), Hinfo in Eo. injection Eo as <-.
+      cbn [write_lval]. rewrite Cz. cbn [snd].
+      exists (set_reg ms (expl_op name new) z). split; [|split; [apply srel_set_reg; [exact Hrel | apply expl_op_not_pc; exact Hin] | apply imms_done_set_reg; exact Himm]].
+      cbn [flat_map item_effects le_empty le_term app seqn fin_eff].
+      assert (Lk3 : exists ri3, lookup_reg_info n (st_regs st3) = Some ri3).
+      { destruct (st_ext_regs _ _ X2 _ _ Lk1) as [ri2 [H2 _]]. destruct (st_ext_regs _ _ X3 _ _ H2) as [ri3 [H3 _]]. eauto. }
+      destruct Lk3 as [ri3 Lk3]. unfold n in *.
+      rewrite (fin_op_expl R rem (st_regs st3) name new ri3 Hin R3 Lk3 HR Hrem).
+      eapply runs_writereg; [exact Ez | exact Hrw]. }
+    intros Hst. eapply st_ext_nonempty; [exact X3|]. eapply st_ext_nonempty; [exact X2|]. exact (N1 Hst).
+  Qed.
+
   (* ------------------------------------------------------------------ riV = e;  (an immediate is assigned) *)
   Lemma sinv_asg_imm D V l e : IM l = true -> pfrag rw IM V e -> SInv D V (SExpr (EAssign AAssign (EOp (OImm l)) e)) D V.
   Proof.
     intros Hl Hfrag st Hext Hok Hp.
     destruct (imm_low subsigs macs cret hstart IM D l st Hl Hok) as [st1 [L1 [X1 [Hok1 [In1 N1]]]]].
     destruct (expr_sim_ext V D e st1 Hfrag Hext Hok1) as [pv [st2 [L2 [X2 [Hok2 [G2 Hsem]]]]]].
-    assert (Hp2 : st_pending st2 = []) by (eapply st_ext_pending; [exact X2|]; eapply st_ext_pending; eassumption).
     pose (dest := mkpv (PVarL l) (imm_ty l) (KVar l) []).
-    destruct (cast_imm_ok dest pv st2 (imm_signed l) 32 okw32 eq_refl G2) as [src' [C1 [T1 Hc1]]].
+    destruct (cast_imm_ok dest pv st2 (imm_signed l) 32 okw32 (ity_int _ _) G2) as [src' [C1 [T1 Hc1]]].
     exists [IAsg (mkle (ESetL l (rd src')) (pv_tmps dest ++ pv_tmps src') false) src'], st2.
     split.
     { rewrite lower_stmt_expr, lower_expr_asg, lower_expr_op. unfold bind at 1. unfold bind at 1. rewrite L1.
       unfold bind at 1. rewrite L2. unfold asg_tail, bind, ret. fold dest. step C1. cbn [compound_src]. unfold ret.
       rewrite (mk_assign_var dest src' st2 l eq_refl) by (left; reflexivity).
-      rewrite ?hyb_nil by exact Hp2; rewrite chk_nil by exact Hp2. reflexivity. }
+      rewrite ?hyb_nil by (right; tm0); rewrite chk_nil by (right; tm0). reflexivity. }
     split.
-    { split; [exact Hok2|]. split; [eapply st_ext_trans; eassumption|]. split; [repeat constructor|].
+    { split; [exact Hok2|]. split; [eapply st_ext_trans; eassumption|]. split; [pl0|].
       intros HR Hrem HJ cs ms fuel cs' Hrel Himm Hce.
       pose proof Hrel as [Hrel0 [Hloc [Hmem [Hret _]]]].
       destruct (Hsem st2 (st_ext_refl _) HR Hrem HJ cs ms Hrel0 Himm) as [ilv [Sv Hcv]].
@@ -1090,22 +1273,22 @@ Section StmtCorrect.
     pfrag rw IM V e -> SInv D V (SExpr (EAssign AAssign (EOp (OIdent x)) e)) D V.
   Proof.
     intros Hx Hw Hfrag st Hext Hok Hp.
-    destruct (lst_ok_local IM D st x _ Hok (Hext _ _ Hx)) as [Hxi Hxs].
+    destruct (lst_ok_local IM D st x sg w Hok (Hext _ _ Hx)) as [Hxi [Hxh [tx [Hxs Htx]]]].
     destruct (expr_sim_ext V D e st Hfrag Hext Hok) as [pv [st2 [L2 [X2 [Hok2 [G2 Hsem]]]]]].
-    pose (dest := mkpv (PVarL x) (ty_int sg w) (if String.eqb (substring 0 5 x) "h_tmp" then KTmp x false else KVar x) []).
-    destruct (cast_imm_ok dest pv st2 sg w Hw eq_refl G2) as [src' [C1 [T1 Hc1]]].
+    pose (dest := mkpv (PVarL x) tx (if String.eqb (substring 0 5 x) "h_tmp" then KTmp x false else KVar x) []).
+    destruct (cast_imm_ok dest pv st2 sg w Hw Htx G2) as [src' [C1 [T1 Hc1]]].
     exists [IAsg (mkle (ESetL x (rd src')) (pv_tmps dest ++ pv_tmps src') false) src'], st2.
     split.
     { rewrite lower_stmt_expr, lower_expr_asg, lower_expr_op. cbn [lower_operand cfg_params lookup].
       unfold asg_tail, bind, ret, get. rewrite Hxs. cbv beta iota. step L2. fold dest. step C1.
       cbn [compound_src]. unfold ret.
-      rewrite (mk_assign_var dest src' st2 x eq_refl).
+      rewrite (mk_assign_var dest src' st2 x (ity_const _ _ _ Htx)).
       2:{ unfold dest. cbn [pv_kind]. destruct (String.eqb (substring 0 5 x) "h_tmp"); eauto. }
-      rewrite ?hyb_nil by (eapply st_ext_pending; eassumption); rewrite chk_nil by (eapply st_ext_pending; eassumption). reflexivity. }
+      rewrite ?hyb_nil by (right; tm0); rewrite chk_nil by (right; tm0). reflexivity. }
     split.
-    { split; [exact Hok2|]. split; [exact X2|]. split; [repeat constructor|].
+    { split; [exact Hok2|]. split; [exact X2|]. split; [pl0|].
       intros HR Hrem HJ cs ms fuel cs' Hrel Himm Hce.
-      pose proof Hrel as [Hrel0 [Hloc [Hmem [Hret [Hres [Hj [Himl [Hcloc Hvx]]]]]]]].
+      pose proof Hrel as [Hrel0 [Hloc [Hmem [Hret [Hres [Hj [Himl [Hcloc [Hvx Hht]]]]]]]]].
       destruct (Hsem st2 (st_ext_refl _) HR Hrem HJ cs ms Hrel0 Himm) as [ilv [Sv Hcv]].
       destruct (Hc1 ms ilv Sv) as [z [Hz [Ez Cz]]].
       destruct (cexec_asg_inv fuel cs _ e cs' Hret Hce) as [k [s1 [vr [lv [Ee [Eo ->]]]]]].
@@ -1170,28 +1353,29 @@ Section StmtCorrect.
   Proof. intros [-> | [-> | ->]]; reflexivity. Qed.
 
   (* conversion back to the type of the destination (D14 repaired) *)
-  Lemma conv_back_ok src st sg w : okw w -> goodpv src ->
-    exists src', (do eq <- ty_eq (ty_int sg w) (pv_ty src); if eq then ret src else init_a_cast cfg (ty_int sg w) src) st = OK (src', st) /\
-      pv_ty src' = ty_int sg w /\ goodpv src' /\
+  Lemma conv_back_ok T src st sg w : okw w -> ity T sg w -> goodpv src ->
+    exists src', (do eq <- ty_eq T (pv_ty src); if eq then ret src else init_a_cast cfg T src) st = OK (src', st) /\
+      ity (pv_ty src') sg w /\ goodpv src' /\
       forall ms v, sem rw R rem ms src v ->
         exists z, 0 <= z < pow2 w /\ eval rw ms [] (fin_pure R rem (pv_term src')) = Some (VBv w z) /\
                   conv (sg, w) (cval_of (pv_ty src) v) = ((sg, w), z).
   Proof.
-    intros Hw Hg. unfold bind, ty_eq.
-    rewrite (proj1 (goodpv_numeric src Hg)). cbn [is_numeric ty_int vt_void vt_ext negb andb ret].
-    destruct (vtype_eqb (ty_int sg w) (pv_ty src)) eqn:Eeq.
+    intros Hw HT Hg. destruct (ity_inv _ _ _ HT) as [hT ->]. unfold bind, ty_eq.
+    rewrite (proj1 (goodpv_numeric src Hg)). cbn [is_numeric ty_h vt_void vt_ext negb andb ret].
+    destruct (vtype_eqb (ty_h hT sg w) (pv_ty src)) eqn:Eeq.
     - exists src. split; [reflexivity|].
-      pose proof Hg as [[Ht _] | [s0 [w0 [Hw0 [Ht _]]]]]; rewrite Ht in Eeq.
-      + exfalso. unfold vtype_eqb in Eeq. cbn in Eeq. okw_cases Hw; discriminate.
-      + apply vtype_eqb_int in Eeq. destruct Eeq as [<- <-]. split; [exact Ht|]. split; [exact Hg|].
+      pose proof Hg as [[Ht _] | [s0 [w0 [Hw0 [Ht _]]]]].
+      + rewrite Ht in Eeq. exfalso. unfold vtype_eqb in Eeq. cbn in Eeq. okw_cases Hw; discriminate.
+      + destruct (ity_inv _ _ _ Ht) as [h0 Et]. rewrite Et in Eeq.
+        apply (vtype_eqb_h hT sg w h0 s0 w0) in Eeq. destruct Eeq as [<- <-]. split; [exact Ht|]. split; [exact Hg|].
         intros ms v Hs. destruct (sem_int rw R rem ms src v sg w Ht Hs) as [z [-> [Hz He]]].
-        exists z. split; [exact Hz|]. split; [exact He|]. rewrite Ht. cbn [cval_of vt_sg ty_int].
+        exists z. split; [exact Hz|]. split; [exact He|]. rewrite (cval_of_ity _ sg w z Ht).
         apply (conv_same ((sg, w), z)). split; auto.
-    - destruct (init_a_cast_ok subsigs macs cret hstart rw R rem sg w src st Hw Hg) as [p' [H1 [H2 [H3 [_ H5]]]]].
+    - destruct (init_a_cast_gen subsigs macs cret hstart rw R rem (ty_h hT sg w) sg w src st Hw (ity_h _ _ _) Hg) as [p' [H1 [H2 [H3 [_ H5]]]]].
       rewrite H1. exists p'. split; [reflexivity|]. split; [exact H3|]. split; [exact H2|].
       intros ms v Hs. destruct (H5 ms v Hs) as [v' [Hs' Hc]].
       destruct (sem_int rw R rem ms p' v' sg w H3 Hs') as [z [-> [Hz He]]].
-      exists z. split; [exact Hz|]. split; [exact He|]. rewrite <- Hc, H3. reflexivity.
+      exists z. split; [exact Hz|]. split; [exact He|]. rewrite <- Hc, (cval_of_ity _ sg w z H3). reflexivity.
   Qed.
 
   Lemma cast_operands_imm a b st :
@@ -1205,26 +1389,26 @@ Section StmtCorrect.
     pfrag rw IM V e -> SInv D V (SExpr (EAssign a (EOp (OIdent x)) e)) D V.
   Proof.
     intros Ha Hx Hw Hfrag st Hext Hok Hp.
-    destruct (lst_ok_local IM D st x _ Hok (Hext _ _ Hx)) as [Hxi Hxs].
+    destruct (lst_ok_local IM D st x sg w Hok (Hext _ _ Hx)) as [Hxi [Hxh [tx [Hxs Htx]]]].
     destruct (expr_sim_ext V D e st Hfrag Hext Hok) as [pv [st2 [L2 [X2 [Hok2 [G2 Hsem]]]]]].
-    assert (Hp2 : st_pending st2 = []) by (eapply st_ext_pending; eassumption).
     pose (kx := if String.eqb (substring 0 5 x) "h_tmp" then KTmp x false else KVar x).
-    pose (dest := mkpv (PVarL x) (ty_int sg w) kx []).
+    pose (dest := mkpv (PVarL x) tx kx []).
     assert (Gd : goodpv dest).
-    { right. exists sg, w. split; [exact Hw|]. split; [reflexivity|]. unfold dest, kx. cbn [pv_kind].
+    { apply (goodpv_i _ sg w); [exact Hw | exact Htx | | reflexivity]. unfold dest, kx. cbn [pv_kind].
       destruct (String.eqb (substring 0 5 x) "h_tmp"); exact I. }
     (* the source converted to the type of x *)
-    destruct (conv_back_ok pv st2 sg w Hw G2) as [src' [C1 [T1 [G1 Hc1]]]].
+    destruct (conv_back_ok tx pv st2 sg w Hw Htx G2) as [src' [C1 [T1 [G1 Hc1]]]].
     (* both operands promoted *)
     destruct (promotion_cast_ok subsigs macs cret hstart rw R rem dest st2 Gd) as [pd [A1 [A2 [A3 [A4 [_ A5]]]]]].
     destruct (promotion_cast_ok subsigs macs cret hstart rw R rem src' st2 G1) as [ps [B1 [B2 [B3 [B4 [_ B5]]]]]].
-    rewrite T1 in B3, B4, B5. change (pv_ty dest) with (ty_int sg w) in A3, A4, A5.
-    change (cty_of (ty_int sg w)) with (sg, w) in *.
+    rewrite (cty_of_ity _ sg w T1) in B3, B4, B5. change (pv_ty dest) with tx in A3, A4, A5.
+    rewrite (cty_of_ity _ sg w Htx) in A3, A4, A5.
     set (tp := promote (sg, w)) in *.
+    destruct (ity_inv _ _ _ A3) as [hA EA3]. destruct (ity_inv _ _ _ B3) as [hB EB3].
     pose (src0 := mkpv (PBin (cop a) (rd pd) (rd ps)) (pv_ty pd) KExec (pv_tmps pd ++ pv_tmps ps)).
     assert (G0 : goodpv src0).
-    { right. exists (fst tp), (snd tp). split; [exact A4|]. split; [exact A3 | exact I]. }
-    destruct (conv_back_ok src0 st2 sg w Hw G0) as [src2 [D1 [T2 [_ Hd1]]]].
+    { apply (goodpv_i _ (fst tp) (snd tp)); [exact A4 | exact A3 | exact I | exact (goodpv_tmps2 pd ps A2 B2)]. }
+    destruct (conv_back_ok tx src0 st2 sg w Hw Htx G0) as [src2 [D1 [T2 [Gs2 Hd1]]]].
     exists [IAsg (mkle (ESetL x (rd src2)) (pv_tmps dest ++ pv_tmps src2) false) src2], st2.
     split.
     { rewrite lower_stmt_expr, lower_expr_casg, lower_expr_op. cbn [lower_operand cfg_params lookup].
@@ -1232,34 +1416,35 @@ Section StmtCorrect.
       unfold bind at 1. rewrite L2. unfold bind at 1. unfold ret at 1. unfold bind at 1. unfold ret at 1. cbv beta iota.
       fold kx. fold dest.
       assert (Hco : cast_operands cfg true dest pv st2 = OK ((dest, src'), st2)).
-      { rewrite cast_operands_imm. unfold bind at 1. change (pv_ty dest) with (ty_int sg w). rewrite C1. reflexivity. }
+      { rewrite cast_operands_imm. unfold bind at 1. change (pv_ty dest) with tx. rewrite C1. reflexivity. }
       assert (Hcs : compound_src cfg a dest src' st2 = OK (src0, st2)).
       { destruct Ha as [-> | [-> | ->]]; cbn [compound_src]; unfold bind; rewrite A1, B1; unfold ret, arith_il_exec, src0;
-        rewrite A3, B3; cbn [vt_float ty_int andb]; reflexivity. }
+        rewrite EA3, EB3; cbn [vt_float ty_h andb]; reflexivity. }
       destruct Ha as [-> | [-> | ->]]; unfold bind at 1; rewrite Hco; cbv beta iota; unfold bind at 1; rewrite Hcs;
-      cbn [fx cfg_fx fx_compound_conv all_fixes]; unfold bind at 1; change (pv_ty dest) with (ty_int sg w); rewrite D1;
-      unfold bind; rewrite (mk_assign_var dest src2 st2 x eq_refl);
-      try (rewrite ?hyb_nil by exact Hp2; rewrite chk_nil by exact Hp2; reflexivity);
+      cbn [fx cfg_fx fx_compound_conv all_fixes]; unfold bind at 1; change (pv_ty dest) with tx; rewrite D1;
+      unfold bind; rewrite (mk_assign_var dest src2 st2 x (ity_const _ _ _ Htx));
+      try (rewrite ?hyb_nil by (right; tm0); rewrite chk_nil by (right; tm0); reflexivity);
       unfold dest, kx; cbn [pv_kind]; destruct (String.eqb (substring 0 5 x) "h_tmp"); eauto. }
     split.
-    { split; [exact Hok2|]. split; [exact X2|]. split; [repeat constructor|].
+    { split; [exact Hok2|]. split; [exact X2|]. split; [pl0|].
       intros HR Hrem HJ cs ms fuel cs' Hrel Himm Hce.
-      pose proof Hrel as [Hrel0 [Hloc [Hmem [Hret [Hres [Hj [Himl [Hcloc Hvx]]]]]]]].
+      pose proof Hrel as [Hrel0 [Hloc [Hmem [Hret [Hres [Hj [Himl [Hcloc [Hvx Hht]]]]]]]]].
       destruct (proj1 Hrel0 x sg w Hx Hw) as [v0 [Hcx [Hv0 Hmx]]].
-      assert (Sd : sem rw R rem ms dest (VBv w v0)) by (split; [exact Hmx | apply shape_int; exact Hv0]).
+      assert (Sd : sem rw R rem ms dest (VBv w v0)) by (split; [exact Hmx | apply (shape_ity _ sg w); [exact Htx | exact Hv0]]).
       destruct (Hsem st2 (st_ext_refl _) HR Hrem HJ cs ms Hrel0 Himm) as [ilv [Sv Hcv]].
       destruct (Hc1 ms ilv Sv) as [z1 [Hz1 [Ez1 Cz1]]].
-      assert (Ss : sem rw R rem ms src' (VBv w z1)) by (split; [exact Ez1 | rewrite T1; apply shape_int; exact Hz1]).
+      assert (Ss : sem rw R rem ms src' (VBv w z1)) by (split; [exact Ez1 | apply (shape_ity _ _ _ _ T1); exact Hz1]).
       destruct (A5 ms _ Sd) as [vd [Sd' Cd]]. destruct (B5 ms _ Ss) as [vs [Ss' Cs]].
       destruct (sem_int rw R rem ms pd vd _ _ A3 Sd') as [xd [-> [Hxd Ed]]].
       destruct (sem_int rw R rem ms ps vs _ _ B3 Ss') as [xs [-> [Hxs' Es]]].
-      rewrite A3 in Cd. rewrite B3 in Cs. cbn [cval_of vt_sg ty_int pv_ty dest] in Cd, Cs.
+      rewrite EA3 in Cd. rewrite EB3 in Cs. rewrite (cval_of_ity _ _ _ z1 T1) in Cs. change (pv_ty dest) with tx in Cd.
+      rewrite (cval_of_ity _ _ _ v0 Htx) in Cd. cbn [cval_of vt_sg ty_int ty_h] in Cd, Cs.
       assert (S0 : sem rw R rem ms src0 (VBv (snd tp) (wrap (snd tp) (cfun a xd xs)))).
-      { split; [|unfold src0; cbn [pv_ty]; rewrite A3; apply shape_int; apply wrap_range].
+      { split; [|unfold src0; cbn [pv_ty]; rewrite EA3; apply shape_h; apply wrap_range].
         unfold src0. cbn [pv_term fin_pure eval]. unfold rd. rewrite Ed, Es, N.eqb_refl.
         destruct Ha as [-> | [-> | ->]]; reflexivity. }
       destruct (Hd1 ms _ S0) as [z [Hz [Ez Cz]]].
-      unfold src0 in Cz. cbn [pv_ty] in Cz. rewrite A3 in Cz. cbn [cval_of vt_sg ty_int] in Cz.
+      unfold src0 in Cz. cbn [pv_ty] in Cz. rewrite EA3 in Cz. cbn [cval_of vt_sg ty_h] in Cz.
       (* the C side *)
       destruct fuel as [|[|k]]; [rewrite cexec_0 in Hce; discriminate Hce| |]; rewrite cexec_expr in Hce by exact Hret.
       { rewrite ceval_0 in Hce. discriminate Hce. }
@@ -1286,14 +1471,14 @@ Section StmtCorrect.
     cast_operands cfg true dest pv st2 = OK ((dest, src'), st2) ->
     compound_src cfg a dest src' st2 = OK (src0, st2) ->
     (do eq <- ty_eq (pv_ty dest) (pv_ty src0); if eq then ret src0 else init_a_cast cfg (pv_ty dest) src0) st2 = OK (src2, st2) ->
-    mk_assign dest src2 st2 = OK (asg, st3) -> st_pending st3 = [] ->
+    mk_assign dest src2 st2 = OK (asg, st3) -> le_tmps asg = [] ->
     casg_tail a (IPure dest) (IPure pv) st2 = OK (IAsg asg src2, st3).
   Proof.
     intros Ha Hco Hcs D1 Hm Hp. unfold casg_tail.
     unfold bind at 1. unfold ret at 1. unfold bind at 1. unfold ret at 1. cbv beta iota.
     destruct Ha as [-> | [-> | ->]]; unfold bind at 1; rewrite Hco; cbv beta iota; unfold bind at 1; rewrite Hcs;
     cbn [fx cfg_fx fx_compound_conv all_fixes]; unfold bind at 1; rewrite D1;
-    unfold bind; rewrite Hm; rewrite ?hyb_nil by exact Hp; rewrite chk_nil by exact Hp; reflexivity.
+    unfold bind; rewrite Hm; rewrite ?hyb_nil by (right; exact Hp); rewrite chk_nil by (right; exact Hp); reflexivity.
   Qed.
 
   Lemma read_lval_reg cs cls letters acc lv : dest_cls cls -> access_of_letters letters = Some acc ->
@@ -1325,25 +1510,24 @@ Section StmtCorrect.
     destruct (lower_reg_ok cls letters acc false st (or_introl Hc) Hacc (lst_ok_regs_ok _ _ _ Hok)) as [st1 [L1 [V1 [I1 [X1 [R1 [N1 [ri1 Lk1]]]]]]]].
     assert (Hok1 : lst_ok IM D st1) by (eapply lst_ok_regs; eassumption).
     destruct (expr_sim_ext V D e st1 Hfrag Hext Hok1) as [pv [st2 [L2 [X2 [Hok2 [G2 Hsem]]]]]].
-    assert (Hp2 : st_pending st2 = []) by (eapply st_ext_pending; [exact X2|]; eapply st_ext_pending; eassumption).
     set (n := rname cls letters false) in *.
     pose (dest := mkpv (PRaw ("$reg:" +++ n)) (ty_int true w) (KReg n) []).
     assert (Gd : goodpv dest) by (apply goodpv_reg; exact Hw).
     (* the source converted to the type of the register *)
-    destruct (conv_back_ok pv st2 true w Hw G2) as [src' [C1 [T1 [G1 Hc1]]]].
+    destruct (conv_back_ok (ty_int true w) pv st2 true w Hw (ity_int _ _) G2) as [src' [C1 [T1 [G1 Hc1]]]].
     (* both operands promoted *)
     destruct (promotion_cast_ok subsigs macs cret hstart rw R rem dest st2 Gd) as [pd [A1 [A2 [A3 [A4 [_ A5]]]]]].
     destruct (promotion_cast_ok subsigs macs cret hstart rw R rem src' st2 G1) as [ps [B1 [B2 [B3 [B4 [_ B5]]]]]].
-    rewrite T1 in B3, B4, B5. change (pv_ty dest) with (ty_int true w) in A3, A4, A5.
+    rewrite (cty_of_ity _ true w T1) in B3, B4, B5. change (pv_ty dest) with (ty_int true w) in A3, A4, A5.
     change (cty_of (ty_int true w)) with (true, w) in *.
     set (tp := promote (true, w)) in *.
+    destruct (ity_inv _ _ _ A3) as [hA EA3]. destruct (ity_inv _ _ _ B3) as [hB EB3].
     pose (src0 := mkpv (PBin (cop a) (rd pd) (rd ps)) (pv_ty pd) KExec (pv_tmps pd ++ pv_tmps ps)).
     assert (G0 : goodpv src0).
-    { right. exists (fst tp), (snd tp). split; [exact A4|]. split; [exact A3 | exact I]. }
-    destruct (conv_back_ok src0 st2 true w Hw G0) as [src2 [D1 [T2 [_ Hd1]]]].
+    { apply (goodpv_i _ (fst tp) (snd tp)); [exact A4 | exact A3 | exact I | exact (goodpv_tmps2 pd ps A2 B2)]. }
+    destruct (conv_back_ok (ty_int true w) src0 st2 true w Hw (ity_int _ _) G0) as [src2 [D1 [T2 [Gs2 Hd1]]]].
     destruct (add_write_property_ok n st2 (lst_ok_regs_ok _ _ _ Hok2) (isa_not_pcname cls letters false (reg_cls_any false _ (or_introl Hc)) (access_in_table _ _ Hacc))) as [st3 [W1 [V3 [I3 [X3 R3]]]]].
     assert (Hok3 : lst_ok IM D st3) by (eapply lst_ok_regs; eassumption).
-    assert (P3 : st_pending st3 = []) by (eapply st_ext_pending; eassumption).
     exists [IAsg (mkle (EWriteReg (RParam ("$reg:" +++ n)) (rd src2)) (pv_tmps dest ++ pv_tmps src2) false) src2], st3.
     split.
     { rewrite lower_stmt_expr, lower_expr_casg, lower_expr_op. cbn [lower_operand].
@@ -1353,14 +1537,14 @@ Section StmtCorrect.
       { rewrite cast_operands_imm. unfold bind at 1. change (pv_ty dest) with (ty_int true w). rewrite C1. reflexivity. }
       assert (Hcs : compound_src cfg a dest src' st2 = OK (src0, st2)).
       { destruct Ha as [-> | [-> | ->]]; cbn [compound_src]; unfold bind; rewrite A1, B1; unfold ret, arith_il_exec, src0;
-        rewrite A3, B3; cbn [vt_float ty_int andb]; reflexivity. }
+        rewrite EA3, EB3; cbn [vt_float ty_h andb]; reflexivity. }
       change (mkpv (PRaw ("$reg:" +++ n)) (ty_int true (dest_w cls acc)) (KReg n) []) with dest.
       rewrite (casg_tail_ok a dest pv src' src0 src2 _ st2 st3 Ha Hco Hcs D1
-                 (mk_assign_reg dest src2 st2 st3 n eq_refl eq_refl W1) P3). reflexivity. }
+                 (mk_assign_reg dest src2 st2 st3 n eq_refl eq_refl W1)) by tm0. reflexivity. }
     split.
-    { split; [exact Hok3|]. split; [eapply st_ext_trans; [exact X1|]; eapply st_ext_trans; eassumption|]. split; [repeat constructor|].
+    { split; [exact Hok3|]. split; [eapply st_ext_trans; [exact X1|]; eapply st_ext_trans; eassumption|]. split; [pl0|].
       intros HR Hrem HJ cs ms fuel cs' Hrel Himm Hce.
-      pose proof Hrel as [Hrel0 [Hloc [Hmem [Hret [Hres [Hj [Himl [Hcloc Hvx]]]]]]]].
+      pose proof Hrel as [Hrel0 [Hloc [Hmem [Hret [Hres [Hj [Himl [Hcloc [Hvx Hht]]]]]]]]].
       pose proof Hrel0 as [_ [Hregw [Hrold _]]].
       (* the old value of the register, read on the IL side *)
       set (v0 := wrap w (match lookup_reg r (rnew ms) with Some v => v | None => if write_only acc then 0 else rold ms r end)).
@@ -1373,17 +1557,17 @@ Section StmtCorrect.
         fold r. rewrite Hrw. reflexivity. }
       destruct (Hsem st3 X3 HR Hrem HJ cs ms Hrel0 Himm) as [ilv [Sv Hcv]].
       destruct (Hc1 ms ilv Sv) as [z1 [Hz1 [Ez1 Cz1]]].
-      assert (Ss : sem rw R rem ms src' (VBv w z1)) by (split; [exact Ez1 | rewrite T1; apply shape_int; exact Hz1]).
+      assert (Ss : sem rw R rem ms src' (VBv w z1)) by (split; [exact Ez1 | apply (shape_ity _ _ _ _ T1); exact Hz1]).
       destruct (A5 ms _ Sd) as [vd [Sd' Cd]]. destruct (B5 ms _ Ss) as [vs [Ss' Cs]].
       destruct (sem_int rw R rem ms pd vd _ _ A3 Sd') as [xd [-> [Hxd Ed]]].
       destruct (sem_int rw R rem ms ps vs _ _ B3 Ss') as [xs [-> [Hxs' Es]]].
-      rewrite A3 in Cd. rewrite B3 in Cs. cbn [cval_of vt_sg ty_int pv_ty dest] in Cd, Cs.
+      rewrite EA3 in Cd. rewrite EB3 in Cs. rewrite (cval_of_ity _ _ _ z1 T1) in Cs. cbn [cval_of vt_sg ty_int ty_h pv_ty dest] in Cd, Cs.
       assert (S0 : sem rw R rem ms src0 (VBv (snd tp) (wrap (snd tp) (cfun a xd xs)))).
-      { split; [|unfold src0; cbn [pv_ty]; rewrite A3; apply shape_int; apply wrap_range].
+      { split; [|unfold src0; cbn [pv_ty]; rewrite EA3; apply shape_h; apply wrap_range].
         unfold src0. cbn [pv_term fin_pure eval]. unfold rd. rewrite Ed, Es, N.eqb_refl.
         destruct Ha as [-> | [-> | ->]]; reflexivity. }
       destruct (Hd1 ms _ S0) as [z [Hz [Ez Cz]]].
-      unfold src0 in Cz. cbn [pv_ty] in Cz. rewrite A3 in Cz. cbn [cval_of vt_sg ty_int] in Cz.
+      unfold src0 in Cz. cbn [pv_ty] in Cz. rewrite EA3 in Cz. cbn [cval_of vt_sg ty_h] in Cz.
       (* the C side *)
       destruct fuel as [|[|k]]; [rewrite cexec_0 in Hce; discriminate Hce| |]; rewrite cexec_expr in Hce by exact Hret.
       { rewrite ceval_0 in Hce. discriminate Hce. }
@@ -1411,6 +1595,159 @@ Section StmtCorrect.
   Qed.
 
 
+  (* ------------------------------------------------------------------ x <<= e;  x >>= e;  RxV <<= e;  RxV >>= e; *)
+  Definition is_sasg (a : asgop) : Prop := a = AShl \/ a = AShr.
+  Definition sleft (a : asgop) : bool := match a with AShl => true | _ => false end.
+  Lemma ceval_sasg k s a o e : is_sasg a ->
+    ceval E csub xi (S k) s (EAssign a (EOp o) e) =
+    match ceval E csub xi k s e with
+    | Some (s1, vr) =>
+        match operand_lval E xi s1 o with
+        | Some lv => match read_lval E s1 lv with
+                     | Some old => match c_shift (sleft a) old vr with
+                                   | Some res => Some (write_lval s1 lv res, conv (lval_ty lv) res)
+                                   | None => None end
+                     | None => None end
+        | None => None end
+    | None => None end.
+  Proof. intros [-> | ->]; reflexivity. Qed.
+
+  (* the tail of the model's assignment callback for the compound shifts: the source is NOT converted to the type of the
+     destination first; both operands are promoted, the result is converted back *)
+  Lemma sasg_tail_ok a dest pv src0 src2 asg st2 st3 : is_sasg a ->
+    compound_src cfg a dest pv st2 = OK (src0, st2) ->
+    (do eq <- ty_eq (pv_ty dest) (pv_ty src0); if eq then ret src0 else init_a_cast cfg (pv_ty dest) src0) st2 = OK (src2, st2) ->
+    mk_assign dest src2 st2 = OK (asg, st3) -> le_tmps asg = [] ->
+    casg_tail a (IPure dest) (IPure pv) st2 = OK (IAsg asg src2, st3).
+  Proof.
+    intros Ha Hcs D1 Hm Hp. unfold casg_tail.
+    unfold bind at 1. unfold ret at 1. unfold bind at 1. unfold ret at 1. cbv beta iota.
+    destruct Ha as [-> | ->]; unfold bind at 1; unfold ret at 1; cbv beta iota; unfold bind at 1; rewrite Hcs;
+    cbn [fx cfg_fx fx_compound_conv all_fixes]; unfold bind at 1; rewrite D1;
+    unfold bind; rewrite Hm; rewrite ?hyb_nil by (right; exact Hp); rewrite chk_nil by (right; exact Hp); reflexivity.
+  Qed.
+
+  Lemma sinv_sasg_var D V a x sg w e :
+    is_sasg a -> lookup x V = Some (Some (ty_int sg w)) -> okw w ->
+    pfrag rw IM V e -> SInv D V (SExpr (EAssign a (EOp (OIdent x)) e)) D V.
+  Proof.
+    intros Ha Hx Hw Hfrag st Hext Hok Hp.
+    destruct (lst_ok_local IM D st x sg w Hok (Hext _ _ Hx)) as [Hxi [Hxh [tx [Hxs Htx]]]].
+    destruct (expr_sim_ext V D e st Hfrag Hext Hok) as [pv [st2 [L2 [X2 [Hok2 [G2 Hsem]]]]]].
+    pose (kx := if String.eqb (substring 0 5 x) "h_tmp" then KTmp x false else KVar x).
+    pose (dest := mkpv (PVarL x) tx kx []).
+    assert (Gd : goodpv dest).
+    { apply (goodpv_i _ sg w); [exact Hw | exact Htx | | reflexivity]. unfold dest, kx. cbn [pv_kind].
+      destruct (String.eqb (substring 0 5 x) "h_tmp"); exact I. }
+    destruct (shift_compound_ok subsigs macs cret hstart rw R rem a dest pv st2 Ha Gd G2) as [src0 [Hcs [G0 Hs0]]].
+    destruct (conv_back_ok tx src0 st2 sg w Hw Htx G0) as [src2 [D1 [T2 [Gs2 Hd1]]]].
+    exists [IAsg (mkle (ESetL x (rd src2)) (pv_tmps dest ++ pv_tmps src2) false) src2], st2.
+    split.
+    { rewrite lower_stmt_expr, lower_expr_casg, lower_expr_op. cbn [lower_operand cfg_params lookup].
+      unfold bind at 1. unfold bind at 1. unfold bind at 1. unfold get. rewrite Hxs. unfold ret at 1.
+      unfold bind at 1. rewrite L2. fold kx. fold dest.
+      rewrite (sasg_tail_ok a dest pv src0 src2 _ st2 st2 Ha Hcs D1 (mk_assign_var dest src2 st2 x (ity_const _ _ _ Htx)
+                 ltac:(unfold dest, kx; cbn [pv_kind]; destruct (String.eqb (substring 0 5 x) "h_tmp"); eauto))) by tm0.
+      reflexivity. }
+    split.
+    { split; [exact Hok2|]. split; [exact X2|]. split; [pl0|].
+      intros HR Hrem HJ cs ms fuel cs' Hrel Himm Hce.
+      pose proof Hrel as [Hrel0 [Hloc [Hmem [Hret [Hres [Hj [Himl [Hcloc [Hvx Hht]]]]]]]]].
+      destruct (proj1 Hrel0 x sg w Hx Hw) as [v0 [Hcx [Hv0 Hmx]]].
+      assert (Sd : sem rw R rem ms dest (VBv w v0)) by (split; [exact Hmx | apply (shape_ity _ sg w); [exact Htx | exact Hv0]]).
+      destruct (Hsem st2 (st_ext_refl _) HR Hrem HJ cs ms Hrel0 Himm) as [ilv [Sv Hcv]].
+      destruct (Hs0 ms _ _ Sd Sv) as [vr0 [S0 Hc0]].
+      destruct (Hd1 ms _ S0) as [z [Hz [Ez Cz]]].
+      change (pv_ty dest) with tx in Hc0. rewrite (cval_of_ity _ _ _ v0 Htx) in Hc0.
+      (* the C side *)
+      destruct fuel as [|[|k]]; [rewrite cexec_0 in Hce; discriminate Hce| |]; rewrite cexec_expr in Hce by exact Hret.
+      { rewrite ceval_0 in Hce. discriminate Hce. }
+      rewrite (ceval_sasg k cs a (OIdent x) e Ha) in Hce.
+      destruct (ceval E csub xi k cs e) as [[s1 vr]|] eqn:Ee; [|discriminate Hce].
+      destruct (Hcv k s1 vr Ee) as [-> ->].
+      cbn [operand_lval] in Hce. rewrite Hcx in Hce. cbn [read_lval] in Hce. rewrite Hcx in Hce.
+      assert (Hsl : sleft a = match a with AShl => true | _ => false end) by reflexivity. rewrite Hsl in Hce.
+      match type of Hce with context [c_shift ?a1 ?a2 ?a3] => destruct (c_shift a1 a2 a3) as [res|] eqn:Esh end; [|discriminate Hce].
+      rewrite (Hc0 res Esh) in Hce. cbn [option_map fst] in Hce. unfold write_lval in Hce.
+      assert (Hcs' : cs' = CSem.set_var cs x ((sg, w), z)) by (injection Hce as <-; f_equal; exact Cz).
+      subst cs'. clear Hce.
+      exists (set_local ms x (VBv w z)). split; [|split; [apply srel_set_var; assumption | apply imms_done_set_local; [exact (srel_nr _ _ _ _ _ _ _ _ Hrel Hx) | exact Himm]]].
+      cbn [flat_map item_effects le_empty le_term app seqn fin_eff].
+      eapply runs_setl; [exact Ez|].
+      right. exists (VBv w v0). split; [exact Hmx | reflexivity]. }
+    intros [Hst | [Hst _]]; [exact (st_ext_nonempty _ _ X2 Hst)|]. rewrite Hst in Hxs. discriminate Hxs.
+  Qed.
+
+  Lemma sinv_sasg_reg D V a cls letters acc e :
+    is_sasg a -> dest_cls cls -> access_of_letters letters = Some acc ->
+    rw (RIsa cls (substring 0 1 letters) false) = dest_w cls acc ->
+    pfrag rw IM V e -> SInv D V (SExpr (EAssign a (EOp (OReg cls letters)) e)) D V.
+  Proof.
+    intros Ha Hc Hacc Hrw Hfrag st Hext Hok Hp.
+    set (w := dest_w cls acc) in *. assert (Hw : okw w) by (apply dest_w_okw; exact Hc).
+    set (r := RIsa cls (substring 0 1 letters) false) in *.
+    destruct (lower_reg_ok cls letters acc false st (or_introl Hc) Hacc (lst_ok_regs_ok _ _ _ Hok)) as [st1 [L1 [V1 [I1 [X1 [R1 [N1 [ri1 Lk1]]]]]]]].
+    assert (Hok1 : lst_ok IM D st1) by (eapply lst_ok_regs; eassumption).
+    destruct (expr_sim_ext V D e st1 Hfrag Hext Hok1) as [pv [st2 [L2 [X2 [Hok2 [G2 Hsem]]]]]].
+    set (n := rname cls letters false) in *.
+    pose (dest := mkpv (PRaw ("$reg:" +++ n)) (ty_int true w) (KReg n) []).
+    assert (Gd : goodpv dest) by (apply (goodpv_i _ true w); [exact Hw | apply ity_int | exact I | reflexivity]).
+    destruct (shift_compound_ok subsigs macs cret hstart rw R rem a dest pv st2 Ha Gd G2) as [src0 [Hcs [G0 Hs0]]].
+    destruct (conv_back_ok (ty_int true w) src0 st2 true w Hw (ity_int _ _) G0) as [src2 [D1 [T2 [Gs2 Hd1]]]].
+    destruct (add_write_property_ok n st2 (lst_ok_regs_ok _ _ _ Hok2) (isa_not_pcname cls letters false (reg_cls_any false _ (or_introl Hc)) (access_in_table _ _ Hacc))) as [st3 [W1 [V3 [I3 [X3 R3]]]]].
+    assert (Hok3 : lst_ok IM D st3) by (eapply lst_ok_regs; eassumption).
+    exists [IAsg (mkle (EWriteReg (RParam ("$reg:" +++ n)) (rd src2)) (pv_tmps dest ++ pv_tmps src2) false) src2], st3.
+    split.
+    { rewrite lower_stmt_expr, lower_expr_casg, lower_expr_op. cbn [lower_operand].
+      unfold bind at 1. unfold bind at 1. unfold bind at 1. rewrite L1. unfold ret at 1. unfold bind at 1. rewrite L2.
+      fold dest.
+      change (mkpv (PRaw ("$reg:" +++ n)) (ty_int true (dest_w cls acc)) (KReg n) []) with dest.
+      rewrite (sasg_tail_ok a dest pv src0 src2 _ st2 st3 Ha Hcs D1 (mk_assign_reg dest src2 st2 st3 n eq_refl eq_refl W1)) by tm0.
+      reflexivity. }
+    split.
+    { split; [exact Hok3|]. split; [eapply st_ext_trans; [exact X1|]; eapply st_ext_trans; eassumption|]. split; [pl0|].
+      intros HR Hrem HJ cs ms fuel cs' Hrel Himm Hce.
+      pose proof Hrel as [Hrel0 [Hloc [Hmem [Hret [Hres [Hj [Himl [Hcloc [Hvx Hht]]]]]]]]].
+      pose proof Hrel0 as [_ [Hregw [Hrold _]]].
+      set (v0 := wrap w (match lookup_reg r (rnew ms) with Some v => v | None => if write_only acc then 0 else rold ms r end)).
+      assert (Hv0 : 0 <= v0 < pow2 w) by apply wrap_range.
+      assert (Hle2 : regs_le (st_regs st1) R).
+      { eapply regs_le_trans; [exact (st_ext_regs _ _ X2)|]. eapply regs_le_trans; [exact (st_ext_regs _ _ X3) | exact HR]. }
+      assert (Ed : eval rw ms [] (fin_pure R rem (pv_term dest)) = Some (VBv w v0)).
+      { unfold dest. cbn [pv_term]. unfold n.
+        rewrite (fin_reg_read R rem (st_regs st1) cls letters acc false ri1 (or_introl Hc) Hacc R1 Lk1 Hle2 Hrem).
+        cbn [eval]. rewrite orb_false_r, (rop_dest cls letters false Hc), (read_reg_src rw ms cls letters acc Hacc).
+        fold r. rewrite Hrw. reflexivity. }
+      assert (Sd : sem rw R rem ms dest (VBv w v0)) by (split; [exact Ed | apply (shape_ity _ true w); [apply ity_int | exact Hv0]]).
+      destruct (Hsem st3 X3 HR Hrem HJ cs ms Hrel0 Himm) as [ilv [Sv Hcv]].
+      destruct (Hs0 ms _ _ Sd Sv) as [vr0 [S0 Hc0]].
+      destruct (Hd1 ms _ S0) as [z [Hz [Ez Cz]]].
+      change (pv_ty dest) with (ty_int true w) in Hc0. cbn [cval_of vt_sg ty_int] in Hc0.
+      destruct fuel as [|[|k]]; [rewrite cexec_0 in Hce; discriminate Hce| |]; rewrite cexec_expr in Hce by exact Hret.
+      { rewrite ceval_0 in Hce. discriminate Hce. }
+      rewrite (ceval_sasg k cs a (OReg cls letters) e Ha) in Hce.
+      destruct (ceval E csub xi k cs e) as [[s1 vr]|] eqn:Ee; [|discriminate Hce].
+      destruct (Hcv k s1 vr Ee) as [-> ->].
+      destruct (operand_lval E xi cs (OReg cls letters)) as [lv|] eqn:Eo; [|discriminate Hce].
+      destruct (read_lval_reg cs cls letters acc lv Hc Hacc Eo) as [-> Erd]. rewrite Erd in Hce.
+      fold r w in Hce. rewrite Hregw, Hrold in Hce.
+      unfold mkval in Hce. cbn [snd] in Hce. fold v0 in Hce.
+      assert (Hsl : sleft a = match a with AShl => true | _ => false end) by reflexivity. rewrite Hsl in Hce.
+      match type of Hce with context [c_shift ?a1 ?a2 ?a3] => destruct (c_shift a1 a2 a3) as [res|] eqn:Esh end; [|discriminate Hce].
+      rewrite (Hc0 res Esh) in Hce. cbn [option_map fst] in Hce. unfold write_lval in Hce.
+      assert (Hcs' : cs' = set_regw cs r z).
+      { injection Hce as <-. apply (f_equal (set_regw cs r)). exact (f_equal snd Cz). }
+      subst cs'. clear Hce.
+      exists (set_reg ms r z). split; [|split; [apply srel_set_reg; [exact Hrel | reflexivity] | apply imms_done_set_reg; exact Himm]].
+      cbn [flat_map item_effects le_empty le_term app seqn fin_eff].
+      assert (Lk3 : exists ri3, lookup_reg_info n (st_regs st3) = Some ri3).
+      { destruct (st_ext_regs _ _ X2 _ _ Lk1) as [ri2 [H2 _]]. destruct (st_ext_regs _ _ X3 _ _ H2) as [ri3 [H3 _]]. eauto. }
+      destruct Lk3 as [ri3 Lk3]. unfold n in *.
+      rewrite (fin_op_dest R rem (st_regs st3) cls letters acc ri3 Hc Hacc R3 Lk3 HR Hrem).
+      eapply runs_writereg; [exact Ez | exact Hrw]. }
+    intros Hst. eapply st_ext_nonempty; [exact X3|]. eapply st_ext_nonempty; [exact X2|]. exact (N1 Hst).
+  Qed.
+
   (* ------------------------------------------------------------------ x &= e;  x |= e;  x ^= e;  RxV &= e; ... *)
   Definition bfun (a : asgop) : Z -> Z -> Z := match a with AAnd => Z.land | AOr => Z.lor | _ => Z.lxor end.
   Definition bop (a : asgop) : RzIL.binop := match a with AAnd => BLogAnd | AOr => BLogOr | _ => BLogXor end.
@@ -1432,22 +1769,22 @@ Section StmtCorrect.
 
   (* the tail of the model's assignment callback for the bitwise compound operators: no promotion, the operation is done
      at the type of the destination, and the conversion back (D14) is the identity *)
-  Lemma basg_tail_ok a dest pv src' asg st2 st3 sg w : is_basg a -> pv_ty dest = ty_int sg w ->
+  Lemma basg_tail_ok a dest pv src' asg st2 st3 h sg w : is_basg a -> pv_ty dest = ty_h h sg w ->
     cast_operands cfg true dest pv st2 = OK ((dest, src'), st2) ->
-    mk_assign dest (mkpv (PBin (bop a) (rd dest) (rd src')) (ty_int sg w) KExec (pv_tmps dest ++ pv_tmps src')) st2 = OK (asg, st3) ->
-    st_pending st3 = [] ->
+    mk_assign dest (mkpv (PBin (bop a) (rd dest) (rd src')) (ty_h h sg w) KExec (pv_tmps dest ++ pv_tmps src')) st2 = OK (asg, st3) ->
+    le_tmps asg = [] ->
     casg_tail a (IPure dest) (IPure pv) st2 =
-    OK (IAsg asg (mkpv (PBin (bop a) (rd dest) (rd src')) (ty_int sg w) KExec (pv_tmps dest ++ pv_tmps src')), st3).
+    OK (IAsg asg (mkpv (PBin (bop a) (rd dest) (rd src')) (ty_h h sg w) KExec (pv_tmps dest ++ pv_tmps src')), st3).
   Proof.
     intros Ha Hd Hco Hm Hp. unfold casg_tail.
     unfold bind at 1. unfold ret at 1. unfold bind at 1. unfold ret at 1. cbv beta iota.
     destruct Ha as [-> | [-> | ->]]; unfold bind at 1; rewrite Hco; cbv beta iota; cbn [compound_src];
-    unfold bind at 1; unfold bind at 1; unfold need_numeric; rewrite Hd; cbn [is_numeric ty_int vt_void vt_ext negb andb];
+    unfold bind at 1; unfold bind at 1; unfold need_numeric; rewrite Hd; cbn [is_numeric ty_h vt_void vt_ext negb andb];
     unfold ret at 1; unfold ret at 1; cbn [fx cfg_fx fx_compound_conv all_fixes pv_ty];
-    unfold bind at 1; unfold bind at 1; unfold ty_eq; cbn [is_numeric ty_int vt_void vt_ext negb andb]; unfold ret at 1;
+    unfold bind at 1; unfold bind at 1; unfold ty_eq; cbn [is_numeric ty_h vt_void vt_ext negb andb]; unfold ret at 1;
     rewrite vtype_eqb_refl; unfold ret at 1;
     unfold bitop_il_exec; cbn [String.eqb Ascii.eqb Bool.eqb bop] in *;
-    unfold bind; rewrite Hm; rewrite ?hyb_nil by exact Hp; rewrite chk_nil by exact Hp; reflexivity.
+    unfold bind; rewrite Hm; rewrite ?hyb_nil by (right; exact Hp); rewrite chk_nil by (right; exact Hp); reflexivity.
   Qed.
 
   Lemma sinv_basg_var D V a x sg w e :
@@ -1455,27 +1792,27 @@ Section StmtCorrect.
     pfrag rw IM V e -> SInv D V (SExpr (EAssign a (EOp (OIdent x)) e)) D V.
   Proof.
     intros Ha Hx Hw Hfrag st Hext Hok Hp.
-    destruct (lst_ok_local IM D st x _ Hok (Hext _ _ Hx)) as [Hxi Hxs].
+    destruct (lst_ok_local IM D st x sg w Hok (Hext _ _ Hx)) as [Hxi [Hxh [tx [Hxs Htx]]]].
+    destruct (ity_inv _ _ _ Htx) as [hx Etx].
     destruct (expr_sim_ext V D e st Hfrag Hext Hok) as [pv [st2 [L2 [X2 [Hok2 [G2 Hsem]]]]]].
-    assert (Hp2 : st_pending st2 = []) by (eapply st_ext_pending; eassumption).
     pose (kx := if String.eqb (substring 0 5 x) "h_tmp" then KTmp x false else KVar x).
-    pose (dest := mkpv (PVarL x) (ty_int sg w) kx []).
-    destruct (conv_back_ok pv st2 sg w Hw G2) as [src' [C1 [T1 [G1 Hc1]]]].
-    pose (src0 := mkpv (PBin (bop a) (rd dest) (rd src')) (ty_int sg w) KExec (pv_tmps dest ++ pv_tmps src')).
+    pose (dest := mkpv (PVarL x) tx kx []).
+    destruct (conv_back_ok tx pv st2 sg w Hw Htx G2) as [src' [C1 [T1 [G1 Hc1]]]].
+    pose (src0 := mkpv (PBin (bop a) (rd dest) (rd src')) (ty_h hx sg w) KExec (pv_tmps dest ++ pv_tmps src')).
     exists [IAsg (mkle (ESetL x (rd src0)) (pv_tmps dest ++ pv_tmps src0) false) src0], st2.
     split.
     { rewrite lower_stmt_expr, lower_expr_casg, lower_expr_op. cbn [lower_operand cfg_params lookup].
       unfold bind at 1. unfold bind at 1. unfold bind at 1. unfold get. rewrite Hxs. unfold ret at 1.
       unfold bind at 1. rewrite L2. fold kx. fold dest.
       assert (Hco : cast_operands cfg true dest pv st2 = OK ((dest, src'), st2)).
-      { rewrite cast_operands_imm. unfold bind at 1. change (pv_ty dest) with (ty_int sg w). rewrite C1. reflexivity. }
-      rewrite (basg_tail_ok a dest pv src' _ st2 st2 sg w Ha eq_refl Hco (mk_assign_var dest src0 st2 x eq_refl
-                 ltac:(unfold dest, kx; cbn [pv_kind]; destruct (String.eqb (substring 0 5 x) "h_tmp"); eauto)) Hp2).
+      { rewrite cast_operands_imm. unfold bind at 1. change (pv_ty dest) with tx. rewrite C1. reflexivity. }
+      rewrite (basg_tail_ok a dest pv src' _ st2 st2 hx sg w Ha Etx Hco (mk_assign_var dest src0 st2 x (ity_const _ _ _ Htx)
+                 ltac:(unfold dest, kx; cbn [pv_kind]; destruct (String.eqb (substring 0 5 x) "h_tmp"); eauto))) by tm0.
       reflexivity. }
     split.
-    { split; [exact Hok2|]. split; [exact X2|]. split; [repeat constructor|].
+    { split; [exact Hok2|]. split; [exact X2|]. split; [pl0|].
       intros HR Hrem HJ cs ms fuel cs' Hrel Himm Hce.
-      pose proof Hrel as [Hrel0 [Hloc [Hmem [Hret [Hres [Hj [Himl [Hcloc Hvx]]]]]]]].
+      pose proof Hrel as [Hrel0 [Hloc [Hmem [Hret [Hres [Hj [Himl [Hcloc [Hvx Hht]]]]]]]]].
       destruct (proj1 Hrel0 x sg w Hx Hw) as [v0 [Hcx [Hv0 Hmx]]].
       destruct (Hsem st2 (st_ext_refl _) HR Hrem HJ cs ms Hrel0 Himm) as [ilv [Sv Hcv]].
       destruct (Hc1 ms ilv Sv) as [z1 [Hz1 [Ez1 Cz1]]].
@@ -1513,14 +1850,12 @@ Section StmtCorrect.
     destruct (lower_reg_ok cls letters acc false st (or_introl Hc) Hacc (lst_ok_regs_ok _ _ _ Hok)) as [st1 [L1 [V1 [I1 [X1 [R1 [N1 [ri1 Lk1]]]]]]]].
     assert (Hok1 : lst_ok IM D st1) by (eapply lst_ok_regs; eassumption).
     destruct (expr_sim_ext V D e st1 Hfrag Hext Hok1) as [pv [st2 [L2 [X2 [Hok2 [G2 Hsem]]]]]].
-    assert (Hp2 : st_pending st2 = []) by (eapply st_ext_pending; [exact X2|]; eapply st_ext_pending; eassumption).
     set (n := rname cls letters false) in *.
     pose (dest := mkpv (PRaw ("$reg:" +++ n)) (ty_int true w) (KReg n) []).
-    destruct (conv_back_ok pv st2 true w Hw G2) as [src' [C1 [T1 [G1 Hc1]]]].
+    destruct (conv_back_ok (ty_int true w) pv st2 true w Hw (ity_int _ _) G2) as [src' [C1 [T1 [G1 Hc1]]]].
     pose (src0 := mkpv (PBin (bop a) (rd dest) (rd src')) (ty_int true w) KExec (pv_tmps dest ++ pv_tmps src')).
     destruct (add_write_property_ok n st2 (lst_ok_regs_ok _ _ _ Hok2) (isa_not_pcname cls letters false (reg_cls_any false _ (or_introl Hc)) (access_in_table _ _ Hacc))) as [st3 [W1 [V3 [I3 [X3 R3]]]]].
     assert (Hok3 : lst_ok IM D st3) by (eapply lst_ok_regs; eassumption).
-    assert (P3 : st_pending st3 = []) by (eapply st_ext_pending; eassumption).
     exists [IAsg (mkle (EWriteReg (RParam ("$reg:" +++ n)) (rd src0)) (pv_tmps dest ++ pv_tmps src0) false) src0], st3.
     split.
     { rewrite lower_stmt_expr, lower_expr_casg, lower_expr_op. cbn [lower_operand].
@@ -1529,12 +1864,12 @@ Section StmtCorrect.
       assert (Hco : cast_operands cfg true dest pv st2 = OK ((dest, src'), st2)).
       { rewrite cast_operands_imm. unfold bind at 1. change (pv_ty dest) with (ty_int true w). rewrite C1. reflexivity. }
       change (mkpv (PRaw ("$reg:" +++ n)) (ty_int true (dest_w cls acc)) (KReg n) []) with dest.
-      rewrite (basg_tail_ok a dest pv src' _ st2 st3 true w Ha eq_refl Hco (mk_assign_reg dest src0 st2 st3 n eq_refl eq_refl W1) P3).
+      rewrite (basg_tail_ok a dest pv src' _ st2 st3 false true w Ha eq_refl Hco (mk_assign_reg dest src0 st2 st3 n eq_refl eq_refl W1)) by tm0.
       reflexivity. }
     split.
-    { split; [exact Hok3|]. split; [eapply st_ext_trans; [exact X1|]; eapply st_ext_trans; eassumption|]. split; [repeat constructor|].
+    { split; [exact Hok3|]. split; [eapply st_ext_trans; [exact X1|]; eapply st_ext_trans; eassumption|]. split; [pl0|].
       intros HR Hrem HJ cs ms fuel cs' Hrel Himm Hce.
-      pose proof Hrel as [Hrel0 [Hloc [Hmem [Hret [Hres [Hj [Himl [Hcloc Hvx]]]]]]]].
+      pose proof Hrel as [Hrel0 [Hloc [Hmem [Hret [Hres [Hj [Himl [Hcloc [Hvx Hht]]]]]]]]].
       pose proof Hrel0 as [_ [Hregw [Hrold _]]].
       set (v0 := wrap w (match lookup_reg r (rnew ms) with Some v => v | None => if write_only acc then 0 else rold ms r end)).
       assert (Hv0 : 0 <= v0 < pow2 w) by apply wrap_range.
@@ -1581,13 +1916,18 @@ Section StmtCorrect.
     set_var x t st = OK (tt, mkst (st_vars st ++ [(x, t)]) (st_regs st) (st_pending st) (st_hcount st) (st_imms st) true (st_removed st)).
   Proof. intros H. unfold set_var, bind, get, put. rewrite (lookup_none_existsb x _ H). reflexivity. Qed.
 
-  Lemma lst_ok_decl V st x t : lst_ok IM V st -> IM x = false ->
-    lst_ok IM (V ++ [(x, t)]) (mkst (st_vars st ++ [(x, t)]) (st_regs st) (st_pending st) (st_hcount st) (st_imms st) true (st_removed st)).
+  Lemma lst_ok_decl V st x sg w : lst_ok IM V st -> ~ reserved IM x ->
+    lst_ok IM (V ++ [(x, Some (ty_int sg w))])
+      (mkst (st_vars st ++ [(x, Some (ty_int sg w))]) (st_regs st) (st_pending st) (st_hcount st) (st_imms st) true (st_removed st)).
   Proof.
-    intros [H1 [H2 [H3 [H4 H5]]]] Hx. unfold lst_ok. cbn [st_vars st_imms st_regs].
+    intros [H1 [H2 [H3 [H4 H5]]]] Hnr. destruct (not_reserved_imm IM x Hnr) as [Hx _]. pose proof (not_reserved_htmp IM x Hnr) as Hxh.
+    unfold lst_ok. cbn [st_vars st_imms st_regs].
     split; [|split; [|split; [|split; [|exact H5]]]].
-    - intros y Hy. rewrite !lookup_app, (H1 y Hy). reflexivity.
-    - intros l Hl. rewrite lookup_app, (H2 l Hl). cbn [lookup]. rewrite (imm_letter_neq IM x l Hx Hl). reflexivity.
+    - intros y Hy Hh. rewrite !lookup_app. specialize (H1 y Hy Hh).
+      destruct (lookup y (st_vars st)) as [o|]; cbn [option_map] in *; rewrite <- H1; [reflexivity|].
+      cbn [lookup]. destruct (String.eqb y x); reflexivity.
+    - intros l Hl. rewrite lookup_app, (H2 l Hl). cbn [lookup].
+      destruct (String.eqb_spec l x) as [->|_]; [|reflexivity]. destruct Hl as [Hl | Hl]; congruence.
     - intros l Hl. rewrite lookup_snoc_other by (apply (imm_letter_neq IM); assumption). exact (H3 l Hl).
     - eapply Forall_impl; [|exact H4]. intros e [l [A [B C]]]. exists l. split; [exact A|]. split; [exact B|].
       apply lookup_snoc_some. exact C.
@@ -1601,23 +1941,22 @@ Section StmtCorrect.
     destruct (not_reserved_imm IM x Hnr) as [Hxi _].
     destruct (decl_ty_ok ts sg w st Hts) as [Hdt [Hrc Hw]].
     destruct (expr_sim_ext V D e st Hfrag Hext Hok) as [pv [st2 [L2 [X2 [Hok2 [G2 Hsem]]]]]].
-    assert (Hp2 : st_pending st2 = []) by (eapply st_ext_pending; eassumption).
-    assert (Hx2 : lookup x (st_vars st2) = None) by (rewrite (proj1 Hok2 x Hxi); exact Hx).
+    assert (Hx2 : lookup x (st_vars st2) = None) by (exact (lst_ok_none IM D st2 x Hok2 Hxi (not_reserved_htmp IM x Hnr) Hx)).
     set (st3 := mkst (st_vars st2 ++ [(x, Some (ty_int sg w))]) (st_regs st2) (st_pending st2) (st_hcount st2) (st_imms st2) true (st_removed st2)).
     assert (X3 : st_ext st2 st3).
-    { unfold st_ext, st3; cbn [st_pending st_hcount st_imms st_removed st_nonempty st_regs]. repeat split; auto using incl_refl, regs_le_refl. }
-    destruct (cast_imm_ok (mkpv (PVarL x) (ty_int sg w) (KVar x) []) pv st3 sg w Hw eq_refl G2) as [src2 [C2 [T2 Hc2]]].
+    { unfold st_ext, st3; cbn [st_pending st_hcount st_imms st_removed st_nonempty st_regs]. repeat split; auto using incl_refl, regs_le_refl, N.le_refl. }
+    destruct (cast_imm_ok (mkpv (PVarL x) (ty_int sg w) (KVar x) []) pv st3 sg w Hw (ity_int _ _) G2) as [src2 [C2 [T2 Hc2]]].
     exists [IEff (mkle (ESetL x (rd src2)) (pv_tmps pv) false)], st3.
     split.
     { rewrite lower_stmt_decl. unfold bind. rewrite Hdt. step L2.
       unfold decl_tail, bind, ret, get. cbn [as_pure cfg_params lookup ret]. unfold ret. rewrite Hx2.
       rewrite (cast_self_ok (mkpv (PVarL x) (pv_ty pv) (KVar x) []) pv st2 G2 eq_refl). cbv beta iota.
       rewrite (proj2 (goodpv_numeric pv G2)). rewrite (set_var_fresh x _ st2 Hx2). fold st3. step C2.
-      rewrite ?hyb_nil by (unfold st3; cbn [st_pending]; exact Hp2); rewrite chk_nil by (unfold st3; cbn [st_pending]; exact Hp2). reflexivity. }
+      rewrite ?hyb_nil by (right; tm0); rewrite chk_nil by (right; tm0). reflexivity. }
     split.
-    { split; [apply lst_ok_decl; assumption|]. split; [eapply st_ext_trans; eassumption|]. split; [repeat constructor|].
+    { split; [apply lst_ok_decl; assumption|]. split; [eapply st_ext_trans; eassumption|]. split; [pl0|].
       intros HR Hrem HJ cs ms fuel cs' Hrel Himm Hce.
-      pose proof Hrel as [Hrel0 [Hloc [Hmem [Hret [Hres [Hj [Himl [Hcloc Hvx]]]]]]]].
+      pose proof Hrel as [Hrel0 [Hloc [Hmem [Hret [Hres [Hj [Himl [Hcloc [Hvx Hht]]]]]]]]].
       destruct (Hsem st3 X3 HR Hrem HJ cs ms Hrel0 Himm) as [ilv [Sv Hcv]].
       destruct (Hc2 ms ilv Sv) as [z [Hz [Ez Cz]]].
       destruct fuel as [|k]; [rewrite cexec_0 in Hce; discriminate Hce|].
@@ -1654,7 +1993,7 @@ Section StmtCorrect.
     intros Hts Hx Hnr st Hext Hok Hp.
     destruct (not_reserved_imm IM x Hnr) as [Hxi _].
     destruct (decl_ty_ok ts sg w st Hts) as [Hdt [Hrc Hw]].
-    assert (Hx2 : lookup x (st_vars st) = None) by (rewrite (proj1 Hok x Hxi); exact Hx).
+    assert (Hx2 : lookup x (st_vars st) = None) by (exact (lst_ok_none IM D st x Hok Hxi (not_reserved_htmp IM x Hnr) Hx)).
     set (st3 := mkst (st_vars st ++ [(x, Some (ty_int sg w))]) (st_regs st) (st_pending st) (st_hcount st) (st_imms st) true (st_removed st)).
     exists [IEff empty_eff], st3.
     split.
@@ -1662,11 +2001,11 @@ Section StmtCorrect.
       unfold bind at 1. unfold ret at 1. unfold bind at 1.
       rewrite (lookup_none_existsb x _ Hx2). rewrite (set_var_fresh x _ st Hx2). fold st3.
       unfold bind at 1. rewrite touch_eq. change (touched st3) with st3.
-      unfold bind. rewrite chk_nil by (unfold st3; cbn [st_pending]; exact Hp). reflexivity. }
+      unfold bind. rewrite chk_nil by (right; tm0). reflexivity. }
     split; [|intros _; reflexivity].
     split; [apply lst_ok_decl; assumption|].
-    split. { unfold st_ext, st3; cbn [st_pending st_hcount st_imms st_removed st_nonempty st_regs]. repeat split; auto using incl_refl, regs_le_refl. }
-    split; [repeat constructor|].
+    split. { unfold st_ext, st3; cbn [st_pending st_hcount st_imms st_removed st_nonempty st_regs]. repeat split; auto using incl_refl, regs_le_refl, N.le_refl. }
+    split; [pl0|].
     intros HR Hrem HJ cs ms fuel cs' Hrel Himm Hce.
     destruct fuel as [|k]; [rewrite cexec_0 in Hce; discriminate Hce|].
     rewrite cexec_decl0 in Hce by (apply (srel_ret _ _ _ _ _ _ Hrel)). rewrite Hrc in Hce. injection Hce as <-.
@@ -1682,22 +2021,22 @@ Section StmtCorrect.
     pfrag rw IM V e -> SInv D V (SExpr (EAssign AAssign (EOp (OIdent x)) e)) D (V ++ [(x, Some (ty_int sg w))]).
   Proof.
     intros Hx HxV Hw Hfrag st Hext Hok Hp.
-    destruct (lst_ok_local IM D st x _ Hok Hx) as [Hxi Hxs].
+    destruct (lst_ok_local IM D st x sg w Hok Hx) as [Hxi [Hxh [tx [Hxs Htx]]]].
     destruct (expr_sim_ext V D e st Hfrag Hext Hok) as [pv [st2 [L2 [X2 [Hok2 [G2 Hsem]]]]]].
-    pose (dest := mkpv (PVarL x) (ty_int sg w) (if String.eqb (substring 0 5 x) "h_tmp" then KTmp x false else KVar x) []).
-    destruct (cast_imm_ok dest pv st2 sg w Hw eq_refl G2) as [src' [C1 [T1 Hc1]]].
+    pose (dest := mkpv (PVarL x) tx (if String.eqb (substring 0 5 x) "h_tmp" then KTmp x false else KVar x) []).
+    destruct (cast_imm_ok dest pv st2 sg w Hw Htx G2) as [src' [C1 [T1 Hc1]]].
     exists [IAsg (mkle (ESetL x (rd src')) (pv_tmps dest ++ pv_tmps src') false) src'], st2.
     split.
     { rewrite lower_stmt_expr, lower_expr_asg, lower_expr_op. cbn [lower_operand cfg_params lookup].
       unfold asg_tail, bind, ret, get. rewrite Hxs. cbv beta iota. step L2. fold dest. step C1.
       cbn [compound_src]. unfold ret.
-      rewrite (mk_assign_var dest src' st2 x eq_refl).
+      rewrite (mk_assign_var dest src' st2 x (ity_const _ _ _ Htx)).
       2:{ unfold dest. cbn [pv_kind]. destruct (String.eqb (substring 0 5 x) "h_tmp"); eauto. }
-      rewrite ?hyb_nil by (eapply st_ext_pending; eassumption); rewrite chk_nil by (eapply st_ext_pending; eassumption). reflexivity. }
+      rewrite ?hyb_nil by (right; tm0); rewrite chk_nil by (right; tm0). reflexivity. }
     split.
-    { split; [exact Hok2|]. split; [exact X2|]. split; [repeat constructor|].
+    { split; [exact Hok2|]. split; [exact X2|]. split; [pl0|].
       intros HR Hrem HJ cs ms fuel cs' Hrel Himm Hce.
-      pose proof Hrel as [Hrel0 [Hloc [Hmem [Hret [Hres [Hj [Himl [Hcloc Hvx]]]]]]]].
+      pose proof Hrel as [Hrel0 [Hloc [Hmem [Hret [Hres [Hj [Himl [Hcloc [Hvx Hht]]]]]]]]].
       assert (Hnr : ~ reserved IM x) by (intros Hr; rewrite (Hres x Hr) in Hx; discriminate Hx).
       destruct (Hsem st2 (st_ext_refl _) HR Hrem HJ cs ms Hrel0 Himm) as [ilv [Sv Hcv]].
       destruct (Hc1 ms ilv Sv) as [z [Hz [Ez Cz]]].
@@ -1731,26 +2070,25 @@ Section StmtCorrect.
   Proof.
     intros Hi Hx Hnr Hfrag st Hext Hok Hp. pose proof (vext_none V D x Hext Hx) as HxV.
     destruct (not_reserved_imm IM x Hnr) as [Hxi _].
-    assert (Hxs : lookup x (st_vars st) = None) by (rewrite (proj1 Hok x Hxi); exact Hx).
+    assert (Hxs : lookup x (st_vars st) = None) by (exact (lst_ok_none IM D st x Hok Hxi (not_reserved_htmp IM x Hnr) Hx)).
     set (st1 := mkst (st_vars st ++ [(x, Some (ty_int false 32))]) (st_regs st) (st_pending st) (st_hcount st) (st_imms st) true (st_removed st)).
     assert (Hok1 : lst_ok IM (D ++ [(x, Some (ty_int false 32))]) st1) by (apply lst_ok_decl; assumption).
     assert (X1 : st_ext st st1).
-    { unfold st_ext, st1; cbn [st_pending st_hcount st_imms st_removed st_nonempty st_regs]. repeat split; auto using incl_refl, regs_le_refl. }
+    { unfold st_ext, st1; cbn [st_pending st_hcount st_imms st_removed st_nonempty st_regs]. repeat split; auto using incl_refl, regs_le_refl, N.le_refl. }
     destruct (expr_sim_ext V (D ++ [(x, Some (ty_int false 32))]) e st1 Hfrag (vext_app_r V D x _ Hext) Hok1) as [pv [st2 [L2 [X2 [Hok2 [G2 Hsem]]]]]].
-    assert (Hp2 : st_pending st2 = []) by (eapply st_ext_pending; [exact X2|]; eapply st_ext_pending; eassumption).
     pose (dest := mkpv (PVarL x) (ty_int false 32) (KVar x) []).
-    destruct (cast_imm_ok dest pv st2 false 32 okw32 eq_refl G2) as [src' [C1 [T1 Hc1]]].
+    destruct (cast_imm_ok dest pv st2 false 32 okw32 (ity_int _ _) G2) as [src' [C1 [T1 Hc1]]].
     exists [IAsg (mkle (ESetL x (rd src')) (pv_tmps dest ++ pv_tmps src') false) src'], st2.
     split.
     { rewrite lower_stmt_expr, lower_expr_asg, lower_expr_op. unfold bind at 1. unfold bind at 1.
       rewrite (lower_operand_implicit x st Hi Hxs). fold st1. unfold bind at 1. rewrite L2.
       unfold asg_tail, bind, ret. fold dest. step C1. cbn [compound_src]. unfold ret.
       rewrite (mk_assign_var dest src' st2 x eq_refl) by (left; reflexivity).
-      rewrite ?hyb_nil by exact Hp2; rewrite chk_nil by exact Hp2. reflexivity. }
+      rewrite ?hyb_nil by (right; tm0); rewrite chk_nil by (right; tm0). reflexivity. }
     split.
-    { split; [exact Hok2|]. split; [eapply st_ext_trans; eassumption|]. split; [repeat constructor|].
+    { split; [exact Hok2|]. split; [eapply st_ext_trans; eassumption|]. split; [pl0|].
       intros HR Hrem HJ cs ms fuel cs' Hrel Himm Hce.
-      pose proof Hrel as [Hrel0 [Hloc [Hmem [Hret [Hres [Hj [Himl [Hcloc Hvx]]]]]]]].
+      pose proof Hrel as [Hrel0 [Hloc [Hmem [Hret [Hres [Hj [Himl [Hcloc [Hvx Hht]]]]]]]]].
       destruct (Hsem st2 (st_ext_refl _) HR Hrem HJ cs ms Hrel0 Himm) as [ilv [Sv Hcv]].
       destruct (Hc1 ms ilv Sv) as [z [Hz [Ez Cz]]].
       destruct (cexec_asg_inv fuel cs _ e cs' Hret Hce) as [k [s1 [vr [lv [Ee [Eo ->]]]]]].
@@ -1769,14 +2107,15 @@ Section StmtCorrect.
   Proof. intros H. eapply lst_ok_regs; [exact H | reflexivity | reflexivity | apply H]. Qed.
 
   Lemma sinv_skip D V s items eff :
-    (forall st, st_pending st = [] -> lower_stmt cfg s st = OK (items, touched st)) ->
-    Forall plain_item items -> seqn (flat_map item_effects items) = eff -> (eff = EEmpty \/ eff = ENop) ->
+    (forall st, lower_stmt cfg s st = OK (items, touched st)) ->
+    Forall (pitem true) items -> seqn (flat_map item_effects items) = eff -> (eff = EEmpty \/ eff = ENop) ->
     (forall fuel cs cs', cs_ret cs = None -> cexec E csub xi fuel cs s = Some cs' -> cs' = cs) ->
     SInv D V s D V.
   Proof.
     intros Hlow Hplain Heff Hskip Hc st Hext Hok Hp.
-    exists items, (touched st). split; [apply Hlow; exact Hp|]. split; [|reflexivity].
-    split; [apply lst_ok_touched; exact Hok|]. split; [apply st_ext_touched|]. split; [exact Hplain|].
+    exists items, (touched st). split; [apply Hlow|]. split; [|reflexivity].
+    split; [apply lst_ok_touched; exact Hok|]. split; [apply st_ext_touched|].
+    split; [eapply Forall_impl; [|exact Hplain]; intros i [Hi Ht]; split; [exact Hi | intros _; exact (Ht eq_refl)]|].
     intros HR Hrem HJ cs ms fuel cs' Hrel Himm Hce.
     rewrite (Hc fuel cs cs' (srel_ret _ _ _ _ _ _ Hrel) Hce).
     exists ms. split; [|split; [exact Hrel | exact Himm]]. rewrite Heff.
@@ -1786,9 +2125,9 @@ Section StmtCorrect.
   Lemma sinv_empty D V : SInv D V SEmpty D V.
   Proof.
     apply (sinv_skip D V SEmpty [IEff empty_eff] EEmpty).
-    - intros st Hp. rewrite lower_stmt_empty. unfold bind. rewrite touch_eq.
-      rewrite ?hyb_nil by exact Hp; rewrite chk_nil by exact Hp. reflexivity.
-    - repeat constructor.
+    - intros st. rewrite lower_stmt_empty. unfold bind. rewrite touch_eq.
+      rewrite ?hyb_nil by (right; tm0); rewrite chk_nil by (right; tm0). reflexivity.
+    - pl0.
     - reflexivity.
     - auto.
     - intros fuel cs cs' Hret H. destruct fuel as [|k]; [rewrite cexec_0 in H; discriminate H|].
@@ -1798,8 +2137,8 @@ Section StmtCorrect.
   Lemma sinv_nop D V : SInv D V SNop D V.
   Proof.
     apply (sinv_skip D V SNop [IEff (mkle ENop [] false)] ENop).
-    - intros st Hp. rewrite lower_stmt_nop. unfold bind. rewrite touch_eq. reflexivity.
-    - repeat constructor.
+    - intros st. rewrite lower_stmt_nop. unfold bind. rewrite touch_eq. reflexivity.
+    - pl0.
     - reflexivity.
     - auto.
     - intros fuel cs cs' Hret H. destruct fuel as [|k]; [rewrite cexec_0 in H; discriminate H|].
@@ -1817,9 +2156,9 @@ Section StmtCorrect.
   Lemma sinv_cancel D V : SInv D V SCancel D V.
   Proof.
     apply (sinv_skip D V SCancel [IEff (mkle ENop [] false)] ENop).
-    - intros st Hp. rewrite lower_stmt_cancel. unfold bind. rewrite touch_eq.
-      rewrite ?hyb_nil by exact Hp; rewrite chk_nil by exact Hp. reflexivity.
-    - repeat constructor.
+    - intros st. rewrite lower_stmt_cancel. unfold bind. rewrite touch_eq.
+      rewrite ?hyb_nil by (right; tm0); rewrite chk_nil by (right; tm0). reflexivity.
+    - pl0.
     - reflexivity.
     - auto.
     - intros fuel cs cs' Hret H. rewrite cexec_cancel, Hret in H. destruct fuel; discriminate H.
@@ -1828,9 +2167,9 @@ Section StmtCorrect.
   Lemma sinv_block_nil D V : SInv D V (SBlock SNil) D V.
   Proof.
     apply (sinv_skip D V (SBlock SNil) [IEff empty_eff] EEmpty).
-    - intros st Hp. rewrite lower_stmt_block_nil. unfold bind. rewrite touch_eq.
-      rewrite ?hyb_nil by exact Hp; rewrite chk_nil by exact Hp. reflexivity.
-    - repeat constructor.
+    - intros st. rewrite lower_stmt_block_nil. unfold bind. rewrite touch_eq.
+      rewrite ?hyb_nil by (right; tm0); rewrite chk_nil by (right; tm0). reflexivity.
+    - pl0.
     - reflexivity.
     - auto.
     - intros fuel cs cs' Hret H. destruct fuel as [|k]; [rewrite cexec_0 in H; discriminate H|].
@@ -1869,44 +2208,47 @@ Section StmtCorrect.
   (* the stored value: converted to the operation type (a Token-width type in the compiler) *)
   Lemma tok_cast_ok sg w p st : okw w -> goodpv p ->
     exists p', (do eq <- ty_eq (ty_tok sg w) (pv_ty p); if eq then ret p else init_a_cast cfg (ty_tok sg w) p) st = OK (p', st) /\
+      pv_tmps p' = [] /\
       forall ms v, sem rw R rem ms p v ->
         exists z, 0 <= z < pow2 w /\ eval rw ms [] (fin_pure R rem (pv_term p')) = Some (VBv w z) /\
                   conv (sg, w) (cval_of (pv_ty p) v) = ((sg, w), z).
   Proof.
     intros Hw Hp. destruct p as [tm ty k tmps].
-    destruct Hp as [[Ht Hk] | [sg0 [w0 [Hw0 [Ht Hk]]]]]; cbn [pv_ty pv_kind] in *; subst ty.
+    destruct Hp as [[Ht [Hk Htm]] | [sg0 [w0 [Hw0 [Ht [Hk Htm]]]]]]; cbn [pv_ty pv_kind pv_tmps] in *; subst tmps.
     - (* boolean source *)
+      subst ty.
       unfold init_a_cast, bind, ty_eq, ret.
       cbn [pv_ty pv_kind pv_tmps vt_float ty_tok ty_bool orb is_numeric vt_void vt_ext negb andb].
       assert (vtype_eqb (ty_tok sg w) ty_bool = false) as -> by reflexivity.
       assert (Hcw : match k with KBoolOp => true | KLit _ true => fx_bool_int (fx cfg) | _ => false end = true).
       { destruct k as [? [|]| | | | | | | |]; cbn in Hk; try contradiction; reflexivity. }
       rewrite Hcw. cbn [vt_bool ty_bool ty_tok andb negb cond_wrap rd pv_term].
-      eexists; split; [reflexivity|].
+      eexists; split; [reflexivity|]. split; [reflexivity|].
       intros ms v Hs. apply sem_bool in Hs; [|reflexivity]. destruct Hs as [b [-> He]]. cbn [pv_term] in He.
       exists (if b then wrap w 1 else wrap w 0). split; [destruct b; apply wrap_range|]. split.
       + cbn [pv_term fin_pure eval lit_pure vt_sg vt_w ty_tok]. rewrite He. cbn [sort_of_val sort_eqb]. rewrite N.eqb_refl.
         destruct b; reflexivity.
       + cbn [pv_ty cval_of]. unfold conv, mkval, vint, int_t, interp. cbn [fst snd]. destruct b; f_equal.
     - (* integer source *)
+      destruct (ity_inv _ _ _ Ht) as [h0 Et]. subst ty. clear Ht.
       unfold init_a_cast, bind, ty_eq, ret.
-      cbn [pv_ty pv_kind pv_tmps vt_float ty_tok ty_int orb is_numeric vt_void vt_ext negb andb].
-      assert (vtype_eqb (ty_tok sg w) (ty_int sg0 w0) = false) as -> by reflexivity.
-      cbn [vt_bool ty_int ty_tok andb fx cfg_fx fx_cast_fill all_fixes vt_w vt_sg rd pv_term].
-      eexists; split; [reflexivity|].
-      intros ms v Hs. eapply sem_int in Hs; [|reflexivity]. destruct Hs as [z [-> [Hz He]]]. cbn [pv_term] in He.
+      cbn [pv_ty pv_kind pv_tmps vt_float ty_tok ty_h orb is_numeric vt_void vt_ext negb andb].
+      assert (vtype_eqb (ty_tok sg w) (ty_h h0 sg0 w0) = false) as -> by reflexivity.
+      cbn [vt_bool ty_h ty_tok andb fx cfg_fx fx_cast_fill all_fixes vt_w vt_sg rd pv_term].
+      eexists; split; [reflexivity|]. split; [reflexivity|].
+      intros ms v Hs. eapply sem_int in Hs; [|apply ity_h]. destruct Hs as [z [-> [Hz He]]]. cbn [pv_term] in He.
       exists (wrap w (interp (sg0, w0) z)). split; [apply wrap_range|]. split; [|reflexivity].
       cbn [pv_term]. destruct (w0 <? w)%N eqn:Elt.
       + destruct sg0; cbn [fin_pure eval]; rewrite He; f_equal; f_equal.
         * apply (cast_widen w0 w true z); auto.
         * apply (cast_widen w0 w false z); auto.
-      + unfold cast_il_exec. cbn [vt_w vt_sg ty_int ty_tok fin_pure eval].
+      + unfold cast_il_exec. cbn [vt_w vt_sg ty_h ty_tok fin_pure eval].
         destruct (sg && sg0); cbn [fin_pure eval]; rewrite He; f_equal; f_equal; apply cast_narrow; auto; lia.
   Qed.
 
   Lemma srel_store D V cs ms a v n : srel IM E D V cs ms -> srel IM E D V (c_store cs a v n) (set_mem ms (write_bytes (mem ms) a v n)).
   Proof.
-    intros [H1 [H2 [H3 [H4 [H5 [H6 [H7 [H8 H9]]]]]]]]. split; [|split; [exact H2|]].
+    intros [H1 [H2 [H3 [H4 [H5 [H6 [H7 [H8 [H9 H10]]]]]]]]]. split; [|split; [exact H2|]].
     - destruct H1 as [R1 [R2 [R3 [R4 [R5 [R6 [R7 R8]]]]]]]. unfold rel.
       cbn [c_store cs_vars cs_regw cs_mem locals rnew rold rnew0 imms mem mem0 set_mem]. rewrite R7. auto 10.
     - cbn [c_store cs_mem mem set_mem cs_ret]. rewrite H3. auto 10.
@@ -1921,20 +2263,19 @@ Section StmtCorrect.
     intros Hw Hfa Hfv st Hext Hok Hp.
     destruct (expr_sim_ext V D a st Hfa Hext Hok) as [pa [st1 [L1 [X1 [Hok1 [G1 Hsema]]]]]].
     destruct (expr_sim_ext V D v st1 Hfv Hext Hok1) as [pd [st2 [L2 [X2 [Hok2 [G2 Hsemv]]]]]].
-    assert (Hp2 : st_pending st2 = []) by (eapply st_ext_pending; [exact X2|]; eapply st_ext_pending; eassumption).
-    destruct (addr_ok subsigs macs cret hstart rw R rem pa st2 G1) as [va [A1 A2]].
-    destruct (tok_cast_ok sg w pd st2 Hw G2) as [d [D1 D2]].
+    destruct (addr_ok subsigs macs cret hstart rw R rem pa st2 G1) as [va [A1 [At A2]]].
+    destruct (tok_cast_ok sg w pd st2 Hw G2) as [d [D1 [Dt D2]]].
     exists [IEff (mkle (EStore (rd va) (rd d)) (pv_tmps va ++ pv_tmps d) false)], (touched st2).
     split.
     { rewrite lower_stmt_store, lower_exprs_two. unfold bind at 1. unfold bind at 1. rewrite L1.
       unfold bind at 1. unfold bind at 1. rewrite L2. unfold bind at 1. unfold ret at 1 2 3. cbv beta iota.
       unfold store_tail. cbn [as_pure]. unfold bind at 1. unfold ret at 1. unfold bind at 1. rewrite A1.
       erewrite bind_bind_OK by exact D1. unfold bind. rewrite touch_eq.
-      rewrite ?hyb_nil by exact Hp2; rewrite chk_nil by exact Hp2. reflexivity. }
+      rewrite ?hyb_nil by (right; tm0); rewrite chk_nil by (right; tm0). reflexivity. }
     split; [|reflexivity].
     split; [apply lst_ok_touched; exact Hok2|].
     split; [eapply st_ext_trans; [exact X1|]; eapply st_ext_trans; [exact X2 | apply st_ext_touched]|].
-    split; [repeat constructor|].
+    split; [pl0|].
     intros HR Hrem HJ cs ms fuel cs' Hrel Himm Hce.
     pose proof Hrel as [Hrel0 [_ [Hmem [Hret _]]]].
     destruct (Hsema (touched st2) (st_ext_trans _ _ _ X2 (st_ext_touched st2)) HR Hrem HJ cs ms Hrel0 Himm) as [ila [Sa Hca]].
@@ -1960,19 +2301,19 @@ Section StmtCorrect.
      simulation holds vacuously on the paths that execute the call; the theorem gives the lowering and the simulation of
      the other paths. *)
   Lemma carg_low D V e st : carg rw IM D V e -> vext V D -> lst_ok IM D st ->
-    exists i st', lower_expr cfg e st = OK (i, st') /\ st_ext st st' /\ lst_ok IM D st'.
+    exists i st', lower_expr cfg e st = OK (i, st') /\ st_ext st st' /\ lst_ok IM D st' /\ item_tmps i = [].
   Proof.
-    intros [x [Hx [Hi Hn]] | e0 Hf] Hext Hok.
-    - exists (IStr x), st. split; [|split; [apply st_ext_refl | exact Hok]].
+    intros [x [Hx [Hi [Hn Hh]]] | e0 Hf] Hext Hok.
+    - exists (IStr x), st. split; [|split; [apply st_ext_refl | split; [exact Hok | reflexivity]]].
       rewrite lower_expr_op. cbn [lower_operand cfg_params lookup]. unfold bind, get.
-      rewrite (proj1 Hok x Hi), Hx.
+      rewrite (lst_ok_none IM D st x Hok Hi Hh Hx).
       assert (He : existsb (String.eqb x) ["EA"; "i"; "k"; "j"] = false).
       { cbn [existsb]. rewrite !orb_false_r. unfold implicit_name in Hn.
         destruct (String.eqb_spec x "EA"); [tauto|]. destruct (String.eqb_spec x "i"); [tauto|].
         destruct (String.eqb_spec x "k"); [tauto|]. destruct (String.eqb_spec x "j"); [tauto|]. reflexivity. }
       rewrite He. reflexivity.
-    - destruct (expr_sim_ext V D e0 st Hf Hext Hok) as [pv [st2 [L2 [X2 [Hok2 _]]]]].
-      exists (IPure pv), st2. auto.
+    - destruct (expr_sim_ext V D e0 st Hf Hext Hok) as [pv [st2 [L2 [X2 [Hok2 [G2 _]]]]]].
+      exists (IPure pv), st2. repeat (split; [assumption|]). exact (goodpv_tmps pv G2).
   Qed.
 
   Lemma lower_expr_ssc args st ia ib st' : lower_exprs cfg args st = OK ([ia; ib], st') ->
@@ -1999,8 +2340,8 @@ Section StmtCorrect.
     SInv D V (SExpr (Ast.ECall ssc_name (ECons a (ECons b ENil)))) D V.
   Proof.
     intros Ha Hb st Hext Hok Hp.
-    destruct (carg_low D V a st Ha Hext Hok) as [ia [st1 [L1 [X1 Hok1]]]].
-    destruct (carg_low D V b st1 Hb Hext Hok1) as [ib [st2 [L2 [X2 Hok2]]]].
+    destruct (carg_low D V a st Ha Hext Hok) as [ia [st1 [L1 [X1 [Hok1 Ta]]]]].
+    destruct (carg_low D V b st1 Hb Hext Hok1) as [ib [st2 [L2 [X2 [Hok2 Tb]]]]].
     eexists _, (touched st2).
     split.
     { rewrite lower_stmt_expr. unfold bind at 1.
@@ -2009,7 +2350,7 @@ Section StmtCorrect.
     split; [|reflexivity].
     split; [apply lst_ok_touched; exact Hok2|].
     split; [eapply st_ext_trans; [exact X1|]; eapply st_ext_trans; [exact X2 | apply st_ext_touched]|].
-    split; [repeat constructor|].
+    split; [repeat constructor; intros _; cbn [item_tmps le_tmps flat_map]; rewrite Ta, Tb; reflexivity|].
     intros HR Hrem HJ cs ms fuel cs' Hrel Himm Hce. exfalso.
     exact (cexec_ssc fuel cs _ cs' (srel_ret _ _ _ _ _ _ Hrel) Hce).
   Qed.
@@ -2033,31 +2374,32 @@ Section StmtCorrect.
 
   Lemma jump_cast_ok p st : goodpv p ->
     exists p', (if (vt_w (pv_ty p) =? 32)%N && negb (vt_tok (pv_ty p)) then ret p else init_a_cast cfg (ty_int false 32) p) st = OK (p', st) /\
+      pv_tmps p' = [] /\
       forall ms v, sem rw R rem ms p v ->
         exists z, 0 <= z < pow2 32 /\ eval rw ms [] (fin_pure R rem (pv_term p')) = Some (VBv 32 z) /\
                   snd (conv (false, 32%N) (cval_of (pv_ty p) v)) = z.
   Proof.
     intros Hg.
-    destruct (init_a_cast_ok subsigs macs cret hstart rw R rem false 32 p st okw32 Hg) as [p2 [H1 [_ [H3 [_ H5]]]]].
-    assert (Hcast : exists p', init_a_cast cfg (ty_int false 32) p st = OK (p', st) /\
+    destruct (init_a_cast_ok subsigs macs cret hstart rw R rem false 32 p st okw32 Hg) as [p2 [H1 [G2 [H3 [_ H5]]]]].
+    assert (Hcast : exists p', init_a_cast cfg (ty_int false 32) p st = OK (p', st) /\ pv_tmps p' = [] /\
               forall ms v, sem rw R rem ms p v ->
                 exists z, 0 <= z < pow2 32 /\ eval rw ms [] (fin_pure R rem (pv_term p')) = Some (VBv 32 z) /\
                           snd (conv (false, 32%N) (cval_of (pv_ty p) v)) = z).
-    { exists p2. split; [exact H1|]. intros ms v Hs. destruct (H5 ms v Hs) as [v2 [S2 C2]].
+    { exists p2. split; [exact H1|]. split; [exact (goodpv_tmps p2 G2)|]. intros ms v Hs. destruct (H5 ms v Hs) as [v2 [S2 C2]].
       destruct (sem_int rw R rem ms p2 v2 false 32 H3 S2) as [z [-> [Hz He]]].
-      exists z. split; [exact Hz|]. split; [exact He|]. rewrite <- C2, H3. reflexivity. }
+      exists z. split; [exact Hz|]. split; [exact He|]. rewrite <- C2, (cval_of_ity _ false 32 z H3). reflexivity. }
     pose proof Hg as [[Ht _] | [s0 [w0 [Hw0 [Ht _]]]]].
     - assert (Hc : (vt_w (pv_ty p) =? 32)%N && negb (vt_tok (pv_ty p)) = false) by (rewrite Ht; reflexivity).
       rewrite Hc. exact Hcast.
-    - destruct (w0 =? 32)%N eqn:Ew.
+    - destruct (ity_inv _ _ _ Ht) as [h0 Et]. destruct (w0 =? 32)%N eqn:Ew.
       + assert (Hc : (vt_w (pv_ty p) =? 32)%N && negb (vt_tok (pv_ty p)) = true)
-          by (rewrite Ht; cbn [vt_w vt_tok ty_int negb]; rewrite Ew; reflexivity).
-        rewrite Hc. apply N.eqb_eq in Ew. subst w0. exists p. split; [reflexivity|].
+          by (rewrite Et; cbn [vt_w vt_tok ty_h negb]; rewrite Ew; reflexivity).
+        rewrite Hc. apply N.eqb_eq in Ew. subst w0. exists p. split; [reflexivity|]. split; [exact (goodpv_tmps p Hg)|].
         intros ms v Hs. destruct (sem_int rw R rem ms p v s0 32 Ht Hs) as [z [-> [Hz He]]].
-        exists z. split; [exact Hz|]. split; [exact He|]. rewrite Ht. cbn [cval_of vt_sg ty_int].
+        exists z. split; [exact Hz|]. split; [exact He|]. rewrite (cval_of_ity _ s0 32 z Ht).
         unfold conv, mkval, vint. cbn [fst snd]. rewrite wrap_interp. apply wrap_small. exact Hz.
       + assert (Hc : (vt_w (pv_ty p) =? 32)%N && negb (vt_tok (pv_ty p)) = false)
-          by (rewrite Ht; cbn [vt_w vt_tok ty_int negb]; rewrite Ew; reflexivity).
+          by (rewrite Et; cbn [vt_w vt_tok ty_h negb]; rewrite Ew; reflexivity).
         rewrite Hc. exact Hcast.
   Qed.
 
@@ -2075,7 +2417,7 @@ Section StmtCorrect.
     srel IM E D V (mkcs (cs_vars cs) (cs_regw cs) (cs_mem cs) (Some z) (cs_ret cs) (cs_events cs))
            (set_local (set_local ms "jump_flag" (VB true)) "jump_target" (VBv 32 z)).
   Proof.
-    intros [[R1 [R2 [R3 [R4 [R5 R6]]]]] [H2 [H3 [H4 [H5 [H6 [H7 [H8 H9]]]]]]]] Hz. split; [|split].
+    intros [[R1 [R2 [R3 [R4 [R5 R6]]]]] [H2 [H3 [H4 [H5 [H6 [H7 [H8 [H9 H10]]]]]]]]] Hz. split; [|split].
     - unfold rel. cbn [cs_vars cs_regw locals rnew rold rnew0 imms set_local]. split; [|auto 10].
       intros y sg w Hy Hw. cbn [lookup]. apply H9 in Hy as HyD.
       destruct (String.eqb_spec y "jump_target") as [->|_]; [rewrite H5 in HyD by (right; left; reflexivity); discriminate HyD|].
@@ -2087,9 +2429,9 @@ Section StmtCorrect.
       exact (H2 y Hy Hyr).
     - cbn [cs_mem mem set_local cs_ret]. repeat (split; [assumption|]).
       split; [unfold jrel; cbn [cs_jump locals set_local]; repeat split; try reflexivity; apply Hz|].
-      split; [|split; [exact H8 | exact H9]].
+      split; [|split; [exact H8 | split; [exact H9 | apply htmp_ok_set_local; [reflexivity|]; apply htmp_ok_set_local; [reflexivity | exact H10]]]].
       intros l Hl. cbn [locals set_local lookup imms].
-      destruct (String.eqb_spec l "jump_target") as [->|_]; [rewrite (proj2 HIM) in Hl; discriminate Hl|].
+      destruct (String.eqb_spec l "jump_target") as [->|_]; [rewrite (proj1 (proj2 HIM)) in Hl; discriminate Hl|].
       destruct (String.eqb_spec l "jump_flag") as [->|_]; [rewrite (proj1 HIM) in Hl; discriminate Hl|].
       exact (H7 l Hl).
   Qed.
@@ -2098,18 +2440,17 @@ Section StmtCorrect.
   Proof.
     intros Hfrag st Hext Hok Hp.
     destruct (expr_sim_ext V D e st Hfrag Hext Hok) as [pv [st2 [L2 [X2 [Hok2 [G2 Hsem]]]]]].
-    assert (Hp2 : st_pending st2 = []) by (eapply st_ext_pending; eassumption).
-    destruct (jump_cast_ok pv st2 G2) as [ta [J1 J2]].
+    destruct (jump_cast_ok pv st2 G2) as [ta [J1 [Jt J2]]].
     exists [IEff (mkle (ESeq (ESetL "jump_flag" (PBool true)) (ESetL "jump_target" (rd ta))) (pv_tmps ta) false)], (touched st2).
     split.
     { rewrite lower_stmt_jump. unfold bind at 1. rewrite L2. unfold jump_tail. cbn [as_pure].
       unfold bind at 1. unfold ret at 1. unfold bind at 1. unfold need_numeric.
       rewrite (proj1 (goodpv_numeric pv G2)). unfold ret at 1. unfold bind at 1. rewrite J1.
-      unfold bind. rewrite touch_eq. rewrite ?hyb_nil by exact Hp2; rewrite chk_nil by exact Hp2. reflexivity. }
+      unfold bind. rewrite touch_eq. rewrite ?hyb_nil by (right; tm0); rewrite chk_nil by (right; tm0). reflexivity. }
     split; [|reflexivity].
     split; [apply lst_ok_touched; exact Hok2|].
     split; [eapply st_ext_trans; [exact X2 | apply st_ext_touched]|].
-    split; [repeat constructor|].
+    split; [pl0|].
     intros HR Hrem HJ cs ms fuel cs' Hrel Himm Hce.
     pose proof Hrel as [Hrel0 [_ [_ [Hret [Hres [Hj _]]]]]].
     (* the target is evaluated after jump_flag was set: it does not depend on it *)
@@ -2126,7 +2467,7 @@ Section StmtCorrect.
     assert (Hcs : mkcs (cs_vars cs) (cs_regw cs) (cs_mem cs) (Some z) (cs_ret cs) (cs_events cs) = cs') by congruence.
     rewrite <- Hcs.
     exists (set_local ms1 "jump_target" (VBv 32 z)).
-    split; [|split; [apply srel_jump; assumption | apply (imms_done_il_local IM E J cs _ ms1); [exact (proj2 HIM) | reflexivity | exact Himm1]]].
+    split; [|split; [apply srel_jump; assumption | apply (imms_done_il_local IM E J cs _ ms1); [exact (proj1 (proj2 HIM)) | reflexivity | exact Himm1]]].
     cbn [flat_map item_effects le_empty le_term app seqn fin_eff fin_pure].
     apply runs_seq. exists ms1. split.
     - apply runs_setl; [reflexivity|]. unfold jrel in Hj. destruct (cs_jump cs) as [t|].
@@ -2140,9 +2481,9 @@ Section StmtCorrect.
   Qed.
 
   (* ------------------------------------------------------------------ sequences and blocks *)
-  Lemma post_cex D V D' V' st st' items (cex cex' : nat -> cstate -> option cstate) :
+  Lemma post_cex D V D' V' nl st st' items (cex cex' : nat -> cstate -> option cstate) :
     (forall fuel cs cs', cex' fuel cs = Some cs' -> exists fuel', cex fuel' cs = Some cs') ->
-    post D V D' V' st st' items cex -> post D V D' V' st st' items cex'.
+    post D V D' V' nl st st' items cex -> post D V D' V' nl st st' items cex'.
   Proof.
     intros Hc [H1 [H2 [H3 H6]]]. repeat (split; [assumption|]).
     intros HR Hrem HJ cs ms fuel cs' Hrel Himm Hce. destruct (Hc fuel cs cs' Hce) as [fuel' Hce'].
@@ -2161,14 +2502,19 @@ Section StmtCorrect.
   Lemma ssinv_cons D V s D1 V1 l D2 V2 : (vext V D -> vext V1 D1) ->
     SInv D V s D1 V1 -> SsInv D1 V1 l D2 V2 -> SsInv D V (SCons s l) D2 V2.
   Proof.
-    intros Hv1 IH1 IH2 st Hext Hok Hp.
-    destruct (IH1 st Hext Hok Hp) as [a [st1 [L1 [[Hok1 [X1 [Pl1 S1]]] N1]]]].
-    assert (P1 : st_pending st1 = []) by (eapply st_ext_pending; eassumption).
+    intros Hv1 IH1 IH2 st Hext Hok Hp. cbn [noloops] in *.
+    assert (Hp0 : st_pending st = [] \/ noloop s = true).
+    { destruct Hp as [Hp | Hp]; [left; exact Hp | right; apply andb_prop in Hp; tauto]. }
+    destruct (IH1 st Hext Hok Hp0) as [a [st1 [L1 [[Hok1 [X1 [Pl1 S1]]] N1]]]].
+    assert (P1 : st_pending st1 = [] \/ noloops l = true).
+    { destruct Hp as [Hp | Hp]; [left; eapply st_ext_pending; eassumption | right; apply andb_prop in Hp; tauto]. }
     destruct (IH2 st1 (Hv1 Hext) Hok1 P1) as [b [st2 [L2 [[Hok2 [X2 [Pl2 S2]]] N2]]]].
     exists (a ++ b), st2.
     split. { rewrite lower_stmts_cons. unfold bind. rewrite L1, L2. reflexivity. }
     split.
-    { split; [exact Hok2|]. split; [eapply st_ext_trans; eauto|]. split; [apply Forall_app; auto|].
+    { split; [exact Hok2|]. split; [eapply st_ext_trans; eauto|].
+      split; [apply Forall_app; split; [eapply pitem_weaken; [|exact Pl1] | eapply pitem_weaken; [|exact Pl2]];
+              intros Hn; apply andb_prop in Hn; tauto|].
       intros HR Hrem HJ cs ms fuel cs' Hrel Himm Hce.
       destruct fuel as [|k]; [rewrite cexecs_0 in Hce; discriminate Hce|]. rewrite cexecs_cons in Hce.
       destruct (cexec E csub xi k cs s) as [cs1|] eqn:Ec1; [|discriminate Hce].
@@ -2185,10 +2531,10 @@ Section StmtCorrect.
   Proof.
     destruct l as [|s t].
     - intros H _. inversion H; subst. apply sinv_block_nil.
-    - intros _ IH st Hext Hok Hp. destruct (IH st Hext Hok Hp) as [items [st' [L [Post N]]]].
+    - intros _ IH st Hext Hok Hp. rewrite noloop_block in *. destruct (IH st Hext Hok Hp) as [items [st' [L [Post N]]]].
       exists items, st'. split; [rewrite lower_stmt_block_cons; exact L|].
       split; [|intros Hst; apply N; [exact Hst | discriminate]].
-      assert (Hpost : post D V D' V' st st' items (fun fuel cs => match cs_ret cs with Some _ => None | None => cexec E csub xi fuel cs (SBlock (SCons s t)) end)).
+      assert (Hpost : post D V D' V' (noloops (SCons s t)) st st' items (fun fuel cs => match cs_ret cs with Some _ => None | None => cexec E csub xi fuel cs (SBlock (SCons s t)) end)).
       { eapply post_cex; [|exact Post]. intros fuel cs cs' H. cbv beta in H.
         destruct (cs_ret cs) eqn:Hret; [discriminate H|].
         destruct fuel as [|k]; [rewrite cexec_0 in H; discriminate H|]. rewrite cexec_block in H by exact Hret. eauto. }
@@ -2200,10 +2546,30 @@ Section StmtCorrect.
   (* ------------------------------------------------------------------ if (c) t   and   if (c) t else f *)
   Lemma mk_sequence_term items : le_term (fst (mk_sequence items)) = seqn (flat_map item_effects items).
   Proof. reflexivity. Qed.
+  Lemma mk_sequence_notree items : Forall plain_item items -> snd (mk_sequence items) = false.
+  Proof.
+    intros H. unfold mk_sequence. cbn [snd]. induction H as [|i l Hi _ IH]; [reflexivity|].
+    cbn [existsb]. rewrite IH. destruct i; try contradiction Hi; reflexivity.
+  Qed.
+  Lemma mk_sequence_tmps items : Forall (pitem true) items -> le_tmps (fst (mk_sequence items)) = [].
+  Proof.
+    intros H. unfold mk_sequence. cbn [fst le_tmps]. induction H as [|i l [Hi Ht] _ IH]; [reflexivity|].
+    cbn [flat_map]. apply app_eq_nil in IH. destruct IH as [IH1 IH2]. rewrite IH1, IH2.
+    specialize (Ht eq_refl). destruct i; try contradiction Hi; cbn [item_tmps] in Ht; cbn [app];
+      rewrite ?Ht; destruct (le_empty e); reflexivity.
+  Qed.
+  (* the sequence of a statement's items passes chk_hybrid_dep unchanged: nothing is pending, or (in a loop body) the
+     items mention no temporary *)
+  Lemma chk_seq nl items st : Forall (pitem nl) items -> st_pending st = [] \/ nl = true ->
+    chk_hybrid_dep (fst (mk_sequence items)) false (snd (mk_sequence items)) st = OK (fst (mk_sequence items), st).
+  Proof.
+    intros H Hp. rewrite (mk_sequence_notree items (pitem_plain nl items H)). apply chk_nil.
+    destruct Hp as [Hp | ->]; [left; exact Hp | right; apply mk_sequence_tmps; exact H].
+  Qed.
 
   (* the condition: lowered by ExprCorrect, evaluated on both sides *)
   Lemma cond_sim D V c st : pfrag rw IM V c -> vext V D -> lst_ok IM D st ->
-    exists pc st1, lower_expr cfg c st = OK (IPure pc, st1) /\ st_ext st st1 /\ lst_ok IM D st1 /\
+    exists pc st1, lower_expr cfg c st = OK (IPure pc, st1) /\ st_ext st st1 /\ lst_ok IM D st1 /\ pv_tmps pc = [] /\
       forall st3, st_ext st1 st3 -> regs_le (st_regs st3) R -> norem rem -> incl (st_imms st3) J ->
       forall cs ms, rel IM E V cs ms -> imms_done IM E J cs ms ->
         exists b, eval rw ms [] (fin_pure R rem (cond_of cfg pc)) = Some (VB b) /\
@@ -2211,29 +2577,36 @@ Section StmtCorrect.
   Proof.
     intros Hfrag Hext Hok.
     destruct (expr_sim_ext V D c st Hfrag Hext Hok) as [pc [st1 [L1 [X1 [Hok1 [G1 Hsem]]]]]].
-    exists pc, st1. split; [exact L1|]. split; [exact X1|]. split; [exact Hok1|].
+    exists pc, st1. split; [exact L1|]. split; [exact X1|]. split; [exact Hok1|]. split; [exact (goodpv_tmps pc G1)|].
     intros st3 X3 HR Hrem HJ cs ms Hrel Himm. destruct (Hsem st3 X3 HR Hrem HJ cs ms Hrel Himm) as [ilv [Sv Hcv]].
     exists (truth (cval_of (pv_ty pc) ilv)). split; [apply cond_ok; assumption|].
     intros k s1 vc Hce. destruct (Hcv k s1 vc Hce) as [-> ->]. split; reflexivity.
   Qed.
 
+  Lemma pend_ext nl st st' : st_ext st st' -> st_pending st = [] \/ nl = true -> st_pending st' = [] \/ nl = true.
+  Proof. intros X [H | H]; [left; eapply st_ext_pending; eassumption | right; exact H]. Qed.
+
   Lemma sinv_if D V c t : pfrag rw IM V c -> SInv D V t D V -> SInv D V (SIf c t None) D V.
   Proof.
-    intros Hc IHt st Hext Hok Hp.
-    destruct (cond_sim D V c st Hc Hext Hok) as [pc [st1 [L1 [X1 [Hok1 Hcond]]]]].
-    assert (Hp1 : st_pending st1 = []) by (eapply st_ext_pending; eassumption).
+    intros Hc IHt st Hext Hok Hp. cbn [noloop] in *. rewrite andb_true_r in *.
+    destruct (cond_sim D V c st Hc Hext Hok) as [pc [st1 [L1 [X1 [Hok1 [Tc Hcond]]]]]].
+    assert (Hp1 := pend_ext _ _ _ X1 Hp).
     destruct (IHt st1 Hext Hok1 Hp1) as [it [st2 [L2 [[Hok2 [X2 [Pl2 S2]]] N2]]]].
-    assert (Hp2 : st_pending st2 = []) by (eapply st_ext_pending; eassumption).
-    destruct (mk_sequence it) as [tseq ttree] eqn:Emk.
+    assert (Hp2 : st_pending (touched st2) = [] \/ noloop t = true) by exact (pend_ext _ _ _ X2 Hp1).
+    pose proof (chk_seq _ it (touched st2) Pl2 Hp2) as Hchk.
+    destruct (mk_sequence it) as [tseq ttree] eqn:Emk. cbn [fst snd] in Hchk.
     assert (Ht : le_term tseq = seqn (flat_map item_effects it)) by (rewrite <- mk_sequence_term, Emk; reflexivity).
+    assert (Htm : noloop t = true -> le_tmps tseq = []).
+    { intros Hn. rewrite Hn in Pl2. pose proof (mk_sequence_tmps it Pl2) as H. rewrite Emk in H. exact H. }
     exists [IEff (mkle (EBranch (cond_of cfg pc) (le_term tseq) EEmpty) (item_tmps (IPure pc) ++ le_tmps tseq) false)], (touched st2).
     split.
     { rewrite lower_stmt_if. unfold bind. rewrite L1, L2. unfold if_tail. rewrite Emk. unfold bind. rewrite touch_eq.
-      rewrite ?hyb_nil by exact Hp2; rewrite chk_nil by exact Hp2. unfold ret. rewrite ?hyb_nil by exact Hp2; rewrite chk_nil by exact Hp2. reflexivity. }
+      rewrite Hchk. unfold ret. rewrite chk_nil; [reflexivity|].
+      destruct Hp2 as [Hp2 | Hp2]; [left; exact Hp2 | right; cbn [le_tmps item_tmps]; rewrite Tc, (Htm Hp2); reflexivity]. }
     split; [|reflexivity].
     split; [apply lst_ok_touched; exact Hok2|].
     split; [eapply st_ext_trans; [exact X1|]; eapply st_ext_trans; [exact X2 | apply st_ext_touched]|].
-    split; [repeat constructor|].
+    split; [repeat constructor; intros Hn; cbn [le_tmps item_tmps]; rewrite Tc, (Htm Hn); reflexivity|].
     intros HR Hrem HJ cs ms fuel cs' Hrel Himm Hce.
     destruct (Hcond (touched st2) (st_ext_trans _ _ _ X2 (st_ext_touched st2)) HR Hrem HJ cs ms (proj1 Hrel) Himm) as [b [Ec Hcb]].
     destruct fuel as [|k]; [rewrite cexec_0 in Hce; discriminate Hce|].
@@ -2251,28 +2624,45 @@ Section StmtCorrect.
 
   Lemma sinv_ifelse D V c t f V1 : pfrag rw IM V c -> SInv D V t D V1 -> SInv D V f D V1 -> SInv D V (SIf c t (Some f)) D V1.
   Proof.
-    intros Hc IHt IHf st Hext Hok Hp.
-    destruct (cond_sim D V c st Hc Hext Hok) as [pc [st1 [L1 [X1 [Hok1 Hcond]]]]].
-    assert (Hp1 : st_pending st1 = []) by (eapply st_ext_pending; eassumption).
+    intros Hc IHt IHf st Hext Hok Hp. cbn [noloop] in *.
+    assert (Hpt : st_pending st = [] \/ noloop t = true).
+    { destruct Hp as [Hp | Hp]; [left; exact Hp | right; apply andb_prop in Hp; tauto]. }
+    assert (Hnf : noloop t && noloop f = true -> noloop t = true /\ noloop f = true) by (intros Hn; apply andb_prop in Hn; exact Hn).
+    destruct (cond_sim D V c st Hc Hext Hok) as [pc [st1 [L1 [X1 [Hok1 [Tc Hcond]]]]]].
+    assert (Hp1 := pend_ext _ _ _ X1 Hpt).
     destruct (IHt st1 Hext Hok1 Hp1) as [it [st2 [L2 [[Hok2 [X2 [Pl2 S2]]] N2]]]].
-    assert (Hp2 : st_pending st2 = []) by (eapply st_ext_pending; eassumption).
-    destruct (IHf (touched st2) Hext (lst_ok_touched _ _ Hok2) Hp2) as [ie [st3 [L3 [[Hok3 [X3 [Pl3 S3]]] N3]]]].
-    assert (Hp3 : st_pending st3 = []) by (eapply st_ext_pending; [exact X3 | exact Hp2]).
+    assert (Hp2 : st_pending (touched st2) = [] \/ noloop t = true) by exact (pend_ext _ _ _ X2 Hp1).
+    assert (Hpf : st_pending (touched st2) = [] \/ noloop f = true).
+    { destruct Hp as [Hp | Hp]; [left | right; apply andb_prop in Hp; tauto].
+      change (st_pending st2 = []). eapply st_ext_pending; [exact X2|]. eapply st_ext_pending; [exact X1 | exact Hp]. }
+    destruct (IHf (touched st2) Hext (lst_ok_touched _ _ Hok2) Hpf) as [ie [st3 [L3 [[Hok3 [X3 [Pl3 S3]]] N3]]]].
+    assert (Hp3 : st_pending st3 = [] \/ noloop f = true) by exact (pend_ext _ _ _ X3 Hpf).
     assert (X23 : st_ext st2 st3) by (eapply st_ext_trans; [apply st_ext_touched | exact X3]).
-    destruct (mk_sequence it) as [tseq ttree] eqn:Emk.
+    pose proof (chk_seq _ it (touched st2) Pl2 Hp2) as Hchk.
+    pose proof (chk_seq _ ie st3 Pl3 Hp3) as Hchke.
+    destruct (mk_sequence it) as [tseq ttree] eqn:Emk. cbn [fst snd] in Hchk.
     assert (Ht : le_term tseq = seqn (flat_map item_effects it)) by (rewrite <- mk_sequence_term, Emk; reflexivity).
-    destruct (mk_sequence ie) as [eseq etree] eqn:Emke.
+    destruct (mk_sequence ie) as [eseq etree] eqn:Emke. cbn [fst snd] in Hchke.
     assert (He : le_term eseq = seqn (flat_map item_effects ie)) by (rewrite <- mk_sequence_term, Emke; reflexivity).
+    assert (Htm : noloop t = true -> le_tmps tseq = []).
+    { intros Hn. rewrite Hn in Pl2. pose proof (mk_sequence_tmps it Pl2) as H. rewrite Emk in H. exact H. }
+    assert (Hem : noloop f = true -> le_tmps eseq = []).
+    { intros Hn. rewrite Hn in Pl3. pose proof (mk_sequence_tmps ie Pl3) as H. rewrite Emke in H. exact H. }
+    assert (Hbr : st_pending st3 = [] \/ item_tmps (IPure pc) ++ le_tmps tseq ++ le_tmps eseq = []).
+    { destruct Hp as [Hp | Hp].
+      - left. eapply st_ext_pending; [exact X3|]. change (st_pending st2 = []).
+        eapply st_ext_pending; [exact X2|]. eapply st_ext_pending; [exact X1 | exact Hp].
+      - right. destruct (Hnf Hp) as [Hn1 Hn2]. cbn [item_tmps]. rewrite Tc, (Htm Hn1), (Hem Hn2). reflexivity. }
     exists [IEff (mkle (EBranch (cond_of cfg pc) (le_term tseq) (le_term eseq))
                        (item_tmps (IPure pc) ++ le_tmps tseq ++ le_tmps eseq) false)], st3.
     split.
     { rewrite lower_stmt_if. unfold bind. rewrite L1, L2. unfold if_tail. rewrite Emk. unfold bind. rewrite touch_eq.
-      rewrite ?hyb_nil by exact Hp2; rewrite chk_nil by exact Hp2. rewrite L3. rewrite Emke. unfold bind, ret.
-      rewrite ?hyb_nil by exact Hp3; rewrite chk_nil by exact Hp3. rewrite ?hyb_nil by exact Hp3; rewrite chk_nil by exact Hp3. reflexivity. }
+      rewrite Hchk. rewrite L3. rewrite Emke. unfold bind, ret.
+      rewrite Hchke. rewrite chk_nil; [reflexivity | exact Hbr]. }
     split; [|intros _; eapply st_ext_nonempty; [exact X3 | reflexivity]].
     split; [exact Hok3|].
     split; [eapply st_ext_trans; [exact X1|]; eapply st_ext_trans; [exact X2 | exact X23]|].
-    split; [repeat constructor|].
+    split; [repeat constructor; intros Hn; destruct (Hnf Hn) as [Hn1 Hn2]; cbn [le_tmps item_tmps]; rewrite Tc, (Htm Hn1), (Hem Hn2); reflexivity|].
     intros HR Hrem HJ cs ms fuel cs' Hrel Himm Hce.
     destruct (Hcond st3 (st_ext_trans _ _ _ X2 X23) HR Hrem HJ cs ms (proj1 Hrel) Himm) as [b [Ec Hcb]].
     destruct fuel as [|k]; [rewrite cexec_0 in Hce; discriminate Hce|].
@@ -2290,6 +2680,334 @@ Section StmtCorrect.
       split; [exact Ec | rewrite He; exact Run].
   Qed.
 
+  (* ------------------------------------------------------------------ for (init; c; i++) body *)
+  (* Lower.set_var on the variable table *)
+  Definition vars_set (x : string) (t : option vtype) (vars : list (string * option vtype)) : list (string * option vtype) :=
+    if existsb (fun p => String.eqb (fst p) x) vars
+    then map (fun p => if String.eqb (fst p) x then (x, t) else p) vars
+    else vars ++ [(x, t)].
+  Lemma set_var_eq x t st :
+    set_var x t st = OK (tt, mkst (vars_set x t (st_vars st)) (st_regs st) (st_pending st) (st_hcount st) (st_imms st) true (st_removed st)).
+  Proof. reflexivity. Qed.
+  Lemma lookup_vars_set x t vars y : lookup y (vars_set x t vars) = if String.eqb y x then Some t else lookup y vars.
+  Proof.
+    unfold vars_set. destruct (existsb (fun p => String.eqb (fst p) x) vars) eqn:Ee.
+    - induction vars as [|[k v] r IH]; [discriminate Ee|]. cbn [existsb fst] in Ee. cbn [map fst lookup].
+      destruct (String.eqb_spec k x) as [->|Hk].
+      + cbn [lookup]. destruct (String.eqb_spec y x) as [_|Hy]; [reflexivity|].
+        clear IH Ee. induction r as [|[k2 v2] r2 IH2]; [reflexivity|]. cbn [map fst lookup].
+        destruct (String.eqb_spec k2 x) as [->|Hk2]; cbn [lookup].
+        * destruct (String.eqb_spec y x); [contradiction | exact IH2].
+        * destruct (String.eqb y k2); [reflexivity | exact IH2].
+      + cbn [orb] in Ee. cbn [lookup]. destruct (String.eqb_spec y k) as [->|Hyk].
+        * destruct (String.eqb_spec k x); [contradiction | reflexivity].
+        * exact (IH Ee).
+    - rewrite lookup_app. cbn [lookup].
+      assert (Hn : lookup x vars = None).
+      { clear t. induction vars as [|[k v] r IH]; [reflexivity|]. cbn [existsb fst] in Ee. apply orb_false_elim in Ee.
+        destruct Ee as [E1 E2]. cbn [lookup]. rewrite String.eqb_sym, E1. exact (IH E2). }
+      destruct (String.eqb_spec y x) as [->|_]; [rewrite Hn; reflexivity | destruct (lookup y vars); reflexivity].
+  Qed.
+
+  (* the name of the next temporary is one of the reserved names h_tmp<n> *)
+  Definition htmp_name (st : lstate) : string := "h_tmp" +++ string_of_N (st_hcount st).
+  Lemma htmp_name_is st : is_htmp (htmp_name st) = true.
+  Proof. unfold is_htmp, htmp_name. generalize (string_of_N (st_hcount st)). intros s. cbn [String.append substring]. destruct s; reflexivity. Qed.
+
+  (* the pending entry of i++ / i-- on the local i *)
+  Definition step_entry (name : string) (inc : bool) (i : string) : pend :=
+    mkpend name [] (ESetL i (PIncDec inc (PVarL i) 32)) (ESetL name (PVarL i)) false [name].
+  Definition step_state (st : lstate) (inc : bool) (i : string) (sg : bool) : lstate :=
+    mkst (vars_set (htmp_name st) (Some (ty_h true sg 32)) (vars_set i (Some (ty_h true sg 32)) (st_vars st)))
+         (st_regs st) [step_entry (htmp_name st) inc i] (st_hcount st + 1) (st_imms st) true (st_removed st).
+  Lemma lower_expr_post inc a :
+    lower_expr cfg (EPost inc a) =
+    (do ia <- lower_expr cfg a;
+     do p <- as_pure "postfix" ia;
+     do _ <- need_numeric (pv_ty p);
+     match pv_kind p with
+     | KReg n =>
+         do s0 <- get;
+         do _ <- (match lookup_reg_info n (st_regs s0) with
+                  | Some ri => put (mkst (st_vars s0) (update_reg_info n (mkreg (r_op ri) (set_hybrid_vt (r_ty ri)) (r_acc ri) (r_x ri) (r_pc ri) (r_new ri)) (st_regs s0))
+                                         (st_pending s0) (st_hcount s0) (st_imms s0) (st_nonempty s0) (st_removed s0))
+                  | None => ret tt end);
+         resolve_hybrid (pv_ty p) (rd p) (EWriteReg (RParam ("$reg:" +++ n)) (PIncDec inc (rd p) (vt_w (pv_ty p)))) false false (pv_tmps p) false
+     | KVar n | KTmp n _ =>
+         do s0 <- get;
+         do _ <- (match lookup n (st_vars s0) with
+                  | Some (Some t) => set_var n (Some (set_hybrid_vt t))
+                  | _ => ret tt end);
+         resolve_hybrid (pv_ty p) (rd p) (ESetL n (PIncDec inc (rd p) (vt_w (pv_ty p)))) false false (pv_tmps p) false
+     | _ => fail "No scope letter given"
+     end).
+  Proof. reflexivity. Qed.
+
+  Lemma lower_step_ok inc i st h sg : lookup i (st_vars st) = Some (Some (ty_h h sg 32)) -> is_htmp i = false ->
+    st_pending st = [] ->
+    lower_expr cfg (EPost inc (EOp (OIdent i))) st =
+    OK (IPure (mkpv (PVarL (htmp_name st)) (ty_h true sg 32) (KTmp (htmp_name st) false) [htmp_name st]), step_state st inc i sg).
+  Proof.
+    intros Hi Hh Hp. rewrite lower_expr_post, lower_expr_op. cbn [lower_operand cfg_params lookup].
+    unfold bind at 1. unfold bind at 1. unfold get at 1. rewrite Hi. unfold ret at 1.
+    unfold is_htmp in Hh. rewrite Hh.
+    unfold bind at 1. cbn [as_pure]. unfold ret at 1.
+    unfold bind at 1. cbn [pv_ty need_numeric is_numeric ty_h vt_void vt_ext negb andb]. unfold ret at 1.
+    cbn [pv_kind]. unfold bind at 1. unfold get at 1. unfold bind at 1. rewrite Hi. rewrite set_var_eq.
+    unfold resolve_hybrid. cbn [ty_h vt_void]. unfold bind at 1. unfold get at 1.
+    unfold bind at 1. unfold put at 1. unfold bind at 1. rewrite set_var_eq.
+    unfold bind at 1. unfold get at 1. cbn [st_pending st_vars st_regs st_hcount st_imms st_removed]. rewrite Hp.
+    unfold bind at 1. unfold ret at 1. cbn [collect_deps pop_pending app flat_map map].
+    unfold bind at 1. unfold put at 1. unfold ret. cbn [rd pv_term pv_tmps pv_ty vt_w ty_h set_hybrid_vt vt_sg vt_bool vt_void vt_ext vt_float vt_const vt_tok].
+    reflexivity.
+  Qed.
+
+  Lemma lst_ok_step V st inc i sg h : lst_ok IM V st -> lookup i (st_vars st) = Some (Some (ty_h h sg 32)) ->
+    IM i = false -> is_htmp i = false -> lst_ok IM V (step_state st inc i sg).
+  Proof.
+    intros [H1 [H2 [H3 [H4 H5]]]] Hi Him Hih. pose proof (htmp_name_is st) as Hn.
+    assert (Hnm : IM (htmp_name st) = false) by exact (proj2 (proj2 HIM) _ Hn).
+    unfold lst_ok, step_state. cbn [st_vars st_imms st_regs].
+    split; [|split; [exact H2|split; [|split; [|exact H5]]]].
+    - intros x Hx Hxh. rewrite !lookup_vars_set.
+      destruct (String.eqb_spec x (htmp_name st)) as [->|_]; [congruence|].
+      destruct (String.eqb_spec x i) as [->|_]; [|exact (H1 x Hx Hxh)].
+      rewrite <- (H1 i Him Hih), Hi. cbn [option_map unhyb_o]. destruct h; reflexivity.
+    - intros l Hl. rewrite !lookup_vars_set.
+      destruct (String.eqb_spec l (htmp_name st)) as [->|_]; [congruence|].
+      destruct (String.eqb_spec l i) as [->|_]; [congruence|]. exact (H3 l Hl).
+    - eapply Forall_impl; [|exact H4]. intros e [l [Hl [He Hlk]]]. exists l. split; [exact Hl|]. split; [exact He|].
+      rewrite !lookup_vars_set.
+      destruct (String.eqb_spec l (htmp_name st)) as [->|_]; [congruence|].
+      destruct (String.eqb_spec l i) as [->|_]; [congruence|]. exact Hlk.
+  Qed.
+
+  (* what the compiler sequences as the loop's compound: the body's effects; its leaves are the temporary of the step *)
+  Lemma mk_sequence_loop ib hp : Forall (pitem true) ib ->
+    mk_sequence (ib ++ [IPure hp]) =
+    (mkle (seqn (flat_map item_effects ib)) (pv_tmps hp) (match flat_map item_effects ib with [] => true | _ => false end), false).
+  Proof.
+    intros H. unfold mk_sequence.
+    assert (E1 : flat_map (fun i => match i with IEff e | IVoid e | IAsg e _ => if le_empty e then [] else [le_term e] | _ => [] end) (ib ++ [IPure hp])
+                 = flat_map item_effects ib).
+    { rewrite flat_map_app. cbn [flat_map]. rewrite app_nil_r. reflexivity. }
+    assert (E2 : flat_map (fun i => match i with IEff _ | IVoid _ | IAsg _ _ => [] | _ => item_tmps i end) (ib ++ [IPure hp]) = pv_tmps hp).
+    { rewrite flat_map_app. cbn [flat_map item_tmps]. rewrite app_nil_r.
+      assert (E0 : flat_map (fun i => match i with IEff _ | IVoid _ | IAsg _ _ => [] | _ => item_tmps i end) ib = []).
+      { clear E1. induction H as [|i l [Hi _] _ IH]; [reflexivity|]. cbn [flat_map]. rewrite IH. destruct i; try contradiction Hi; reflexivity. }
+      rewrite E0. reflexivity. }
+    assert (E3 : flat_map (fun i => match i with IEff e | IVoid e | IAsg e _ => if le_empty e then [] else le_tmps e | _ => [] end) (ib ++ [IPure hp]) = []).
+    { rewrite flat_map_app. cbn [flat_map]. rewrite app_nil_r. clear E1 E2.
+      induction H as [|i l [Hi Ht] _ IH]; [reflexivity|]. cbn [flat_map]. rewrite IH. specialize (Ht eq_refl).
+      destruct i; try contradiction Hi; cbn [item_tmps] in Ht; rewrite ?Ht; destruct (le_empty e); reflexivity. }
+    assert (E4 : existsb (fun i => match i with ITree _ => true | _ => false end) (ib ++ [IPure hp]) = false).
+    { rewrite existsb_app. cbn [existsb]. rewrite !orb_false_r.
+      clear E1 E2 E3. induction H as [|i l [Hi _] _ IH]; [reflexivity|]. cbn [existsb]. rewrite IH. destruct i; try contradiction Hi; reflexivity. }
+    rewrite E1, E2, E3, E4, app_nil_r. reflexivity.
+  Qed.
+
+  (* CSem's loop of a for statement (the local fixpoint of CSem.cexec), and its unfolding *)
+  Fixpoint cloop (k : nat) (ce step : cexpr) (b : cstmt) (n : nat) (s : cstate) : option cstate :=
+    match n with O => None | S n' =>
+      match cs_ret s with Some _ => Some s | None =>
+        match ceval E csub xi k s ce with
+        | Some (s1, vc) =>
+            if snd vc =? 0 then Some s1
+            else match cexec E csub xi k s1 b with
+                 | Some s2 => match cs_ret s2 with
+                              | Some _ => Some s2
+                              | None => match ceval E csub xi k s2 step with Some (s3, _) => cloop k ce step b n' s3 | None => None end
+                              end
+                 | None => None end
+        | None => None end end end.
+  Lemma cexec_for k s i ce step b : cs_ret s = None ->
+    cexec E csub xi (S k) s (SFor i (SExpr ce) (Some step) b) =
+    match cexec E csub xi k s i with Some s1 => cloop k ce step b k s1 | None => None end.
+  Proof.
+    intros H. cbn [cexec]. rewrite H. destruct (cexec E csub xi k s i) as [s1|]; [|reflexivity].
+    match goal with |- ?f0 k s1 = _ => set (f := f0) end.
+    assert (Hstep : forall n s0, f (S n) s0 =
+              match cs_ret s0 with Some _ => Some s0 | None =>
+                match ceval E csub xi k s0 ce with
+                | Some (s1, vc) =>
+                    if snd vc =? 0 then Some s1
+                    else match cexec E csub xi k s1 b with
+                         | Some s2 => match cs_ret s2 with
+                                      | Some _ => Some s2
+                                      | None => match ceval E csub xi k s2 step with Some (s3, _) => f n s3 | None => None end
+                                      end
+                         | None => None end
+                | None => None end end) by (intros; reflexivity).
+    assert (Hf : forall n s0, f n s0 = cloop k ce step b n s0).
+    { induction n as [|n IH]; intros s0; [reflexivity|]. rewrite Hstep. cbn [cloop].
+      destruct (cs_ret s0); [reflexivity|]. destruct (ceval E csub xi k s0 ce) as [[s2 vc]|]; [|reflexivity].
+      destruct (snd vc =? 0); [reflexivity|]. destruct (cexec E csub xi k s2 b) as [s3|]; [|reflexivity].
+      destruct (cs_ret s3); [reflexivity|]. destruct (ceval E csub xi k s3 step) as [[s4 v4]|]; [|reflexivity]. apply IH. }
+    apply Hf.
+  Qed.
+
+  (* i++ / i-- on a 32 bit local: C computes in the promoted type and converts back; the IL increments at 32 bits *)
+  Lemma incdec_value (inc sg : bool) v0 : 0 <= v0 < pow2 32 ->
+    conv (sg, 32%N) (c_arith (if inc then Z.add else Z.sub) ((sg, 32%N), v0) (mkval int_t 1)) =
+    ((sg, 32%N), wrap 32 (if inc then v0 + 1 else v0 - 1)).
+  Proof.
+    intros Hv.
+    assert (Hw32 : okw 32) by (right; right; left; reflexivity).
+    assert (Hwf : wfc (mkval int_t 1)) by (split; [exact Hw32 | vm_compute; split; [discriminate | reflexivity]]).
+    rewrite compound_value; [|exact Hw32 | exact Hwf | destruct inc; unfold ring_fun; auto].
+    assert (Ep : promote (sg, 32%N) = (sg, 32%N)) by (destruct sg; reflexivity). rewrite Ep. cbn [snd].
+    assert (E1 : conv (sg, 32%N) (conv (sg, 32%N) (mkval int_t 1)) = ((sg, 32%N), 1)) by (destruct sg; reflexivity).
+    rewrite E1. cbn [snd].
+    assert (E0 : conv (sg, 32%N) ((sg, 32%N), v0) = ((sg, 32%N), v0)).
+    { rewrite <- (wrap_small 32 v0) at 1 by exact Hv. rewrite conv_trunc; [|exact Hw32..|lia].
+      rewrite wrap_small by exact Hv. reflexivity. }
+    rewrite E0. cbn [snd]. rewrite conv_trunc; [|exact Hw32..|lia].
+    destruct inc; reflexivity.
+  Qed.
+
+  Definition for_tail (ii ic is_ ib : list item) : M (list item) :=
+    do init <- (match ii with [x] => ret x | _ => fail "for init" end);
+    do cnd <- (match ic with [IPure p] => ret p | _ => fail "for condition" end);
+    let '(comp, ctree) := mk_sequence (ib ++ is_) in
+    do _ <- touch;
+    do comp' <- chk_hybrid_dep comp true ctree;
+    let loop := mkle (ERepeat (cond_of cfg cnd) (le_term comp')) (pv_tmps cnd ++ le_tmps comp') false in
+    let '(sq, stree) := mk_sequence [init; IEff loop] in
+    do r <- chk_hybrid_dep sq false stree;
+    ret [IEff r].
+  Lemma lower_stmt_for i c st b :
+    lower_stmt cfg (SFor i c (Some st) b) =
+    (do ii <- lower_stmt cfg i; do ic <- lower_stmt cfg c; do is_ <- (do x <- lower_expr cfg st; ret [x]);
+     do ib <- lower_stmt cfg b; for_tail ii ic is_ ib).
+  Proof. reflexivity. Qed.
+
+  Lemma sinv_for D V e0 D1 V1 c inc i sg b :
+    (vext V D -> vext V1 D1) -> SInv D V (SExpr e0) D1 V1 -> pfrag rw IM V1 c -> lookup i V1 = Some (Some (ty_int sg 32)) ->
+    SInv D1 V1 b D1 V1 -> noloop b = true ->
+    SInv D V (SFor (SExpr e0) (SExpr c) (Some (EPost inc (EOp (OIdent i)))) b) D1 V1.
+  Proof.
+    intros Hv1 IHi Hc Hi IHb Hnl st Hext Hok Hp. cbn [noloop] in Hp. destruct Hp as [Hp | Hp]; [|discriminate Hp].
+    pose proof (Hv1 Hext) as Hext1.
+    (* the initialisation *)
+    destruct (IHi st Hext Hok (or_introl Hp)) as [ii [st1 [L1 [[Hok1 [X1 [Pl1 S1]]] N1]]]].
+    assert (Hsingle : exists x0, ii = [x0]).
+    { rewrite lower_stmt_expr in L1. unfold bind in L1. destruct (lower_expr cfg e0 st) as [[x0 s0]|]; [|discriminate L1].
+      injection L1 as <- _. eauto. }
+    destruct Hsingle as [x0 ->].
+    assert (Hp1 : st_pending st1 = []) by (eapply st_ext_pending; eassumption).
+    (* the condition *)
+    destruct (cond_sim D1 V1 c st1 Hc Hext1 Hok1) as [pc [st2 [L2 [X2 [Hok2 [Tc Hcond]]]]]].
+    assert (Hp2 : st_pending st2 = []) by (eapply st_ext_pending; eassumption).
+    (* the step *)
+    destruct (lst_ok_local IM D1 st2 i sg 32 Hok2 (Hext1 _ _ Hi)) as [Hii [Hih [ti [Hti Hity]]]].
+    destruct (ity_inv _ _ _ Hity) as [hi Eti]. rewrite Eti in Hti.
+    pose proof (lower_step_ok inc i st2 hi sg Hti Hih Hp2) as L3.
+    pose proof (lst_ok_step D1 st2 inc i sg hi Hok2 Hti Hii Hih) as Hok3.
+    pose proof (htmp_name_is st2) as Hname.
+    set (name := htmp_name st2) in *. set (st3 := step_state st2 inc i sg) in *.
+    set (hp := mkpv (PVarL name) (ty_h true sg 32) (KTmp name false) [name]) in *.
+    (* the body *)
+    destruct (IHb st3 Hext1 Hok3 (or_intror Hnl)) as [ib [st4 [L4 [[Hok4 [X4 [Pl4 S4]]] N4]]]]. rewrite Hnl in Pl4.
+    assert (Hp4 : st_pending st4 = [step_entry name inc i]) by (rewrite (proj1 X4); reflexivity).
+    set (st5 := mkst (st_vars st4) (st_regs st4) [] (st_hcount st4) (st_imms st4) true (st_removed st4)).
+    set (beff := seqn (flat_map item_effects ib)).
+    set (pe := ESeq (ESetL name (PVarL i)) (ESetL i (PIncDec inc (PVarL i) 32))).
+    set (loop := mkle (ERepeat (cond_of cfg pc) (ESeq beff pe)) (pv_tmps pc ++ [name; name]) false).
+    assert (Hpl : Forall (pitem false) [x0; IEff loop]).
+    { inversion Pl1 as [|? ? [Hx0 _] _]; subst. repeat constructor; try exact Hx0; intros Hf; discriminate Hf. }
+    pose proof (chk_seq false [x0; IEff loop] st5 Hpl (or_introl eq_refl)) as Hchk.
+    destruct (mk_sequence [x0; IEff loop]) as [sq stree] eqn:Emk. cbn [fst snd] in Hchk.
+    assert (Hsq : le_term sq = seqn (flat_map item_effects [x0; IEff loop])) by (rewrite <- mk_sequence_term, Emk; reflexivity).
+    assert (Hemp : le_empty sq = false).
+    { pose proof (f_equal (fun p => le_empty (fst p)) Emk) as Q. cbn [fst] in Q. rewrite <- Q. unfold mk_sequence.
+      cbn [fst le_empty flat_map loop].
+      match goal with |- match ?l ++ _ with _ => _ end = _ => destruct l; reflexivity end. }
+    exists [IEff sq], st5.
+    split.
+    { rewrite lower_stmt_for. unfold bind at 1. rewrite L1. unfold bind at 1. rewrite lower_stmt_expr. unfold bind at 1. rewrite L2.
+      unfold ret at 1. unfold bind at 1. unfold bind at 1. rewrite L3. unfold ret at 1. unfold bind at 1. rewrite L4.
+      unfold for_tail. unfold bind at 1. unfold ret at 1. unfold bind at 1. unfold ret at 1.
+      rewrite (mk_sequence_loop ib hp Pl4). unfold bind at 1. rewrite touch_eq.
+      unfold bind at 1. unfold chk_hybrid_dep at 1. unfold bind at 1. unfold get at 1.
+      cbn [touched st_pending st_vars st_regs st_hcount st_imms st_removed]. rewrite Hp4.
+      cbn [le_tmps hp pv_tmps collect_deps pop_pending step_entry pd_name]. rewrite String.eqb_refl.
+      unfold bind at 1. unfold put at 1. unfold ret at 1.
+      unfold step_entry, pend_effect. cbn [map pd_pre pd_exec_first pd_set pd_hyb app seqn le_term flat_map pd_tmps le_tmps].
+      fold beff. fold pe. fold loop. rewrite Emk. fold st5. unfold bind. rewrite Hchk. reflexivity. }
+    assert (L45 : st_hcount st4 = st_hcount st5 /\ st_imms st4 = st_imms st5 /\ st_removed st4 = st_removed st5 /\ st_regs st4 = st_regs st5)
+      by (repeat split; reflexivity).
+    assert (X35 : (st_hcount st3 <= st_hcount st5)%N /\ incl (st_imms st3) (st_imms st5) /\ st_removed st5 = st_removed st3 /\
+                  regs_le (st_regs st3) (st_regs st5)).
+    { destruct X4 as [_ [A2 [A3 [A4 [_ A6]]]]]. repeat split; assumption. }
+    assert (X25 : st_ext st2 st5).
+    { destruct X35 as [B2 [B3 [B4 B6]]]. unfold st_ext. split; [exact (eq_sym Hp2)|].
+      split; [eapply N.le_trans; [|exact B2]; unfold st3, step_state; cbn [st_hcount]; lia|].
+      split; [exact B3|]. split; [exact B4|]. split; [intros _; reflexivity | exact B6]. }
+    split; [|intros _; reflexivity].
+    split; [destruct Hok4 as [K1 [K2 [K3 [K4 K5]]]]; repeat split; assumption|].
+    split; [eapply st_ext_trans; [exact X1|]; eapply st_ext_trans; [exact X2 | exact X25]|].
+    split; [repeat constructor; intros Hf; discriminate Hf|].
+    intros HR Hrem HJ cs ms fuel cs' Hrel Himm Hce.
+    assert (HR4 : regs_le (st_regs st4) R) by exact HR.
+    assert (HJ4 : incl (st_imms st4) J) by exact HJ.
+    assert (HR1 : regs_le (st_regs st1) R) by (eapply regs_le_trans; [|exact HR]; eapply regs_le_trans; [exact (st_ext_regs _ _ X2) | exact (st_ext_regs _ _ X25)]).
+    assert (HJ1 : incl (st_imms st1) J) by (eapply incl_tran; [|exact HJ]; eapply incl_tran; [exact (st_ext_imms _ _ X2) | exact (st_ext_imms _ _ X25)]).
+    destruct fuel as [|k]; [rewrite cexec_0 in Hce; discriminate Hce|].
+    rewrite cexec_for in Hce by (apply (srel_ret _ _ _ _ _ _ Hrel)).
+    destruct (cexec E csub xi k cs (SExpr e0)) as [cs1|] eqn:Ec1; [|discriminate Hce].
+    destruct (S1 HR1 Hrem HJ1 cs ms k cs1 Hrel Himm Ec1) as [ms1 [Run1 [Rel1 Imm1]]].
+    (* the loop: by induction on the number of iterations CSem was given *)
+    assert (Hloop : forall n csa msa csb, srel IM E D1 V1 csa msa -> imms_done IM E J csa msa ->
+              cloop k c (EPost inc (EOp (OIdent i))) b n csa = Some csb ->
+              exists msb, runs rw ilsubs (fin_eff R rem (ERepeat (cond_of cfg pc) (ESeq beff pe))) msa msb /\
+                          srel IM E D1 V1 csb msb /\ imms_done IM E J csb msb).
+    { induction n as [|n IHn]; intros csa msa csb Rela Imma Hl; [discriminate Hl|].
+      cbn [cloop] in Hl. rewrite (srel_ret _ _ _ _ _ _ Rela) in Hl.
+      destruct (Hcond st5 X25 HR Hrem HJ csa msa (proj1 Rela) Imma) as [bb [Ecn Hcb]].
+      destruct (ceval E csub xi k csa c) as [[s1 vc]|] eqn:Ece; [|discriminate Hl].
+      destruct (Hcb k s1 vc Ece) as [-> Hb]. cbn [fin_eff].
+      destruct (snd vc =? 0) eqn:Ez; cbn [negb] in Hb; subst bb.
+      - injection Hl as <-. exists msa. split; [apply runs_repeat_false; exact Ecn | split; assumption].
+      - destruct (cexec E csub xi k csa b) as [cs2|] eqn:Eb; [|discriminate Hl].
+        destruct (S4 HR4 Hrem HJ4 csa msa k cs2 Rela Imma Eb) as [ms2 [Run2 [Rel2 Imm2]]].
+        rewrite (srel_ret _ _ _ _ _ _ Rel2) in Hl.
+        destruct (ceval E csub xi k cs2 (EPost inc (EOp (OIdent i)))) as [[cs3 v3]|] eqn:Es; [|discriminate Hl].
+        (* the step on both sides *)
+        destruct (proj1 (proj1 Rel2) i sg 32%N Hi (or_intror (or_intror (or_introl eq_refl)))) as [v0 [Hcx [Hv0 Hmx]]].
+        destruct k as [|k']; [rewrite ceval_0 in Es; discriminate Es|].
+        cbn [ceval operand_lval] in Es. rewrite Hcx in Es. cbn [read_lval] in Es. rewrite Hcx in Es.
+        unfold write_lval in Es. injection Es as Ecs3 _.
+        set (z := wrap 32 (if inc then v0 + 1 else v0 - 1)) in *.
+        assert (Ecs3' : cs3 = CSem.set_var cs2 i ((sg, 32%N), z)) by (rewrite <- Ecs3; f_equal; apply incdec_value; exact Hv0).
+        clear Ecs3. subst cs3.
+        set (msh := set_local ms2 name (VBv 32 v0)).
+        assert (Relh : srel IM E D1 V1 cs2 msh) by (apply srel_set_htmp; assumption).
+        assert (Immh : imms_done IM E J cs2 msh).
+        { apply (imms_done_il_local IM E J cs2 cs2 ms2); [exact (proj2 (proj2 HIM) _ Hname) | reflexivity | exact Imm2]. }
+        assert (Rel3 : srel IM E D1 V1 (CSem.set_var cs2 i ((sg, 32%N), z)) (set_local msh i (VBv 32 z))).
+        { apply srel_set_var; [exact Relh | exact Hi | apply wrap_range]. }
+        assert (Imm3 : imms_done IM E J (CSem.set_var cs2 i ((sg, 32%N), z)) (set_local msh i (VBv 32 z))).
+        { apply imms_done_set_local; [exact (srel_nr _ _ _ _ _ _ _ _ Rel2 Hi) | exact Immh]. }
+        destruct (IHn _ _ csb Rel3 Imm3 Hl) as [msb [Run3 [Relb Immb]]].
+        exists msb. split; [|split; assumption].
+        cbn [fin_eff] in Run3. eapply runs_repeat_true; [exact Ecn | | exact Run3].
+        apply runs_seq. exists ms2. split; [exact Run2|].
+        unfold pe. cbn [fin_eff fin_pure]. apply runs_seq. exists msh. split.
+        + apply runs_setl; [cbn [eval]; exact Hmx|].
+          destruct (proj2 (proj2 (proj2 (proj2 (proj2 (proj2 (proj2 (proj2 (proj2 Rel2)))))))) name Hname) as [Hn | [vn Hn]];
+            [left; exact Hn | right; exists (VBv 32 vn); split; [exact Hn | reflexivity]].
+        + assert (Hmx' : lookup i (locals msh) = Some (VBv 32 v0)).
+          { unfold msh. cbn [locals set_local lookup]. destruct (String.eqb_spec i name) as [Ein|_]; [|exact Hmx].
+            rewrite Ein in Hih. congruence. }
+          apply runs_setl; [cbn [eval]; rewrite Hmx'; rewrite N.eqb_refl; reflexivity|].
+          right. exists (VBv 32 v0). split; [exact Hmx' | reflexivity]. }
+    destruct (Hloop k cs1 ms1 cs' Rel1 Imm1 Hce) as [ms' [Run2 [Rel2 Imm2]]].
+    exists ms'. split; [|split; assumption].
+    cbn [flat_map item_effects app]. rewrite Hemp. cbn [app seqn]. rewrite Hsq.
+    change [x0; IEff loop] with ([x0] ++ [IEff loop]). rewrite flat_map_app, fin_eff_seqn, map_app. apply runs_seqn_app. exists ms1.
+    rewrite <- !fin_eff_seqn. split; [exact Run1|]. cbn [flat_map item_effects le_empty loop le_term app seqn]. exact Run2.
+  Qed.
+
   (* ------------------------------------------------------------------ the fragment satisfies the invariant *)
   Theorem stmt_inv :
     (forall D V s D' V', sfrag rw IM D V s D' V' -> SInv D V s D' V') /\
@@ -2298,6 +3016,7 @@ Section StmtCorrect.
     apply sfrag_mutind.
     - intros. apply (sinv_asg_reg D V cls letters acc e); assumption.
     - intros. apply sinv_asg_alias; assumption.
+    - intros. apply sinv_asg_expl; assumption.
     - intros. apply sinv_asg_imm; assumption.
     - intros. apply (sinv_asg_var D V x sg w e); assumption.
     - intros. apply sinv_asg_first; assumption.
@@ -2306,6 +3025,8 @@ Section StmtCorrect.
     - intros. apply (sinv_basg_var D V a x sg w e); assumption.
     - intros. apply (sinv_basg_reg D V a cls letters acc e); assumption.
     - intros. apply (sinv_casg_reg D V a cls letters acc e); assumption.
+    - intros. apply (sinv_sasg_var D V a x sg w e); assumption.
+    - intros. apply (sinv_sasg_reg D V a cls letters acc e); assumption.
     - intros. apply sinv_decl; assumption.
     - intros. apply sinv_decl0; assumption.
     - intros. apply sinv_empty.
@@ -2317,6 +3038,8 @@ Section StmtCorrect.
     - intros. apply sinv_block; assumption.
     - intros. apply sinv_if; assumption.
     - intros. apply sinv_ifelse; assumption.
+    - intros D V e0 D1 V1 c inc i sg b H0 IH0 Hc Hi Hb IHb Hnl. apply (sinv_for D V e0 D1 V1 c inc i sg b); try assumption.
+      exact (sfrag_vext rw IM D V _ D1 V1 H0).
     - intros. apply ssinv_nil.
     - intros D V s D1 V1 l D2 V2 Hs IHs Hl IHl. eapply ssinv_cons; [|exact IHs | exact IHl].
       exact (sfrag_vext rw IM D V s D1 V1 Hs).
@@ -2341,7 +3064,7 @@ Qed.
    finalised against ANY later register table R, run in a state in which ANY later immediate prologue J
    has been executed. *)
 Theorem stmt_correct : forall (cfg : config) (rw : regwidth) (IM : string -> bool) (ilsubs : subenv) (E : cenv) (csub : csubs) xi D V s D' V' st,
-  cfg_fx cfg = all_fixes -> cfg_params cfg = [] -> macs_std (cfg_macros cfg) -> subs_ext (cfg_subs cfg) -> csub_ext csub -> im_ok IM ->
+  cfg_fx cfg = all_fixes -> cfg_params cfg = [] -> macs_std (cfg_macros cfg) -> subs_ext (cfg_subs cfg) -> csub_ext csub -> xi_ok xi -> im_ok IM ->
   vext V D -> lst_ok IM D st -> st_pending st = [] ->
   sfrag rw IM D V s D' V' ->
   exists items st', lower_stmt cfg s st = OK (items, st') /\
@@ -2350,7 +3073,7 @@ Theorem stmt_correct : forall (cfg : config) (rw : regwidth) (IM : string -> boo
     forall cs ms fuel cs', srel IM E D V cs ms -> imms_done IM E J cs ms -> cexec E csub xi fuel cs s = Some cs' ->
       exists ms', runs rw ilsubs (fin_eff R rem (seqn (flat_map item_effects items))) ms ms' /\ srel IM E D' V' cs' ms' /\ imms_done IM E J cs' ms'.
 Proof.
-  intros cfg rw IM ilsubs E csub xi D V s D' V' st Hfx Hpar Hmacs Hssc Hcssc HIM Hext Hok Hp Hfrag.
+  intros cfg rw IM ilsubs E csub xi D V s D' V' st Hfx Hpar Hmacs Hssc Hcssc Hxi HIM Hext Hok Hp Hfrag.
   destruct cfg as [fx0 subs macs params cret hstart]. cbn in Hfx, Hpar, Hmacs, Hssc. subst fx0 params.
   destruct (exists_forall_swap3 (lower_stmt (mkcfg all_fixes subs macs [] cret hstart) s st)
               (fun R rem J items st' => lst_ok IM D' st' /\ st_ext st st' /\ Forall plain_item items /\
@@ -2359,8 +3082,9 @@ Proof.
                     exists ms', runs rw ilsubs (fin_eff R rem (seqn (flat_map item_effects items))) ms ms' /\ srel IM E D' V' cs' ms' /\ imms_done IM E J cs' ms'))
               (@nil (string * reginfo)) (@nil string) (@nil effect)) as [items [st' [L H]]].
   - intros R rem J.
-    destruct (proj1 (stmt_inv subs macs cret hstart Hmacs Hssc rw IM HIM R rem J ilsubs E csub Hcssc xi) D V s D' V' Hfrag st Hext Hok Hp)
+    destruct (proj1 (stmt_inv subs macs cret hstart Hmacs Hssc rw IM HIM R rem J ilsubs E csub Hcssc xi Hxi) D V s D' V' Hfrag st Hext Hok (or_introl Hp))
       as [items [st' [L [[H1 [H2 [H3 H6]]] _]]]].
+    apply pitem_plain in H3.
     exists items, st'. split; [exact L|]. repeat (split; [assumption|]). exact H6.
   - exists items, st'. split; [exact L|]. destruct (H [] [] []) as [H1 [H2 [H3 _]]]. repeat (split; [assumption|]).
     intros R rem J. apply (H R rem J).
@@ -2369,7 +3093,7 @@ Print Assumptions stmt_correct.
 
 (* Statement lists, function Lower.lower_stmts: sequences of any length *)
 Theorem stmts_correct : forall (cfg : config) (rw : regwidth) (IM : string -> bool) (ilsubs : subenv) (E : cenv) (csub : csubs) xi D V l D' V' st,
-  cfg_fx cfg = all_fixes -> cfg_params cfg = [] -> macs_std (cfg_macros cfg) -> subs_ext (cfg_subs cfg) -> csub_ext csub -> im_ok IM ->
+  cfg_fx cfg = all_fixes -> cfg_params cfg = [] -> macs_std (cfg_macros cfg) -> subs_ext (cfg_subs cfg) -> csub_ext csub -> xi_ok xi -> im_ok IM ->
   vext V D -> lst_ok IM D st -> st_pending st = [] ->
   sfrags rw IM D V l D' V' ->
   exists items st', lower_stmts cfg l st = OK (items, st') /\
@@ -2378,7 +3102,7 @@ Theorem stmts_correct : forall (cfg : config) (rw : regwidth) (IM : string -> bo
     forall cs ms fuel cs', srel IM E D V cs ms -> imms_done IM E J cs ms -> cexecs E csub xi fuel cs l = Some cs' ->
       exists ms', runs rw ilsubs (fin_eff R rem (seqn (flat_map item_effects items))) ms ms' /\ srel IM E D' V' cs' ms' /\ imms_done IM E J cs' ms'.
 Proof.
-  intros cfg rw IM ilsubs E csub xi D V l D' V' st Hfx Hpar Hmacs Hssc Hcssc HIM Hext Hok Hp Hfrag.
+  intros cfg rw IM ilsubs E csub xi D V l D' V' st Hfx Hpar Hmacs Hssc Hcssc Hxi HIM Hext Hok Hp Hfrag.
   destruct cfg as [fx0 subs macs params cret hstart]. cbn in Hfx, Hpar, Hmacs, Hssc. subst fx0 params.
   destruct (exists_forall_swap3 (lower_stmts (mkcfg all_fixes subs macs [] cret hstart) l st)
               (fun R rem J items st' => lst_ok IM D' st' /\ st_ext st st' /\ Forall plain_item items /\
@@ -2388,8 +3112,9 @@ Proof.
                     exists ms', runs rw ilsubs (fin_eff R rem (seqn (flat_map item_effects items))) ms ms' /\ srel IM E D' V' cs' ms' /\ imms_done IM E J cs' ms'))
               (@nil (string * reginfo)) (@nil string) (@nil effect)) as [items [st' [L H]]].
   - intros R rem J.
-    destruct (proj2 (stmt_inv subs macs cret hstart Hmacs Hssc rw IM HIM R rem J ilsubs E csub Hcssc xi) D V l D' V' Hfrag st Hext Hok Hp)
+    destruct (proj2 (stmt_inv subs macs cret hstart Hmacs Hssc rw IM HIM R rem J ilsubs E csub Hcssc xi Hxi) D V l D' V' Hfrag st Hext Hok (or_introl Hp))
       as [items [st' [L [[H1 [H2 [H3 H6]]] N]]]].
+    apply pitem_plain in H3.
     exists items, st'. split; [exact L|]. repeat (split; [assumption|]). exact H6.
   - exists items, st'. split; [exact L|]. destruct (H [] [] []) as [H1 [H2 [H3 [H4 _]]]]. repeat (split; [assumption|]).
     intros R rem J. apply (H R rem J).
@@ -2421,7 +3146,7 @@ Proof. intros H Hl. unfold cimm. rewrite (H l Hl). reflexivity. Qed.
 Lemma srel_set_imm IM E D V cs ms x : im_ok IM -> imm_fresh IM cs -> srel IM E D V cs ms -> IM x = true ->
   srel IM E D V cs (set_local ms x (VBv 32 (wrap 32 (imms ms x)))).
 Proof.
-  intros [HI1 HI2] Hfr [[R1 [R2 [R3 [R4 [R5 R6]]]]] [H2 [H3 [H4 [H5 [H6 [H7 [H8 H9]]]]]]]] Hx.
+  intros [HI1 [HI2 _]] Hfr [[R1 [R2 [R3 [R4 [R5 R6]]]]] [H2 [H3 [H4 [H5 [H6 [H7 [H8 [H9 H10]]]]]]]]] Hx.
   assert (Hr : reserved IM x) by (right; right; left; exact Hx).
   split; [|split].
   - unfold rel. cbn [locals rnew rold rnew0 imms set_local]. split; [|auto 10].
@@ -2433,7 +3158,7 @@ Proof.
     + unfold jrel in *. cbn [locals set_local lookup].
       destruct (String.eqb_spec "jump_flag" x) as [<-|_]; [congruence|].
       destruct (String.eqb_spec "jump_target" x) as [<-|_]; [congruence|]. exact H6.
-    + split; [|split; [exact H8 | exact H9]]. intros l Hl. cbn [locals set_local lookup imms].
+    + split; [|split; [exact H8 | split; [exact H9 | apply htmp_ok_set_htmp; exact H10]]]. intros l Hl. cbn [locals set_local lookup imms].
       destruct (String.eqb_spec l x) as [->|_]; [|exact (H7 l Hl)].
       right. rewrite (cimm_fresh IM E cs x Hfr Hx), R5. reflexivity.
 Qed.
@@ -2481,29 +3206,29 @@ Qed.
    final register table): a whole behaviour of the fragment, started in the initial model state.
    Besides the simulation: the hybrid counter is untouched, nothing is left over, nothing is dropped. *)
 Theorem tlower_correct : forall (cfg : config) (rw : regwidth) (IM : string -> bool) (ilsubs : subenv) (E : cenv) (csub : csubs) xi prog D' V',
-  cfg_fx cfg = all_fixes -> cfg_params cfg = [] -> macs_std (cfg_macros cfg) -> subs_ext (cfg_subs cfg) -> csub_ext csub -> im_ok IM ->
+  cfg_fx cfg = all_fixes -> cfg_params cfg = [] -> macs_std (cfg_macros cfg) -> subs_ext (cfg_subs cfg) -> csub_ext csub -> xi_ok xi -> im_ok IM ->
   sfrags rw IM [] [] prog D' V' ->
-  exists eff, tlower_info cfg prog = OK (mkti eff (cfg_hstart cfg) 0 false []) /\
-    tlower cfg prog = OK (eff, cfg_hstart cfg) /\
+  exists eff h', tlower_info cfg prog = OK (mkti eff h' 0 false []) /\
+    tlower cfg prog = OK (eff, h') /\ (cfg_hstart cfg <= h')%N /\
     forall cs ms fuel cs', srel IM E [] [] cs ms -> imm_fresh IM cs -> cexecs E csub xi fuel cs prog = Some cs' ->
       exists ms', runs rw ilsubs eff ms ms' /\ srel IM E D' V' cs' ms'.
 Proof.
-  intros cfg rw IM ilsubs E csub xi prog D' V' Hfx Hpar Hmacs Hssc Hcssc HIM Hfrag.
-  destruct (stmts_correct cfg rw IM ilsubs E csub xi [] [] prog D' V' (init_state cfg) Hfx Hpar Hmacs Hssc Hcssc HIM (vext_refl _) (lst_ok_init IM cfg) eq_refl Hfrag)
+  intros cfg rw IM ilsubs E csub xi prog D' V' Hfx Hpar Hmacs Hssc Hcssc Hxi HIM Hfrag.
+  destruct (stmts_correct cfg rw IM ilsubs E csub xi [] [] prog D' V' (init_state cfg) Hfx Hpar Hmacs Hssc Hcssc Hxi HIM (vext_refl _) (lst_ok_init IM cfg) eq_refl Hfrag)
     as [items [st' [L [Hok [X [H5 [N H6]]]]]]].
   destruct X as [Fp [Fh [_ [Fr _]]]]. cbn [init_state st_pending st_hcount st_removed] in Fp, Fh, Fr.
   destruct prog as [|s t].
   - (* the empty behaviour *)
-    inversion Hfrag; subst. exists ENop. split; [reflexivity|]. split; [reflexivity|].
+    inversion Hfrag; subst. exists ENop, (cfg_hstart cfg). split; [reflexivity|]. split; [reflexivity|]. split; [apply N.le_refl|].
     intros cs ms fuel cs' Hrel Hfr Hce. destruct fuel as [|k]; [discriminate Hce|]. cbn in Hce. injection Hce as <-.
     exists ms. split; [apply runs_nop; reflexivity | exact Hrel].
   - assert (Hne : st_nonempty st' = true) by (apply N; [right; split; reflexivity | discriminate]).
-    exists (fin_eff (st_regs st') [] (seqn (st_imms st' ++ flat_map item_effects items))).
+    exists (fin_eff (st_regs st') [] (seqn (st_imms st' ++ flat_map item_effects items))), (st_hcount st').
     assert (Hinfo : tlower_info cfg (SCons s t) =
-                    OK (mkti (fin_eff (st_regs st') [] (seqn (st_imms st' ++ flat_map item_effects items))) (cfg_hstart cfg) 0 false [])).
-    { unfold tlower_info. rewrite L. rewrite (plain_not_dropped items H5), Hne, Fp, Fh, Fr. cbn [negb map app List.length].
+                    OK (mkti (fin_eff (st_regs st') [] (seqn (st_imms st' ++ flat_map item_effects items))) (st_hcount st') 0 false [])).
+    { unfold tlower_info. rewrite L. rewrite (plain_not_dropped items H5), Hne, Fp, Fr. cbn [negb map app List.length].
       rewrite (imms_kept IM (st_vars st') (st_imms st') (proj1 (proj2 (proj2 (proj2 Hok))))). reflexivity. }
-    split; [exact Hinfo|]. split; [unfold tlower; rewrite Hinfo; reflexivity|].
+    split; [exact Hinfo|]. split; [unfold tlower; rewrite Hinfo; reflexivity|]. split; [exact Fh|].
     intros cs ms fuel cs' Hrel Hfr Hce.
     assert (Hwf : Forall (fun e => exists x, IM x = true /\ e = imm_entry x) (st_imms st')).
     { eapply Forall_impl; [|exact (proj1 (proj2 (proj2 (proj2 Hok))))]. intros e [x [A [B _]]]. eauto. }
@@ -2517,13 +3242,13 @@ Print Assumptions tlower_correct.
 
 (* the same with the fuel of the IL interpreter made explicit: every sufficiently large fuel works *)
 Corollary tlower_correct_fuel : forall (cfg : config) (rw : regwidth) (IM : string -> bool) (ilsubs : subenv) (E : cenv) (csub : csubs) xi prog D' V' eff h,
-  cfg_fx cfg = all_fixes -> cfg_params cfg = [] -> macs_std (cfg_macros cfg) -> subs_ext (cfg_subs cfg) -> csub_ext csub -> im_ok IM ->
+  cfg_fx cfg = all_fixes -> cfg_params cfg = [] -> macs_std (cfg_macros cfg) -> subs_ext (cfg_subs cfg) -> csub_ext csub -> xi_ok xi -> im_ok IM ->
   sfrags rw IM [] [] prog D' V' -> tlower cfg prog = OK (eff, h) ->
   forall cs ms fuel cs', srel IM E [] [] cs ms -> imm_fresh IM cs -> cexecs E csub xi fuel cs prog = Some cs' ->
     exists n ms', (forall fuel', (n <= fuel')%nat -> exec rw ilsubs fuel' eff ms = Some ms') /\ srel IM E D' V' cs' ms'.
 Proof.
-  intros cfg rw IM ilsubs E csub xi prog D' V' eff h Hfx Hpar Hmacs Hssc Hcssc HIM Hfrag Hlow cs ms fuel cs' Hrel Hfr Hce.
-  destruct (tlower_correct cfg rw IM ilsubs E csub xi prog D' V' Hfx Hpar Hmacs Hssc Hcssc HIM Hfrag) as [eff0 [_ [Hlow0 Hsim]]].
+  intros cfg rw IM ilsubs E csub xi prog D' V' eff h Hfx Hpar Hmacs Hssc Hcssc Hxi HIM Hfrag Hlow cs ms fuel cs' Hrel Hfr Hce.
+  destruct (tlower_correct cfg rw IM ilsubs E csub xi prog D' V' Hfx Hpar Hmacs Hssc Hcssc Hxi HIM Hfrag) as [eff0 [h0 [_ [Hlow0 [_ Hsim]]]]].
   rewrite Hlow0 in Hlow. injection Hlow as <- _.
   destruct (Hsim cs ms fuel cs' Hrel Hfr Hce) as [ms' [[n Hn] Hrel']].
   exists n, ms'. split; [|exact Hrel'].
@@ -2558,7 +3283,8 @@ Module Example.
   Definition rw : regwidth := fun _ => 32%N.
   Definition env : cenv := mkce (fun _ => 0) (fun _ => 0) (fun _ => 0) 0 (fun _ => 0).
   Definition nosubs : csubs := fun _ => None.
-  Definition noxi : string -> bool -> option (regop * N) := fun _ _ => None.
+  (* (the table of explicit registers the C semantics is given: the standard one, ExprCorrect.xi_ok_std) *)
+  Definition noxi : string -> bool -> option (regop * N) := explicit_reg_info.
   (* the IL machine state that starts from the operand environment E, before the instruction has done anything *)
   Definition ms_of (E : cenv) : mstate :=
     {| locals := []; rold := ce_rold E; rnew := []; rnew0 := ce_rnew0 E; imms := ce_imms E;
@@ -2577,7 +3303,7 @@ Module Example.
       | apply pf_bin; [unfold is_folding_op, is_plain_op, is_cmp; auto 15 | | ]
       | apply pf_un; [auto | ] ].
 
-  Ltac not_reserved := intros [Hres | [Hres | [Hres | Hres]]]; try discriminate Hres; vm_compute in Hres; discriminate Hres.
+  Ltac not_reserved := intros [Hres | [Hres | [Hres | [Hres | Hres]]]]; try discriminate Hres; vm_compute in Hres; discriminate Hres.
 
   (* every operand environment is related to its initial machine state *)
   Lemma srel_init IM E : srel IM E [] [] cs0 (ms_of E).
@@ -2586,7 +3312,7 @@ Module Example.
     - unfold rel. cbn [cs0 ms_of cs_vars cs_regw cs_mem locals rnew rold rnew0 imms mem mem0 pktaddr lookup lookup_reg].
       split; [intros x sg w H; discriminate H|].
       repeat (split; [reflexivity|]). split; [|auto 10]. intros l _. unfold cimm. cbn [cs0 cs_vars lookup]. apply wrap_range.
-    - cbn. repeat split; try reflexivity; try (intros x t H; discriminate H). intros l _. left. reflexivity.
+    - cbn. repeat split; try reflexivity; try (intros x t H; discriminate H); try (intros l _; left; reflexivity).
   Qed.
   Lemma fresh_init IM : imm_fresh IM cs0.
   Proof. intros l _. reflexivity. Qed.
@@ -2651,7 +3377,8 @@ Module Example.
       cexecs env nosubs noxi 20 cs0 prog = Some cs' /\ runs rw ilsubs eff ms0 ms' /\ srel imm_letter env Vx Vx cs' ms'.
   Proof.
     intros ilsubs.
-    destruct (tlower_correct cfg rw imm_letter ilsubs env nosubs noxi prog Vx Vx eq_refl eq_refl macs_std_self subs_ext_nil csub_ext_none im_ok_letters prog_in_fragment) as [eff [_ [Hl Hsim]]].
+    destruct (tlower_correct cfg rw imm_letter ilsubs env nosubs noxi prog Vx Vx eq_refl eq_refl macs_std_self subs_ext_nil csub_ext_none xi_ok_std im_ok_letters prog_in_fragment) as [eff [h0 [_ [Hl [_ Hsim]]]]].
+    assert (Eh : h0 = 0%N) by (pose proof Hl as Hl'; vm_compute in Hl'; injection Hl' as _ Eh; symmetry; exact Eh). subst h0.
     destruct premises_satisfiable as [_ [_ [Hrel [cs' [Hc _]]]]].
     destruct (Hsim cs0 ms0 20%nat cs' Hrel (fresh_init _) Hc) as [ms' [Hrun Hrel']].
     exists eff, cs', ms'. auto.
@@ -2719,7 +3446,8 @@ Module Example.
       rnew ms' = [(RIsa "R" "d" false, 1999)] /\ mem ms' = [(1003, 0); (1002, 0); (1001, 7); (1000, 207)].
   Proof.
     intros ilsubs.
-    destruct (tlower_correct cfg rw imm_letter ilsubs env2 nosubs noxi prog2 Vt Vt eq_refl eq_refl macs_std_self subs_ext_nil csub_ext_none im_ok_letters prog2_in_fragment) as [eff [_ [Hl Hsim]]].
+    destruct (tlower_correct cfg rw imm_letter ilsubs env2 nosubs noxi prog2 Vt Vt eq_refl eq_refl macs_std_self subs_ext_nil csub_ext_none xi_ok_std im_ok_letters prog2_in_fragment) as [eff [h0 [_ [Hl [_ Hsim]]]]].
+    assert (Eh : h0 = 0%N) by (pose proof Hl as Hl'; vm_compute in Hl'; injection Hl' as _ Eh; symmetry; exact Eh). subst h0.
     destruct premises2_satisfiable as [_ [_ [Hrel [cs' [Hc [_ [Hr Hm]]]]]]].
     destruct (Hsim cs0 (ms_of env2) 20%nat cs' Hrel (fresh_init _) Hc) as [ms' [Hrun Hrel']].
     exists eff, cs', ms'. repeat (split; [assumption|]).
@@ -2788,7 +3516,8 @@ Module Example.
       rnew ms' = [(RIsa "R" "x" false, 42); (RIsa "R" "d" false, 0)].      (* RddV = -1 + 1 = 0; RxV = 40 + 2 *)
   Proof.
     intros ilsubs.
-    destruct (tlower_correct cfg rw3 imm_letter ilsubs env3 nosubs noxi prog3 [] [] eq_refl eq_refl macs_std_self subs_ext_nil csub_ext_none im_ok_letters prog3_in_fragment) as [eff [_ [Hl Hsim]]].
+    destruct (tlower_correct cfg rw3 imm_letter ilsubs env3 nosubs noxi prog3 [] [] eq_refl eq_refl macs_std_self subs_ext_nil csub_ext_none xi_ok_std im_ok_letters prog3_in_fragment) as [eff [h0 [_ [Hl [_ Hsim]]]]].
+    assert (Eh : h0 = 0%N) by (pose proof Hl as Hl'; vm_compute in Hl'; injection Hl' as _ Eh; symmetry; exact Eh). subst h0.
     assert (Hc : exists cs', cexecs env3 nosubs noxi 20 cs0 prog3 = Some cs' /\ cs_regw cs' = [(RIsa "R" "x" false, 42); (RIsa "R" "d" false, 0)]).
     { eexists. split; [vm_compute; reflexivity | reflexivity]. }
     destruct Hc as [cs' [Hc Hr]].
@@ -2854,6 +3583,11 @@ Module Example.
      behaviour uses are reserved.  A local named like ANOTHER immediate letter of the grammar is fine:
         int32_t n = siV + 1;  RdV = n;          (uses siV only: IM = {s}) *)
   Definition only_s : string -> bool := fun l => String.eqb l "s".
+  Lemma im_ok_only_s : im_ok only_s.
+  Proof.
+    destruct (proj1 (im_ok_l_iff ["s"]) eq_refl) as [_ [_ C]]. split; [reflexivity|]. split; [reflexivity|].
+    intros x Hx. specialize (C x Hx). cbn [existsb] in C. rewrite orb_false_r in C. exact C.
+  Qed.
   Definition prog4 : cstmts :=
     SCons (SDecl [TS_intN true 32] "n" (Some (EBin Ast.BAdd (imm "s") (num 1))))
    (SCons (SExpr (EAssign AAssign (reg "R" "d") (var "n"))) SNil).
@@ -2873,8 +3607,9 @@ Module Example.
       srel only_s env9 [("n", Some (ty_int true 32))] [("n", Some (ty_int true 32))] cs' ms' /\ rnew ms' = [(RIsa "R" "d" false, 10)].
   Proof.
     intros ilsubs.
-    assert (HIM : im_ok only_s) by (split; reflexivity).
-    destruct (tlower_correct cfg rw only_s ilsubs env9 nosubs noxi prog4 _ _ eq_refl eq_refl macs_std_self subs_ext_nil csub_ext_none HIM prog4_in_fragment) as [eff [_ [Hl Hsim]]].
+    assert (HIM : im_ok only_s) by exact im_ok_only_s.
+    destruct (tlower_correct cfg rw only_s ilsubs env9 nosubs noxi prog4 _ _ eq_refl eq_refl macs_std_self subs_ext_nil csub_ext_none xi_ok_std HIM prog4_in_fragment) as [eff [h0 [_ [Hl [_ Hsim]]]]].
+    assert (Eh : h0 = 0%N) by (pose proof Hl as Hl'; vm_compute in Hl'; injection Hl' as _ Eh; symmetry; exact Eh). subst h0.
     assert (Hc : exists cs', cexecs env9 nosubs noxi 20 cs0 prog4 = Some cs' /\ cs_regw cs' = [(RIsa "R" "d" false, 10)]).
     { eexists. split; [vm_compute; reflexivity | reflexivity]. }
     destruct Hc as [cs' [Hc Hr]].
@@ -2922,8 +3657,9 @@ Module Example.
       srel only_s env5 [] [] cs' ms' /\ rnew ms' = [(RIsa "P" "d" false, 1); (RIsa "R" "x" false, 22)].
   Proof.
     intros ilsubs.
-    assert (HIM : im_ok only_s) by (split; reflexivity).
-    destruct (tlower_correct cfg rw5 only_s ilsubs env5 nosubs noxi prog5 _ _ eq_refl eq_refl macs_std_self subs_ext_nil csub_ext_none HIM prog5_in_fragment) as [eff [_ [Hl Hsim]]].
+    assert (HIM : im_ok only_s) by exact im_ok_only_s.
+    destruct (tlower_correct cfg rw5 only_s ilsubs env5 nosubs noxi prog5 _ _ eq_refl eq_refl macs_std_self subs_ext_nil csub_ext_none xi_ok_std HIM prog5_in_fragment) as [eff [h0 [_ [Hl [_ Hsim]]]]].
+    assert (Eh : h0 = 0%N) by (pose proof Hl as Hl'; vm_compute in Hl'; injection Hl' as _ Eh; symmetry; exact Eh). subst h0.
     assert (Hc : exists cs', cexecs env5 nosubs noxi 20 cs0 prog5 = Some cs' /\
                              cs_regw cs' = [(RIsa "P" "d" false, 1); (RIsa "R" "x" false, 22)]).
     { eexists. split; [vm_compute; reflexivity | reflexivity]. }
